@@ -17,2027 +17,1632 @@ Definition terms (ts : list tok) (t : pt) : string :=
 Definition terms_full (ts : list tok) (t : pt) : string :=
   show_toks (Some ts) ++ nl ++ show_pt (Some t) ++ nl ++ show_pt (parse ts).
 Eval vm_compute in ("<<<M10>>>" ++ check (runes_of_ascii "
-options{
-crc
-// " ++ [128512]%N ++ runes_of_ascii " emoji
-// trailing space 
-= uint8} packet len {uint8x @calculatedFrom( ""x y"" ), @lengthOf(
-    rootA  )
-    @lengthOf( body
-// `tick` ""quote"" 'q'
-// `tick` ""quote"" 'q'
-)@calculatedFrom(  ""x y""
-) Packet  @calculatedFrom(// `tick` ""quote"" 'q'
-""\n"" )
-`
-`
-, Packet ,  repeat
-    // trailing space 
-    i8	Z9_ , @tag(255 )
-falsey `
-` ,	i64 int `line1
-line2` ,@calculatedFrom(
-    ""\n""
-// packet A { u8 x, }
-/// triple
-) @leftPad()
-@calculatedFrom(//	t
-""abc"" )// packet A { u8 x, }
-BodyLength ,uint8 u , @calculatedFrom(
-    ""a\""b""
-) @lengthOf( metadata ) @rightPad (' ') // packet A { u8 x, }
-char[10] f32a , }  packet repeatCount { }options  {
-string_ =  i32 ;
-o =	""a	b"" ;
-    i8i8	=
-    ""a\""b"" ; uint8x =
-uint16
-    // " ++ [128512]%N ++ runes_of_ascii " emoji
-    ;
-}")).
-Eval vm_compute in ("<<<M42>>>" ++ check (runes_of_ascii "MetaData crc
-{ } // @lengthOf(")).
-Eval vm_compute in ("<<<M74>>>" ++ check (runes_of_ascii "MetaData len //	t
-{ f64 calculatedFrom , x_y_z	x
-,} packet repeatCount { @lengthOf(pack ) match
-x_y_z as o // " ++ [27880; 37322]%N ++ runes_of_ascii "
-{ 7:
-Header
-// `tick` ""quote"" 'q'
-// a // b
-} , } options { lengthOf  = true; }
-packet  leftPad
-    {
-    MetaDataX @lengthOf( T ) `two words` ,
-    }")).
-Eval vm_compute in ("<<<M106>>>" ++ check (runes_of_ascii "
-options {
-a1/// triple
-=""1""
-;
-trueish	=  i64 ; stringy=""" ++ [128512]%N ++ runes_of_ascii """
-; u8x
-= 255 ;
-u128
-=
-""`tick`""; }
-
-")).
-Eval vm_compute in ("<<<M138>>>" ++ check (runes_of_ascii "
-
-// c
-")).
-Eval vm_compute in ("<<<M170>>>" ++ check (runes_of_ascii "packet
-    // `tick` ""quote"" 'q'
-    u8x {} packet calculatedFrom
-    {
-    i8i8
-len
-,
-    match lengthOf as leftPad
-{ 007
-    : crc
-, ""abc"": o 10 : falsey
-    } , repeat  i8
-metadata  , @calculatedFrom(""" ++ [28040; 24687]%N ++ runes_of_ascii """ ) repeat int16
-leftPad
-    // trailing space 
-    ``
-    ,BodyLength
-    @calculatedFrom(  ""a\\""
-    ) ,
-char[] f32a,
-    tag// packet A { u8 x, }
-rootA
-, @rightPad (
-    // " ++ [27880; 37322]%N ++ runes_of_ascii "
-    ' ' ) @tag( 007 ) match o as
-    // " ++ [27880; 37322]%N ++ runes_of_ascii "
-    _x { [ 1
-    // " ++ [27880; 37322]%N ++ runes_of_ascii "
-    ,
-""a	b""
-, ""1"" ,
-00 ,7
-// " ++ [128512]%N ++ runes_of_ascii " emoji
-//x
-,""" ++ [233]%N ++ runes_of_ascii "t" ++ [233]%N ++ runes_of_ascii """
-    ,
-    // c
-    7 ,00
-    ]
-    : Foo ,
-    // " ++ [27880; 37322]%N ++ runes_of_ascii "
-    ""\" ++ [233]%N ++ runes_of_ascii """// @lengthOf(
-:  matchKey
-    ,},//x
-@rightPad (	'\x00' )string msg_type	, }
-packet  trueish {u8x
-``
-, @lengthOf( Header
-    )
-    repeat int64 int	`` ,
-} MetaData matchKey	{ string msg_type	, zchar[
-    //	t
-    4294967296
-]
-repeatCount `it's`
-, u8
-crc
-, zchar
-o ,int64 asx
-, }root
-packet chars{
-    }
-")).
-Eval vm_compute in ("<<<M202>>>" ++ check (runes_of_ascii "packet i8i8// a // b
-{ a1`{ , }` ,
-// a // b
+packet As {
 // " ++ [27880; 37322]%N ++ runes_of_ascii "
-} //x")).
-Eval vm_compute in ("<<<T202>>>" ++ terms [mkTok 35 "packet" 1 0 false; mkTok 42 "i8i8" 1 7 false; mkTok 44 "// a // b" 1 11 true; mkTok 2 "{" 2 0 false; mkTok 42 "a1" 2 2 false; mkTok 43 "`{ , }`" 2 4 false; mkTok 40 "," 2 12 false; mkTok 44 "// a // b" 3 0 true; mkTok 44 (string_of_bytes [47; 47; 32; 230; 179; 168; 233; 135; 138]%N) 4 0 true; mkTok 3 "}" 5 0 false; mkTok 44 "//x" 5 2 true; mkTok 0 "<EOF>" 5 5 false] (mkPacket (mkPtok 35 "packet" 1 0 0) (Some (mkPtok 3 "}" 5 0 9)) [(DPacket (mkPacketDef (mkSpan (mkPtok 35 "packet" 1 0 0) (mkPtok 3 "}" 5 0 9)) None (mkPtok 35 "packet" 1 0 0) (mkPtok 42 "i8i8" 1 7 1) (mkPtok 2 "{" 2 0 3) [(mkFieldWithAttr (mkSpan (mkPtok 42 "a1" 2 2 4) (mkPtok 40 "," 2 12 6)) [] (ObjectField (mkSpan (mkPtok 42 "a1" 2 2 4) (mkPtok 40 "," 2 12 6)) None (mkPtok 42 "a1" 2 2 4) None (Some (mkPtok 43 "`{ , }`" 2 4 5)) (mkPtok 40 "," 2 12 6)))] (mkPtok 3 "}" 5 0 9)))])).
-Eval vm_compute in ("<<<M234>>>" ++ check (runes_of_ascii "
-MetaData options1 { zchar[
-    007 ] // `tick` ""quote"" 'q'
-zchar	`a\` , uint32 As ,
-    i8i8
-Foo ,
-// packet A { u8 x, }
-//x
-}
-    packet falsey { }")).
-Eval vm_compute in ("<<<M266>>>" ++ check (runes_of_ascii "packet
-Pad // " ++ [27880; 37322]%N ++ runes_of_ascii "
-{ @tag(	65535 )repeat char[
-    //	t
-    4294967296 ] o
-    `u8 x,`  ,
-@calculatedFrom(""x y"" )
-metadata // c
-@lengthOf(repeatCount )`tab	here`	,} packet u128 {
-// packet A { u8 x, }
-// " ++ [128512]%N ++ runes_of_ascii " emoji
-repeat // " ++ [128512]%N ++ runes_of_ascii " emoji
-zchar[
-10 ]_x// " ++ [27880; 37322]%N ++ runes_of_ascii "
-, /// triple
-}
-options
-{ /// triple
-msg_type
-= true ;}packet tag {// c
-@tag(7 ) i32
-f32a @lengthOf( u8x)
-`two words`
-,
-string
-Foo  @lengthOf( Foo ) ,
-@rightPad(
-'0' ) match As as
-// @lengthOf(
-// `tick` ""quote"" 'q'
-crc // a // b
-{"""": float , //	t
-} , repeat i16 i8i8 , @rightPad/// triple
-(
-    '0' ) repeat u128
-    { i64 tag
-@calculatedFrom( """ ++ [28040; 24687]%N ++ runes_of_ascii """ ) ,i8i8
-@calculatedFrom( // " ++ [27880; 37322]%N ++ runes_of_ascii "
-""{,}""
-)`it's` , repeat string
-    rootA /// triple
-, }, repeat string
-chars,
-    asx, match calculatedFrom as
-calculatedFrom {
-    ""a\""b"" :  Logon ""a	b"" : asx } , char zchar @calculatedFrom( ""1""
-    )
-    `say ""hi""`
-    ,  }
+// " ++ [27880; 37322]%N ++ runes_of_ascii "
+Foo , @lengthOf( f32a ) float32 a1 ,	string pack @lengthOf( i64_
+)`crlf
+line`, @rightPad () @leftPad
+    ( '\x00'
+    ) @calculatedFrom(
+""// no comment"") repeat Header charz , }
 ")).
-Eval vm_compute in ("<<<M298>>>" ++ check (runes_of_ascii "MetaData
-Header { int64
-zchar
-`u8 x,` , Header u8x ,  zchar[ 65535]u ,	A options1
-`it's` , zchar[  007 ] MetaDataX , zchar[// `tick` ""quote"" 'q'
-0] As , }
-    MetaData Logon	{char[] rootA,
-} packet int
-{
-f32 falsey, } MetaData float { len
-leftPad ,
-    A
+Eval vm_compute in ("<<<M42>>>" ++ check (runes_of_ascii "options	{
+    // 50% %s
     Foo
-`tab	here`
-    , char[ 65535
-] T
-`line1
-line2` ,	} options // " ++ [128512]%N ++ runes_of_ascii " emoji
-{
-// " ++ [128512]%N ++ runes_of_ascii " emoji
-// " ++ [27880; 37322]%N ++ runes_of_ascii "
-float
-    ='0'
-//x
-// a // b
-;float
-= true
-    ;	Foo = ""\n""}")).
-Eval vm_compute in ("<<<M330>>>" ++ check (runes_of_ascii "MetaData As{ }")).
-Eval vm_compute in ("<<<M362>>>" ++ check (runes_of_ascii "// `tick` ""quote"" 'q'
-root	packet /// triple
-As { }packet x_y_z{@rightPad (
-) @tag( 42 )
-    @rightPad (' ' ) repeat f32a charz ,match Header as// a // b
-stringy { [ 1	,	4294967296 ]// packet A { u8 x, }
-: rootA ,
-0123456789 : x_y_z
-    , [
-    65535
-, 255]	:
-/// triple
-// a // b
-metadata ,
-[	7 , """ ++ [233]%N ++ runes_of_ascii "t" ++ [233]%N ++ runes_of_ascii """, ""{,}"" ,""{,}"" ] : T
-// trailing space 
-// " ++ [27880; 37322]%N ++ runes_of_ascii "
-,""packet"" :
-    chars , // trailing space 
-[ 42
-    , //
-00] : Logon,} ,repeat i8i8 {
-tag @calculatedFrom(// " ++ [27880; 37322]%N ++ runes_of_ascii "
-""" ++ [128512]%N ++ runes_of_ascii """ )`{ , }` , }
-,Z9_ @lengthOf(
-    Packet
-    // @lengthOf(
-    ) ,
-    // trailing space 
-    lengthOf
-    ,
-trueish {
-zchar[ 007/// triple
-]
-    packetx, zchar[ 0123456789
-] MetaDataX `// not a comment`
-, rootA @lengthOf(Z9_)
-    `" ++ [233]%N ++ runes_of_ascii "`, }
-,	} root// a // b
-packet u8x { float64 len@calculatedFrom( ""packet"" )
-//
-// " ++ [27880; 37322]%N ++ runes_of_ascii "
-, u8 calculatedFrom , @calculatedFrom( ""a\""b""
-) @calculatedFrom( ""\n"") // trailing space 
-@lengthOf(
-    Foo ) Logon @lengthOf(	i8i8) , // trailing space 
-@calculatedFrom(
-""a\\"") falsey@calculatedFrom(
-""" ++ [233]%N ++ runes_of_ascii "t" ++ [233]%N ++ runes_of_ascii """)`line1
-line2` ,@leftPad('\x00' )
-    // c
-    match
-i64_	as
-    // c
-    i64_{ [
-    0123456789 ] :  a1
-,[ ""1"" ,
-3 , //
-3 , 7 , 0
-] :string_ ,
-    """"// `tick` ""quote"" 'q'
-:
-    i64_ , }, @lengthOf( As )
-    // packet A { u8 x, }
-    T{zchar[ 0] roots
-@lengthOf(
-options1 )
-    , /// triple
-u16 pack
-    ,//
-} ,/// triple
-string// `tick` ""quote"" 'q'
-x	`crlf
-line`
-, }")).
-Eval vm_compute in ("<<<M394>>>" ++ check (runes_of_ascii "//
-packet u8x{
-    }	packet
-    crc { }")).
-Eval vm_compute in ("<<<M426>>>" ++ check (runes_of_ascii "// " ++ [128512]%N ++ runes_of_ascii " emoji
-packet
-    roots
-{x_y_z @lengthOf(
-    u128
-) ,
-    @calculatedFrom( ""it's"")match
-a1
-as
-    Pad
-{ ""`tick`"" : x_y_z ,1
-: leftPad 00
-:
-u8x
-7 //x
-:falsey , ""1"" :Packet ,
-//x
-// trailing space 
-""`tick`""
-    : As//x
-}	, @tag(	007 )  char[]MetaDataX ,string chars @calculatedFrom( ""`tick`"" )
-    , } root packet calculatedFrom
-    { repeat zchar[ 255 ] matchKey `doc` , char[ 4294967296 ]  options1 @lengthOf(
-stringy//	t
-) , } // a // b")).
-Eval vm_compute in ("<<<T426>>>" ++ terms [mkTok 44 (string_of_bytes [47; 47; 32; 240; 159; 152; 128; 32; 101; 109; 111; 106; 105]%N) 1 0 true; mkTok 35 "packet" 2 0 false; mkTok 42 "roots" 3 4 false; mkTok 2 "{" 4 0 false; mkTok 42 "x_y_z" 4 1 false; mkTok 7 "@lengthOf(" 4 7 false; mkTok 42 "u128" 5 4 false; mkTok 6 ")" 6 0 false; mkTok 40 "," 6 2 false; mkTok 5 "@calculatedFrom(" 7 4 false; mkTok 31 """it's""" 7 21 false; mkTok 6 ")" 7 27 false; mkTok 38 "match" 7 28 false; mkTok 42 "a1" 8 0 false; mkTok 17 "as" 9 0 false; mkTok 42 "Pad" 10 4 false; mkTok 2 "{" 11 0 false; mkTok 31 """`tick`""" 11 2 false; mkTok 39 ":" 11 11 false; mkTok 42 "x_y_z" 11 13 false; mkTok 40 "," 11 19 false; mkTok 30 "1" 11 20 false; mkTok 39 ":" 12 0 false; mkTok 42 "leftPad" 12 2 false; mkTok 30 "00" 12 10 false; mkTok 39 ":" 13 0 false; mkTok 42 "u8x" 14 0 false; mkTok 30 "7" 15 0 false; mkTok 44 "//x" 15 2 true; mkTok 39 ":" 16 0 false; mkTok 42 "falsey" 16 1 false; mkTok 40 "," 16 8 false; mkTok 31 """1""" 16 10 false; mkTok 39 ":" 16 14 false; mkTok 42 "Packet" 16 15 false; mkTok 40 "," 16 22 false; mkTok 44 "//x" 17 0 true; mkTok 44 "// trailing space " 18 0 true; mkTok 31 """`tick`""" 19 0 false; mkTok 39 ":" 20 4 false; mkTok 42 "As" 20 6 false; mkTok 44 "//x" 20 8 true; mkTok 3 "}" 21 0 false; mkTok 40 "," 21 2 false; mkTok 9 "@tag(" 21 4 false; mkTok 30 "007" 21 10 false; mkTok 6 ")" 21 14 false; mkTok 16 "char[]" 21 17 false; mkTok 42 "MetaDataX" 21 23 false; mkTok 40 "," 21 33 false; mkTok 15 "string" 21 34 false; mkTok 42 "chars" 21 41 false; mkTok 5 "@calculatedFrom(" 21 47 false; mkTok 31 """`tick`""" 21 64 false; mkTok 6 ")" 21 73 false; mkTok 40 "," 22 4 false; mkTok 3 "}" 22 6 false; mkTok 34 "root" 22 8 false; mkTok 35 "packet" 22 13 false; mkTok 42 "calculatedFrom" 22 20 false; mkTok 2 "{" 23 4 false; mkTok 36 "repeat" 23 6 false; mkTok 14 "zchar[" 23 13 false; mkTok 30 "255" 23 20 false; mkTok 13 "]" 23 24 false; mkTok 42 "matchKey" 23 26 false; mkTok 43 "`doc`" 23 35 false; mkTok 40 "," 23 41 false; mkTok 12 "char[" 23 43 false; mkTok 30 "4294967296" 23 49 false; mkTok 13 "]" 23 60 false; mkTok 42 "options1" 23 63 false; mkTok 7 "@lengthOf(" 23 72 false; mkTok 42 "stringy" 24 0 false; mkTok 44 (string_of_bytes [47; 47; 9; 116]%N) 24 7 true; mkTok 6 ")" 25 0 false; mkTok 40 "," 25 2 false; mkTok 3 "}" 25 4 false; mkTok 44 "// a // b" 25 6 true; mkTok 0 "<EOF>" 25 15 false] (mkPacket (mkPtok 35 "packet" 2 0 1) (Some (mkPtok 3 "}" 25 4 77)) [(DPacket (mkPacketDef (mkSpan (mkPtok 35 "packet" 2 0 1) (mkPtok 3 "}" 22 6 56)) None (mkPtok 35 "packet" 2 0 1) (mkPtok 42 "roots" 3 4 2) (mkPtok 2 "{" 4 0 3) [(mkFieldWithAttr (mkSpan (mkPtok 42 "x_y_z" 4 1 4) (mkPtok 40 "," 6 2 8)) [] (LengthField (mkSpan (mkPtok 42 "x_y_z" 4 1 4) (mkPtok 40 "," 6 2 8)) (mkLengthFieldDecl (mkSpan (mkPtok 42 "x_y_z" 4 1 4) (mkPtok 40 "," 6 2 8)) None (mkPtok 42 "x_y_z" 4 1 4) (mkLengthOf (mkSpan (mkPtok 7 "@lengthOf(" 4 7 5) (mkPtok 6 ")" 6 0 7)) (mkPtok 7 "@lengthOf(" 4 7 5) (mkPtok 42 "u128" 5 4 6) (mkPtok 6 ")" 6 0 7)) None (mkPtok 40 "," 6 2 8)))); (mkFieldWithAttr (mkSpan (mkPtok 5 "@calculatedFrom(" 7 4 9) (mkPtok 40 "," 21 2 43)) [(FACalculatedFrom (mkSpan (mkPtok 5 "@calculatedFrom(" 7 4 9) (mkPtok 6 ")" 7 27 11)) (mkCalculatedFrom (mkSpan (mkPtok 5 "@calculatedFrom(" 7 4 9) (mkPtok 6 ")" 7 27 11)) (mkPtok 5 "@calculatedFrom(" 7 4 9) (mkPtok 31 """it's""" 7 21 10) (mkPtok 6 ")" 7 27 11)))] (MatchField (mkSpan (mkPtok 38 "match" 7 28 12) (mkPtok 40 "," 21 2 43)) (mkMatchFieldDecl (mkSpan (mkPtok 38 "match" 7 28 12) (mkPtok 3 "}" 21 0 42)) (mkPtok 38 "match" 7 28 12) (mkPtok 42 "a1" 8 0 13) (mkPtok 17 "as" 9 0 14) (mkPtok 42 "Pad" 10 4 15) (mkPtok 2 "{" 11 0 16) [(mkMatchPair (mkSpan (mkPtok 31 """`tick`""" 11 2 17) (mkPtok 40 "," 11 19 20)) (MKString (mkPtok 31 """`tick`""" 11 2 17)) (mkPtok 39 ":" 11 11 18) (mkPtok 42 "x_y_z" 11 13 19) (Some (mkPtok 40 "," 11 19 20))); (mkMatchPair (mkSpan (mkPtok 30 "1" 11 20 21) (mkPtok 42 "leftPad" 12 2 23)) (MKDigits (mkPtok 30 "1" 11 20 21)) (mkPtok 39 ":" 12 0 22) (mkPtok 42 "leftPad" 12 2 23) None); (mkMatchPair (mkSpan (mkPtok 30 "00" 12 10 24) (mkPtok 42 "u8x" 14 0 26)) (MKDigits (mkPtok 30 "00" 12 10 24)) (mkPtok 39 ":" 13 0 25) (mkPtok 42 "u8x" 14 0 26) None); (mkMatchPair (mkSpan (mkPtok 30 "7" 15 0 27) (mkPtok 40 "," 16 8 31)) (MKDigits (mkPtok 30 "7" 15 0 27)) (mkPtok 39 ":" 16 0 29) (mkPtok 42 "falsey" 16 1 30) (Some (mkPtok 40 "," 16 8 31))); (mkMatchPair (mkSpan (mkPtok 31 """1""" 16 10 32) (mkPtok 40 "," 16 22 35)) (MKString (mkPtok 31 """1""" 16 10 32)) (mkPtok 39 ":" 16 14 33) (mkPtok 42 "Packet" 16 15 34) (Some (mkPtok 40 "," 16 22 35))); (mkMatchPair (mkSpan (mkPtok 31 """`tick`""" 19 0 38) (mkPtok 42 "As" 20 6 40)) (MKString (mkPtok 31 """`tick`""" 19 0 38)) (mkPtok 39 ":" 20 4 39) (mkPtok 42 "As" 20 6 40) None)] (mkPtok 3 "}" 21 0 42)) (mkPtok 40 "," 21 2 43))); (mkFieldWithAttr (mkSpan (mkPtok 9 "@tag(" 21 4 44) (mkPtok 40 "," 21 33 49)) [(FATag (mkSpan (mkPtok 9 "@tag(" 21 4 44) (mkPtok 6 ")" 21 14 46)) (mkTagAttr (mkSpan (mkPtok 9 "@tag(" 21 4 44) (mkPtok 6 ")" 21 14 46)) (mkPtok 9 "@tag(" 21 4 44) (mkPtok 30 "007" 21 10 45) (mkPtok 6 ")" 21 14 46)))] (MetaField (mkSpan (mkPtok 16 "char[]" 21 17 47) (mkPtok 40 "," 21 33 49)) None (mkMetaDecl (mkSpan (mkPtok 16 "char[]" 21 17 47) (mkPtok 40 "," 21 33 49)) (TyDynamic (mkSpan (mkPtok 16 "char[]" 21 17 47) (mkPtok 16 "char[]" 21 17 47)) (mkDynamicString (mkSpan (mkPtok 16 "char[]" 21 17 47) (mkPtok 16 "char[]" 21 17 47)) (mkPtok 16 "char[]" 21 17 47))) (mkPtok 42 "MetaDataX" 21 23 48) None (mkPtok 40 "," 21 33 49)))); (mkFieldWithAttr (mkSpan (mkPtok 15 "string" 21 34 50) (mkPtok 40 "," 22 4 55)) [] (CheckSumField (mkSpan (mkPtok 15 "string" 21 34 50) (mkPtok 40 "," 22 4 55)) (mkChecksumFieldDecl (mkSpan (mkPtok 15 "string" 21 34 50) (mkPtok 40 "," 22 4 55)) (Some (TyDynamic (mkSpan (mkPtok 15 "string" 21 34 50) (mkPtok 15 "string" 21 34 50)) (mkDynamicString (mkSpan (mkPtok 15 "string" 21 34 50) (mkPtok 15 "string" 21 34 50)) (mkPtok 15 "string" 21 34 50)))) (mkPtok 42 "chars" 21 41 51) (mkCalculatedFrom (mkSpan (mkPtok 5 "@calculatedFrom(" 21 47 52) (mkPtok 6 ")" 21 73 54)) (mkPtok 5 "@calculatedFrom(" 21 47 52) (mkPtok 31 """`tick`""" 21 64 53) (mkPtok 6 ")" 21 73 54)) None (mkPtok 40 "," 22 4 55))))] (mkPtok 3 "}" 22 6 56))); (DPacket (mkPacketDef (mkSpan (mkPtok 34 "root" 22 8 57) (mkPtok 3 "}" 25 4 77)) (Some (mkPtok 34 "root" 22 8 57)) (mkPtok 35 "packet" 22 13 58) (mkPtok 42 "calculatedFrom" 22 20 59) (mkPtok 2 "{" 23 4 60) [(mkFieldWithAttr (mkSpan (mkPtok 36 "repeat" 23 6 61) (mkPtok 40 "," 23 41 67)) [] (MetaField (mkSpan (mkPtok 36 "repeat" 23 6 61) (mkPtok 40 "," 23 41 67)) (Some (mkPtok 36 "repeat" 23 6 61)) (mkMetaDecl (mkSpan (mkPtok 14 "zchar[" 23 13 62) (mkPtok 40 "," 23 41 67)) (TyFixed (mkSpan (mkPtok 14 "zchar[" 23 13 62) (mkPtok 13 "]" 23 24 64)) (mkFixedString (mkSpan (mkPtok 14 "zchar[" 23 13 62) (mkPtok 13 "]" 23 24 64)) (mkPtok 14 "zchar[" 23 13 62) (mkPtok 30 "255" 23 20 63) (mkPtok 13 "]" 23 24 64))) (mkPtok 42 "matchKey" 23 26 65) (Some (mkPtok 43 "`doc`" 23 35 66)) (mkPtok 40 "," 23 41 67)))); (mkFieldWithAttr (mkSpan (mkPtok 12 "char[" 23 43 68) (mkPtok 40 "," 25 2 76)) [] (LengthField (mkSpan (mkPtok 12 "char[" 23 43 68) (mkPtok 40 "," 25 2 76)) (mkLengthFieldDecl (mkSpan (mkPtok 12 "char[" 23 43 68) (mkPtok 40 "," 25 2 76)) (Some (TyFixed (mkSpan (mkPtok 12 "char[" 23 43 68) (mkPtok 13 "]" 23 60 70)) (mkFixedString (mkSpan (mkPtok 12 "char[" 23 43 68) (mkPtok 13 "]" 23 60 70)) (mkPtok 12 "char[" 23 43 68) (mkPtok 30 "4294967296" 23 49 69) (mkPtok 13 "]" 23 60 70)))) (mkPtok 42 "options1" 23 63 71) (mkLengthOf (mkSpan (mkPtok 7 "@lengthOf(" 23 72 72) (mkPtok 6 ")" 25 0 75)) (mkPtok 7 "@lengthOf(" 23 72 72) (mkPtok 42 "stringy" 24 0 73) (mkPtok 6 ")" 25 0 75)) None (mkPtok 40 "," 25 2 76))))] (mkPtok 3 "}" 25 4 77)))])).
-Eval vm_compute in ("<<<M458>>>" ++ check (runes_of_ascii "packet A {Logon// @lengthOf(
-o
-,	u8x{ // @lengthOf(
-asx // " ++ [27880; 37322]%N ++ runes_of_ascii "
-chars, }
-    , x o
-,@leftPad
-    ( )// trailing space 
-As
-// c
-//x
-@lengthOf(
-u)	,}MetaData f32a{crc
-    Logon ,}	root packet
-    u128 {stringy Logon// " ++ [128512]%N ++ runes_of_ascii " emoji
-`a\`, @calculatedFrom( // c
-""1""
-)	@leftPad
-    // a // b
-    ( '\x00' ) @tag(255 )int64 stringy @lengthOf(lengthOf //	t
-) `line1
-line2`, rootA `
-`,@calculatedFrom( ""a	b""
-    )// packet A { u8 x, }
-o
-@calculatedFrom(  ""`tick`"" ) // @lengthOf(
-`a\`
-, repeatCount @lengthOf(
-    T ) // @lengthOf(
-, }
-")).
-Eval vm_compute in ("<<<M490>>>" ++ check (runes_of_ascii "packet x_y_z {msg_type {  char[]Z9_ @lengthOf( Packet
-    ) `` , }, } // packet A { u8 x, }")).
-Eval vm_compute in ("<<<M522>>>" ++ check (runes_of_ascii "MetaData pack{
-    }
-packet i64_ {
-    uint16 T , // a // b
-} 	 ")).
-Eval vm_compute in ("<<<M554>>>" ++ check (runes_of_ascii "// `tick` ""quote"" 'q'
-packet msg_type {
-    // c
-    uint8 leftPad ,  } packet roots {@tag(  3 )
-// a // b
-// `tick` ""quote"" 'q'
-string_ //x
-@lengthOf(body )
-,  Header@lengthOf( Z9_
-//x
-/// triple
-) , repeat zchar[ 007 ] roots	,	string_
-msg_type `crlf
-line` , Logon // c
-@lengthOf(	pack // c
-)
-`say ""hi""` ,@rightPad ( '\x00' )
-@leftPad
-    // a // b
-    ( '0' )
-    repeat u8 float `it's` /// triple
-, @calculatedFrom( ""\n"" )	@lengthOf(  falsey // " ++ [128512]%N ++ runes_of_ascii " emoji
-)
-    msg_type{ match
-Packet
-    as tag
-{[
-    10 ,
-007 //x
-]
-    :int , 4294967296
-    : //
-asx
-,} ,
-uint32 string_ @lengthOf(
-    _x ) `two words`
-    //x
-    ,
-    _x
-    //
-    , } ,	f32a {f32 body , uint16  u128 ,
-matchKey	@lengthOf(Packet ) , } ,
-repeat
-    zchar[
-0123456789 ] // a // b
-float `say ""hi""` ,f32 i8i8 `{ , }`, } root packet	options1 {@tag( 0
-    )
-packetx
-, repeat
-float64 BodyLength , }
-    options { Pad =
-    // packet A { u8 x, }
-    true
-// a // b
-/// triple
-; crc = 007; // @lengthOf(
-}
-MetaData packetx{ roots  Packet  `tab	here` , // " ++ [128512]%N ++ runes_of_ascii " emoji
-asx
-    len , }
-
-")).
-Eval vm_compute in ("<<<M586>>>" ++ check (runes_of_ascii "packet repeatCount
-    { i64 falsey	,char[ 65535
-]
-calculatedFrom  @lengthOf( calculatedFrom
-),int32
-    repeatCount ,  @tag( 4294967296 ) repeat matchKey { repeat
-int64 rootA , match Packet as BodyLength
-    {[ 10]:
-repeatCount
-,""a\\""
-    :	msg_type,  [ ""CRC32"",
-    00
-] : calculatedFrom , 7
-    :
-lengthOf
-, // " ++ [128512]%N ++ runes_of_ascii " emoji
-42 : Header // packet A { u8 x, }
-, [ ""it's"" , ""\n""	,  65535
-, ""`tick`"" ,0 , 65535
-, ""{,}"",255 ]://
-T ,
-} ,} , @calculatedFrom(
-""{,}""
-) match asx
-as metadata
-    {
-3
-: Z9_, ""`tick`""
-:
-    // @lengthOf(
-    string_
-} // `tick` ""quote"" 'q'
-,@rightPad ( '0' ) int8 u128 , @tag( // `tick` ""quote"" 'q'
-3 ) repeat  i8 x_y_z `it's`,
-    @lengthOf(chars )  @calculatedFrom(//
-""" ++ [28040; 24687]%N ++ runes_of_ascii """)string float	, }
-    packet zchar
-    {match uint8x
-    //	t
-    as f32a
-    {[ ""`tick`"" , ""CRC32"" ]
-: repeatCount ,[
-    00
-, ""x y"", 255 , 255 ,
-    1, 7 ,	007 ,
-    7
-]
-    :	tag, ""{,}"": leftPad
-    ,  007 : len , //x
-},
-@calculatedFrom( ""CRC32""  ) @lengthOf(
-x )@calculatedFrom(""\" ++ [233]%N ++ runes_of_ascii """) char[
-65535] string_ , }options { }
-    MetaData u128
-    // c
-    {
-// c
-/// triple
-trueish tag
-// c
-// a // b
-, packetx i8i8 , f64 x_y_z//
-, //x
-trueish u128 , x Header `say ""hi""` , zchar[ 0
-    // `tick` ""quote"" 'q'
-    ] A, } MetaData i64_
-    { }")).
-Eval vm_compute in ("<<<M618>>>" ++ check (runes_of_ascii "
-")).
-Eval vm_compute in ("<<<M650>>>" ++ check (runes_of_ascii "options
-{ stringy=
-    '0' ; body// `tick` ""quote"" 'q'
-=  ""// no comment"" ; pack
-    =
-char[] } options
-{
-x =65535 } //x")).
-Eval vm_compute in ("<<<T650>>>" ++ terms [mkTok 1 "options" 1 0 false; mkTok 2 "{" 2 0 false; mkTok 42 "stringy" 2 2 false; mkTok 4 "=" 2 9 false; mkTok 33 "'0'" 3 4 false; mkTok 41 ";" 3 8 false; mkTok 42 "body" 3 10 false; mkTok 44 "// `tick` ""quote"" 'q'" 3 14 true; mkTok 4 "=" 4 0 false; mkTok 31 """// no comment""" 4 3 false; mkTok 41 ";" 4 19 false; mkTok 42 "pack" 4 21 false; mkTok 4 "=" 5 4 false; mkTok 16 "char[]" 6 0 false; mkTok 3 "}" 6 7 false; mkTok 1 "options" 6 9 false; mkTok 2 "{" 7 0 false; mkTok 42 "x" 8 0 false; mkTok 4 "=" 8 2 false; mkTok 30 "65535" 8 3 false; mkTok 3 "}" 8 9 false; mkTok 44 "//x" 8 11 true; mkTok 0 "<EOF>" 8 14 false] (mkPacket (mkPtok 1 "options" 1 0 0) (Some (mkPtok 3 "}" 8 9 20)) [(DOption (mkOptionDef (mkSpan (mkPtok 1 "options" 1 0 0) (mkPtok 3 "}" 6 7 14)) (mkPtok 1 "options" 1 0 0) (mkPtok 2 "{" 2 0 1) [(mkOptionDecl (mkSpan (mkPtok 42 "stringy" 2 2 2) (mkPtok 41 ";" 3 8 5)) (mkPtok 42 "stringy" 2 2 2) (mkPtok 4 "=" 2 9 3) (VPaddingChar (mkSpan (mkPtok 33 "'0'" 3 4 4) (mkPtok 33 "'0'" 3 4 4)) (mkPtok 33 "'0'" 3 4 4)) (Some (mkPtok 41 ";" 3 8 5))); (mkOptionDecl (mkSpan (mkPtok 42 "body" 3 10 6) (mkPtok 41 ";" 4 19 10)) (mkPtok 42 "body" 3 10 6) (mkPtok 4 "=" 4 0 8) (VString (mkSpan (mkPtok 31 """// no comment""" 4 3 9) (mkPtok 31 """// no comment""" 4 3 9)) (mkPtok 31 """// no comment""" 4 3 9)) (Some (mkPtok 41 ";" 4 19 10))); (mkOptionDecl (mkSpan (mkPtok 42 "pack" 4 21 11) (mkPtok 16 "char[]" 6 0 13)) (mkPtok 42 "pack" 4 21 11) (mkPtok 4 "=" 5 4 12) (VType (mkSpan (mkPtok 16 "char[]" 6 0 13) (mkPtok 16 "char[]" 6 0 13)) (TyDynamic (mkSpan (mkPtok 16 "char[]" 6 0 13) (mkPtok 16 "char[]" 6 0 13)) (mkDynamicString (mkSpan (mkPtok 16 "char[]" 6 0 13) (mkPtok 16 "char[]" 6 0 13)) (mkPtok 16 "char[]" 6 0 13)))) None)] (mkPtok 3 "}" 6 7 14))); (DOption (mkOptionDef (mkSpan (mkPtok 1 "options" 6 9 15) (mkPtok 3 "}" 8 9 20)) (mkPtok 1 "options" 6 9 15) (mkPtok 2 "{" 7 0 16) [(mkOptionDecl (mkSpan (mkPtok 42 "x" 8 0 17) (mkPtok 30 "65535" 8 3 19)) (mkPtok 42 "x" 8 0 17) (mkPtok 4 "=" 8 2 18) (VDigits (mkSpan (mkPtok 30 "65535" 8 3 19) (mkPtok 30 "65535" 8 3 19)) (mkPtok 30 "65535" 8 3 19)) None)] (mkPtok 3 "}" 8 9 20)))])).
-Eval vm_compute in ("<<<M682>>>" ++ check (runes_of_ascii "
-packet charz {
-repeat
-zchar[
-    // @lengthOf(
-    007/// triple
-]/// triple
-falsey
-    `line1
-line2` ,
-}	root packet
-    leftPad {
-x
-    metadata
-, }	packet
-rootA { char[65535
-    // c
-    ]chars , } options { body
-= ' '
-}")).
-Eval vm_compute in ("<<<M714>>>" ++ check (runes_of_ascii "packet calculatedFrom
-{ u32	metadata @lengthOf( Logon
-)
-, }
-")).
-Eval vm_compute in ("<<<M746>>>" ++ check (runes_of_ascii "// `tick` ""quote"" 'q'
-root packet u8x{match zchar as falsey
-    { """ ++ [128512]%N ++ runes_of_ascii """:
-    len	},}MetaData// c
-rootA
-{
-    //
-    char[
-3 ] rootA , uint64
-asx
-    , }")).
-Eval vm_compute in ("<<<M778>>>" ++ check (runes_of_ascii "options { options1 = float64
-    ; } // " ++ [27880; 37322]%N)).
-Eval vm_compute in ("<<<M810>>>" ++ check (runes_of_ascii "packet	i64_ { }options{
-    } options { MetaDataX = ""CRC32""} // a // b")).
-Eval vm_compute in ("<<<M842>>>" ++ check (runes_of_ascii "
-options { } options {a1
-= ' ' falsey
 =
-    //	t
-    false ; f32a =10 ;
-    // packet A { u8 x, }
-    } packet u8x
-    { repeat BodyLength	{ calculatedFrom// " ++ [128512]%N ++ runes_of_ascii " emoji
-@calculatedFrom( ""{,}"" ) `{ , }` , uint8
-MetaDataX `say ""hi""` // `tick` ""quote"" 'q'
+zchar[ 1
+    ]
+uint8x= ""// no comment""Pad =
+char[]
+    // 50% %s
+    ; // c
+A
+    =
+4294967296 a1
+    = ""`tick`"" ; } packet BodyLength {  @calculatedFrom(
+""packet""
+) roots `100% of %d` ,@tag(10 ) f32 uint8x `{ , }`/// triple
 ,
-    },}
-MetaData matchKey
-    {
-i8 roots
-    `
-` ,
-i64	rootA`say ""hi""` ,/// triple
-f64
-chars
-    //x
-    `" ++ [28040; 24687; 31867; 22411]%N ++ runes_of_ascii "` , zchar[ 3
-// packet A { u8 x, }
-//
-] asx `" ++ [233]%N ++ runes_of_ascii "` // a // b
-,
-string msg_type	, }
-")).
-Eval vm_compute in ("<<<M874>>>" ++ check (runes_of_ascii "
-options { }options
-{ } options
-{ }
-    packet options1 {
-/// triple
-// @lengthOf(
-repeat stringy repeatCount	, int64 rootA
-    ,@lengthOf(
-    T)
-// trailing space 
-// @lengthOf(
-chars Foo `line1
-line2`, i64_ , repeat tag roots, @calculatedFrom(""CRC32""
-) //x
-@calculatedFrom( """ ++ [233]%N ++ runes_of_ascii "t" ++ [233]%N ++ runes_of_ascii """)
-a1 @calculatedFrom(
-    /// triple
-    ""1"" )`two words` , }options {Logon =false uint8x	= ""x y""
-Header = ""a	b"" ;
-    calculatedFrom= true
 }
 ")).
-Eval vm_compute in ("<<<T874>>>" ++ terms [mkTok 1 "options" 2 0 false; mkTok 2 "{" 2 8 false; mkTok 3 "}" 2 10 false; mkTok 1 "options" 2 11 false; mkTok 2 "{" 3 0 false; mkTok 3 "}" 3 2 false; mkTok 1 "options" 3 4 false; mkTok 2 "{" 4 0 false; mkTok 3 "}" 4 2 false; mkTok 35 "packet" 5 4 false; mkTok 42 "options1" 5 11 false; mkTok 2 "{" 5 20 false; mkTok 44 "/// triple" 6 0 true; mkTok 44 "// @lengthOf(" 7 0 true; mkTok 36 "repeat" 8 0 false; mkTok 42 "stringy" 8 7 false; mkTok 42 "repeatCount" 8 15 false; mkTok 40 "," 8 27 false; mkTok 27 "int64" 8 29 false; mkTok 42 "rootA" 8 35 false; mkTok 40 "," 9 4 false; mkTok 7 "@lengthOf(" 9 5 false; mkTok 42 "T" 10 4 false; mkTok 6 ")" 10 5 false; mkTok 44 "// trailing space " 11 0 true; mkTok 44 "// @lengthOf(" 12 0 true; mkTok 42 "chars" 13 0 false; mkTok 42 "Foo" 13 6 false; mkTok 43 (string_of_bytes [96; 108; 105; 110; 101; 49; 10; 108; 105; 110; 101; 50; 96]%N) 13 10 false; mkTok 40 "," 14 6 false; mkTok 42 "i64_" 14 8 false; mkTok 40 "," 14 13 false; mkTok 36 "repeat" 14 15 false; mkTok 42 "tag" 14 22 false; mkTok 42 "roots" 14 26 false; mkTok 40 "," 14 31 false; mkTok 5 "@calculatedFrom(" 14 33 false; mkTok 31 """CRC32""" 14 49 false; mkTok 6 ")" 15 0 false; mkTok 44 "//x" 15 2 true; mkTok 5 "@calculatedFrom(" 16 0 false; mkTok 31 (string_of_bytes [34; 195; 169; 116; 195; 169; 34]%N) 16 17 false; mkTok 6 ")" 16 22 false; mkTok 42 "a1" 17 0 false; mkTok 5 "@calculatedFrom(" 17 3 false; mkTok 44 "/// triple" 18 4 true; mkTok 31 """1""" 19 4 false; mkTok 6 ")" 19 8 false; mkTok 43 "`two words`" 19 9 false; mkTok 40 "," 19 21 false; mkTok 3 "}" 19 23 false; mkTok 1 "options" 19 24 false; mkTok 2 "{" 19 32 false; mkTok 42 "Logon" 19 33 false; mkTok 4 "=" 19 39 false; mkTok 11 "false" 19 40 false; mkTok 42 "uint8x" 19 46 false; mkTok 4 "=" 19 53 false; mkTok 31 """x y""" 19 55 false; mkTok 42 "Header" 20 0 false; mkTok 4 "=" 20 7 false; mkTok 31 (string_of_bytes [34; 97; 9; 98; 34]%N) 20 9 false; mkTok 41 ";" 20 15 false; mkTok 42 "calculatedFrom" 21 4 false; mkTok 4 "=" 21 18 false; mkTok 10 "true" 21 20 false; mkTok 3 "}" 22 0 false; mkTok 0 "<EOF>" 23 0 false] (mkPacket (mkPtok 1 "options" 2 0 0) (Some (mkPtok 3 "}" 22 0 66)) [(DOption (mkOptionDef (mkSpan (mkPtok 1 "options" 2 0 0) (mkPtok 3 "}" 2 10 2)) (mkPtok 1 "options" 2 0 0) (mkPtok 2 "{" 2 8 1) [] (mkPtok 3 "}" 2 10 2))); (DOption (mkOptionDef (mkSpan (mkPtok 1 "options" 2 11 3) (mkPtok 3 "}" 3 2 5)) (mkPtok 1 "options" 2 11 3) (mkPtok 2 "{" 3 0 4) [] (mkPtok 3 "}" 3 2 5))); (DOption (mkOptionDef (mkSpan (mkPtok 1 "options" 3 4 6) (mkPtok 3 "}" 4 2 8)) (mkPtok 1 "options" 3 4 6) (mkPtok 2 "{" 4 0 7) [] (mkPtok 3 "}" 4 2 8))); (DPacket (mkPacketDef (mkSpan (mkPtok 35 "packet" 5 4 9) (mkPtok 3 "}" 19 23 50)) None (mkPtok 35 "packet" 5 4 9) (mkPtok 42 "options1" 5 11 10) (mkPtok 2 "{" 5 20 11) [(mkFieldWithAttr (mkSpan (mkPtok 36 "repeat" 8 0 14) (mkPtok 40 "," 8 27 17)) [] (ObjectField (mkSpan (mkPtok 36 "repeat" 8 0 14) (mkPtok 40 "," 8 27 17)) (Some (mkPtok 36 "repeat" 8 0 14)) (mkPtok 42 "stringy" 8 7 15) (Some (mkPtok 42 "repeatCount" 8 15 16)) None (mkPtok 40 "," 8 27 17))); (mkFieldWithAttr (mkSpan (mkPtok 27 "int64" 8 29 18) (mkPtok 40 "," 9 4 20)) [] (MetaField (mkSpan (mkPtok 27 "int64" 8 29 18) (mkPtok 40 "," 9 4 20)) None (mkMetaDecl (mkSpan (mkPtok 27 "int64" 8 29 18) (mkPtok 40 "," 9 4 20)) (TyBasic (mkSpan (mkPtok 27 "int64" 8 29 18) (mkPtok 27 "int64" 8 29 18)) (mkBasicType (mkSpan (mkPtok 27 "int64" 8 29 18) (mkPtok 27 "int64" 8 29 18)) (mkPtok 27 "int64" 8 29 18))) (mkPtok 42 "rootA" 8 35 19) None (mkPtok 40 "," 9 4 20)))); (mkFieldWithAttr (mkSpan (mkPtok 7 "@lengthOf(" 9 5 21) (mkPtok 40 "," 14 6 29)) [(FALengthOf (mkSpan (mkPtok 7 "@lengthOf(" 9 5 21) (mkPtok 6 ")" 10 5 23)) (mkLengthOf (mkSpan (mkPtok 7 "@lengthOf(" 9 5 21) (mkPtok 6 ")" 10 5 23)) (mkPtok 7 "@lengthOf(" 9 5 21) (mkPtok 42 "T" 10 4 22) (mkPtok 6 ")" 10 5 23)))] (ObjectField (mkSpan (mkPtok 42 "chars" 13 0 26) (mkPtok 40 "," 14 6 29)) None (mkPtok 42 "chars" 13 0 26) (Some (mkPtok 42 "Foo" 13 6 27)) (Some (mkPtok 43 (string_of_bytes [96; 108; 105; 110; 101; 49; 10; 108; 105; 110; 101; 50; 96]%N) 13 10 28)) (mkPtok 40 "," 14 6 29))); (mkFieldWithAttr (mkSpan (mkPtok 42 "i64_" 14 8 30) (mkPtok 40 "," 14 13 31)) [] (ObjectField (mkSpan (mkPtok 42 "i64_" 14 8 30) (mkPtok 40 "," 14 13 31)) None (mkPtok 42 "i64_" 14 8 30) None None (mkPtok 40 "," 14 13 31))); (mkFieldWithAttr (mkSpan (mkPtok 36 "repeat" 14 15 32) (mkPtok 40 "," 14 31 35)) [] (ObjectField (mkSpan (mkPtok 36 "repeat" 14 15 32) (mkPtok 40 "," 14 31 35)) (Some (mkPtok 36 "repeat" 14 15 32)) (mkPtok 42 "tag" 14 22 33) (Some (mkPtok 42 "roots" 14 26 34)) None (mkPtok 40 "," 14 31 35))); (mkFieldWithAttr (mkSpan (mkPtok 5 "@calculatedFrom(" 14 33 36) (mkPtok 40 "," 19 21 49)) [(FACalculatedFrom (mkSpan (mkPtok 5 "@calculatedFrom(" 14 33 36) (mkPtok 6 ")" 15 0 38)) (mkCalculatedFrom (mkSpan (mkPtok 5 "@calculatedFrom(" 14 33 36) (mkPtok 6 ")" 15 0 38)) (mkPtok 5 "@calculatedFrom(" 14 33 36) (mkPtok 31 """CRC32""" 14 49 37) (mkPtok 6 ")" 15 0 38))); (FACalculatedFrom (mkSpan (mkPtok 5 "@calculatedFrom(" 16 0 40) (mkPtok 6 ")" 16 22 42)) (mkCalculatedFrom (mkSpan (mkPtok 5 "@calculatedFrom(" 16 0 40) (mkPtok 6 ")" 16 22 42)) (mkPtok 5 "@calculatedFrom(" 16 0 40) (mkPtok 31 (string_of_bytes [34; 195; 169; 116; 195; 169; 34]%N) 16 17 41) (mkPtok 6 ")" 16 22 42)))] (CheckSumField (mkSpan (mkPtok 42 "a1" 17 0 43) (mkPtok 40 "," 19 21 49)) (mkChecksumFieldDecl (mkSpan (mkPtok 42 "a1" 17 0 43) (mkPtok 40 "," 19 21 49)) None (mkPtok 42 "a1" 17 0 43) (mkCalculatedFrom (mkSpan (mkPtok 5 "@calculatedFrom(" 17 3 44) (mkPtok 6 ")" 19 8 47)) (mkPtok 5 "@calculatedFrom(" 17 3 44) (mkPtok 31 """1""" 19 4 46) (mkPtok 6 ")" 19 8 47)) (Some (mkPtok 43 "`two words`" 19 9 48)) (mkPtok 40 "," 19 21 49))))] (mkPtok 3 "}" 19 23 50))); (DOption (mkOptionDef (mkSpan (mkPtok 1 "options" 19 24 51) (mkPtok 3 "}" 22 0 66)) (mkPtok 1 "options" 19 24 51) (mkPtok 2 "{" 19 32 52) [(mkOptionDecl (mkSpan (mkPtok 42 "Logon" 19 33 53) (mkPtok 11 "false" 19 40 55)) (mkPtok 42 "Logon" 19 33 53) (mkPtok 4 "=" 19 39 54) (VFalse (mkSpan (mkPtok 11 "false" 19 40 55) (mkPtok 11 "false" 19 40 55)) (mkPtok 11 "false" 19 40 55)) None); (mkOptionDecl (mkSpan (mkPtok 42 "uint8x" 19 46 56) (mkPtok 31 """x y""" 19 55 58)) (mkPtok 42 "uint8x" 19 46 56) (mkPtok 4 "=" 19 53 57) (VString (mkSpan (mkPtok 31 """x y""" 19 55 58) (mkPtok 31 """x y""" 19 55 58)) (mkPtok 31 """x y""" 19 55 58)) None); (mkOptionDecl (mkSpan (mkPtok 42 "Header" 20 0 59) (mkPtok 41 ";" 20 15 62)) (mkPtok 42 "Header" 20 0 59) (mkPtok 4 "=" 20 7 60) (VString (mkSpan (mkPtok 31 (string_of_bytes [34; 97; 9; 98; 34]%N) 20 9 61) (mkPtok 31 (string_of_bytes [34; 97; 9; 98; 34]%N) 20 9 61)) (mkPtok 31 (string_of_bytes [34; 97; 9; 98; 34]%N) 20 9 61)) (Some (mkPtok 41 ";" 20 15 62))); (mkOptionDecl (mkSpan (mkPtok 42 "calculatedFrom" 21 4 63) (mkPtok 10 "true" 21 20 65)) (mkPtok 42 "calculatedFrom" 21 4 63) (mkPtok 4 "=" 21 18 64) (VTrue (mkSpan (mkPtok 10 "true" 21 20 65) (mkPtok 10 "true" 21 20 65)) (mkPtok 10 "true" 21 20 65)) None)] (mkPtok 3 "}" 22 0 66)))])).
-Eval vm_compute in ("<<<M906>>>" ++ check (runes_of_ascii "packet zchar { @lengthOf( i8i8 ) int16
-msg_type @lengthOf(
-    // c
-    As // `tick` ""quote"" 'q'
-) `
-`
+Eval vm_compute in ("<<<M74>>>" ++ check (runes_of_ascii "packet	x_y_z
+{ @tag( 00 // @lengthOf(
+) i16 packetx
+,string stringy @lengthOf( u
+    ) , repeat packetx
+,	@rightPad
+    (
+'\x00' ) @tag(
+007 ) uint64 f32a
+@lengthOf( asx
+) ,
+    msg_type@calculatedFrom(
+    ""a\""b"" ), string_
+    @lengthOf( packetx	), char[]calculatedFrom, @lengthOf( msg_type)  @calculatedFrom( """" )
+    @rightPad
+( '0' ) rootA , @leftPad(
+' ' )  match
+_x  as
+    string_{ 00 :
+chars ,
+    } ,
+u32 Z9_ `" ++ [233]%N ++ runes_of_ascii "` , }MetaData i64_
+//
+//x
+{u8x//	t
+Logon
+    , char	Z9_
+, char[] Packet`u8 x,` , char[ 10
+    ] // a // b
+options1
+    , }")).
+Eval vm_compute in ("<<<M106>>>" ++ check (runes_of_ascii "//	t
+root packet As
+// c
+// " ++ [128512]%N ++ runes_of_ascii " emoji
+{
+} options
+{ }
+")).
+Eval vm_compute in ("<<<M138>>>" ++ check (runes_of_ascii "MetaData//
+uint8x { } packet
+BodyLength{ @calculatedFrom( ""{,}"" ) zchar // packet A { u8 x, }
+body ,
+char // a // b
+a1 `tab	here`	, match
+    matchKey as rootA { 0123456789
+    :float
+    }, match packetx as	calculatedFrom {
+    42//	t
+: x_y_z , } ,
+    } packet pack	{
+    // " ++ [128512]%N ++ runes_of_ascii " emoji
+    string// packet A { u8 x, }
+x_y_z
+    ,
+    @calculatedFrom( ""a\\"" // " ++ [27880; 37322]%N ++ runes_of_ascii "
+) repeat
+u Foo
+`` , //	t
+}
+")).
+Eval vm_compute in ("<<<M170>>>" ++ check (runes_of_ascii "packet int
+{
+    // " ++ [128512]%N ++ runes_of_ascii " emoji
+    } options{
+Z9_ = ' ';
+    repeatCount = 0
+    Header = zchar[ 007
+    ] i64_
+/// triple
+// " ++ [128512]%N ++ runes_of_ascii " emoji
+= """ ++ [128512]%N ++ runes_of_ascii """ ;  }root packet leftPad{
+roots, }root packet Foo { repeat//x
+MetaDataX u8x
+    `crlf
+line`
+, @lengthOf(
+    Header ) zchar[ 65535 ] metadata `u8 x,` , @tag( 65535 ) stringy{ options1 @lengthOf( asx ) , } , char[0
+]
+    Packet `two words`
+,@lengthOf( u8x) int @lengthOf(
+Logon ) , } 	 ")).
+Eval vm_compute in ("<<<M202>>>" ++ check (runes_of_ascii "
+")).
+Eval vm_compute in ("<<<T202>>>" ++ terms [mkTok 0 "<EOF>" 2 0 false] (mkPacket (mkPtok 0 "<EOF>" 2 0 0) None [])).
+Eval vm_compute in ("<<<M234>>>" ++ check (runes_of_ascii "MetaData stringy
+{
+    char[]
+    u
+    ,	leftPad body, char[] matchKey , u32
+    Z9_	, crc body `" ++ [28040; 24687; 31867; 22411]%N ++ runes_of_ascii "`, uint8 packetx , } root //	t
+packet
+    pack// " ++ [128512]%N ++ runes_of_ascii " emoji
+{ @rightPad( ' ' ) float
+    int ,
+@calculatedFrom( """" )
+body
+    {
+match
+lengthOf
+    // a // b
+    as a1 { 255 // `tick` ""quote"" 'q'
+: trueish
+    ,""\" ++ [233]%N ++ runes_of_ascii """
+:
+// 50% %s
+// @lengthOf(
+trueish 1
+:rootA	}
+    ,	},
+}	options { }")).
+Eval vm_compute in ("<<<M266>>>" ++ check (runes_of_ascii "packet // 50% %s
+o { @tag( 255 )rootA
+chars , u { len @lengthOf( msg_type )`tab	here`,// " ++ [128512]%N ++ runes_of_ascii " emoji
+char[] pack `a\`
+,} ,@lengthOf(uint8x )match
+// " ++ [27880; 37322]%N ++ runes_of_ascii "
+// `tick` ""quote"" 'q'
+MetaDataX as BodyLength
+    {""CRC32"" :// trailing space 
+A
+} , @tag(
+    65535)	int32 u8x @calculatedFrom( ""// no comment"" )
+`two words` ,	@tag( 42 ) match zchar as stringy { [
+4294967296
+]
+    :
+    i64_ }, }root
+    packet
+options1
+{ repeat As`// not a comment` ,
+    repeat lengthOf {A chars , } , packetx  { f32 metadata ,
+int64 u8x
+    // " ++ [128512]%N ++ runes_of_ascii " emoji
+    @calculatedFrom(""1""  ) , int16 rootA , repeat
+    i16	_x
+, }
+// " ++ [27880; 37322]%N ++ runes_of_ascii "
+// c
+, repeat x_y_z {repeat
+    u16 Header
+    `100% of %d` ,
+    // @lengthOf(
+    }, match x // packet A { u8 x, }
+as
+charz
+    { ""// no comment""	:
+    // " ++ [128512]%N ++ runes_of_ascii " emoji
+    As
+, [ 65535
+,4294967296] :i8i8 , [
+""x y"" //x
+,42	,4294967296 ] : i8i8 ,[007,3  ]: options1
+,""a\\"" : f32a ,	} , repeat body , @calculatedFrom(// trailing space 
+""" ++ [233]%N ++ runes_of_ascii "t" ++ [233]%N ++ runes_of_ascii """ ) char[ 007 ]
+trueish @lengthOf( // c
+_x) , }
+    MetaData packetx { }options {
+    lengthOf
+= 7 lengthOf
+    = ' ' ; string_=
+0
+;
+}")).
+Eval vm_compute in ("<<<M298>>>" ++ check (runes_of_ascii "// `tick` ""quote"" 'q'
+MetaData
+string_ { uint8
+asx
+    ,
+    string A //	t
+, }
+")).
+Eval vm_compute in ("<<<M330>>>" ++ check (runes_of_ascii "// a // b
+ // packet A { u8 x, }")).
+Eval vm_compute in ("<<<M362>>>" ++ check (runes_of_ascii "// a // b
+options {
+    // `tick` ""quote"" 'q'
+    metadata = i64 string_=uint16 _x = i8 calculatedFrom  =  ""1"" ; } options {
+i8i8 =  uint32 ;tag = ""a\\"" ;
+roots = char[7	] Logon
+=  ""a\\""	; } MetaData repeatCount {
+    // 50% %s
+    MetaDataX falsey`// not a comment` ,// c
+} // `tick` ""quote"" 'q'")).
+Eval vm_compute in ("<<<M394>>>" ++ check (runes_of_ascii "
+")).
+Eval vm_compute in ("<<<M426>>>" ++ check (runes_of_ascii "MetaData packetx{ zchar T ,u128 x
+,	} options // `tick` ""quote"" 'q'
+{ }")).
+Eval vm_compute in ("<<<T426>>>" ++ terms [mkTok 37 "MetaData" 1 0 false; mkTok 42 "packetx" 1 9 false; mkTok 2 "{" 1 16 false; mkTok 42 "zchar" 1 18 false; mkTok 42 "T" 1 24 false; mkTok 40 "," 1 26 false; mkTok 42 "u128" 1 27 false; mkTok 42 "x" 1 32 false; mkTok 40 "," 2 0 false; mkTok 3 "}" 2 2 false; mkTok 1 "options" 2 4 false; mkTok 44 "// `tick` ""quote"" 'q'" 2 12 true; mkTok 2 "{" 3 0 false; mkTok 3 "}" 3 2 false; mkTok 0 "<EOF>" 3 3 false] (mkPacket (mkPtok 37 "MetaData" 1 0 0) (Some (mkPtok 3 "}" 3 2 13)) [(DMeta (mkMetaDef (mkSpan (mkPtok 37 "MetaData" 1 0 0) (mkPtok 3 "}" 2 2 9)) (mkPtok 37 "MetaData" 1 0 0) (mkPtok 42 "packetx" 1 9 1) (mkPtok 2 "{" 1 16 2) [(MIRef (mkRefMetaDecl (mkSpan (mkPtok 42 "zchar" 1 18 3) (mkPtok 40 "," 1 26 5)) (mkPtok 42 "zchar" 1 18 3) (mkPtok 42 "T" 1 24 4) None (mkPtok 40 "," 1 26 5))); (MIRef (mkRefMetaDecl (mkSpan (mkPtok 42 "u128" 1 27 6) (mkPtok 40 "," 2 0 8)) (mkPtok 42 "u128" 1 27 6) (mkPtok 42 "x" 1 32 7) None (mkPtok 40 "," 2 0 8)))] (mkPtok 3 "}" 2 2 9))); (DOption (mkOptionDef (mkSpan (mkPtok 1 "options" 2 4 10) (mkPtok 3 "}" 3 2 13)) (mkPtok 1 "options" 2 4 10) (mkPtok 2 "{" 3 0 12) [] (mkPtok 3 "}" 3 2 13)))])).
+Eval vm_compute in ("<<<M458>>>" ++ check (runes_of_ascii "root
+packet i8i8 {
+repeat int8 tag
+`two words`
 ,}
 ")).
-Eval vm_compute in ("<<<M938>>>" ++ check (runes_of_ascii "packet Z9_ {  @tag( 4294967296
-) char[255
-    ]msg_type @calculatedFrom(
-    ""abc""	),
-uint16 x  `" ++ [28040; 24687; 31867; 22411]%N ++ runes_of_ascii "`, @rightPad (
-'0' ) match len as Logon {
-    7 : metadata , ""{,}"": u8x
-,[ ""\n"", 65535 ,
-65535 ]
-// " ++ [128512]%N ++ runes_of_ascii " emoji
-// " ++ [27880; 37322]%N ++ runes_of_ascii "
-: int
-    ,""a\""b"" :	leftPad} , zchar[ 42] rootA, @calculatedFrom(
-// @lengthOf(
-// " ++ [128512]%N ++ runes_of_ascii " emoji
-""a\\"" ) zchar[42] A , Packet// trailing space 
-{
-    repeat //
-u128 {repeat
-chars{ tag  BodyLength , float32 calculatedFrom	`doc` ,match x as string_ {
-""{,}""
-:
-x """"
-: packetx	, } , }, } /// triple
-,  }
-// trailing space 
-/// triple
-,
-    // `tick` ""quote"" 'q'
-    @rightPad( ) options1
-`u8 x,`
-, repeat//
-i32 repeatCount,@lengthOf(Foo )@calculatedFrom( ""packet"" )int32 As
-    @lengthOf( Pad )
-, }
-packet As {@tag(  65535 /// triple
-)int asx
-    `line1
-line2` , @calculatedFrom( """ ++ [28040; 24687]%N ++ runes_of_ascii """) @rightPad (
-// " ++ [27880; 37322]%N ++ runes_of_ascii "
-//	t
-)int32
-    // c
-    leftPad
-`" ++ [28040; 24687; 31867; 22411]%N ++ runes_of_ascii "` ,char[] zchar , string x_y_z
-,  f64
-// a // b
-/// triple
-repeatCount
-    @calculatedFrom(
-// trailing space 
-// @lengthOf(
-""x y"") ,
-    @leftPad () match falsey as
-int  { """ ++ [28040; 24687]%N ++ runes_of_ascii """ : MetaDataX 007
-: msg_type , ""CRC32""
-: Header ,//
-4294967296 : charz , 255
-:trueish
-    1  : Header , } ,@lengthOf(// packet A { u8 x, }
-leftPad // c
-)_x , }
-packet chars //
-{match string_ as A { /// triple
-""`tick`""
-: Foo ,  3:trueish
-    ,} ,
-match Header
-    as	repeatCount{ """ ++ [128512]%N ++ runes_of_ascii """
-: asx ,42	:leftPad , } , }
-")).
-Eval vm_compute in ("<<<M970>>>" ++ check (runes_of_ascii "  options	{
-    i64_ =
-    007; asx= ' '
+Eval vm_compute in ("<<<M490>>>" ++ check (runes_of_ascii "options {}")).
+Eval vm_compute in ("<<<M522>>>" ++ check (runes_of_ascii "options {
+roots= true
 ;/// triple
-}MetaData	tag { float32 uint8x , } packet  len { @tag( 7
-) repeat uint8x {
-    match zchar as	As { [ 00
-,""" ++ [28040; 24687]%N ++ runes_of_ascii """
-, 00 ,
-    0123456789 , 0 , 3 ,
-""\n""] :
-    // " ++ [128512]%N ++ runes_of_ascii " emoji
-    uint8x ,
-},} , u8x @lengthOf(
-    falsey ),
-    @calculatedFrom( // a // b
-""x y""
-) // `tick` ""quote"" 'q'
-int16 A `{ , }`
-    ,	lengthOf { o
-//x
-// " ++ [128512]%N ++ runes_of_ascii " emoji
-@lengthOf( repeatCount
-    ) ,
-uint16 // packet A { u8 x, }
-i8i8 @calculatedFrom( """ ++ [28040; 24687]%N ++ runes_of_ascii """ ) ,
-    char[ 42  ]
-repeatCount , }
-    ,@calculatedFrom(""{,}""
-)//
-repeat
-    BodyLength
-    ,
-char[]
-    lengthOf/// triple
-@calculatedFrom(""{,}""	)
-// `tick` ""quote"" 'q'
-// packet A { u8 x, }
-`
-`	, @tag(  00 )
-    repeat	u128
-`a\` , } options {
-}packet lengthOf { match MetaDataX as pack
-{[
-    ""\" ++ [233]%N ++ runes_of_ascii """ ] :	Packet // `tick` ""quote"" 'q'
-, 42 :
-lengthOf , ""// no comment"" : i64_ // @lengthOf(
+MetaDataX =3 ;
+    trueish	= 10
+    //	t
+    } packet o  { @calculatedFrom(
+""" ++ [233]%N ++ runes_of_ascii "t" ++ [233]%N ++ runes_of_ascii """ ) match calculatedFrom as Foo { 1
+: leftPad
+,7 :
+    Foo[	""" ++ [233]%N ++ runes_of_ascii "t" ++ [233]%N ++ runes_of_ascii """ ] :roots //	t
 ,
-    [ """ ++ [128512]%N ++ runes_of_ascii """
-    ,
-255
-    , ""abc""
-    , ""{,}"", ""{,}"" ,
-    1 ]
-    :Pad [ 3 // c
-, 3 , 255
-] : BodyLength	, }
-//	t
-// a // b
-, repeatCount	asx ,falsey ,zchar[ 0123456789 ]a1 @calculatedFrom( // " ++ [128512]%N ++ runes_of_ascii " emoji
-""it's""
-    ) `// not a comment`
-, @leftPad
-    // " ++ [27880; 37322]%N ++ runes_of_ascii "
-    ( '\x00' )f32a ,rootA@lengthOf( Pad ) ,
-    match As as int { 0: calculatedFrom ,}
-    ,
-    }
-
-")).
-Eval vm_compute in ("<<<M1002>>>" ++ check (runes_of_ascii "packet metadata // `tick` ""quote"" 'q'
-{ Z9_ @lengthOf(
-// `tick` ""quote"" 'q'
-// @lengthOf(
-i64_)
-, }
-    packet pack
-// " ++ [27880; 37322]%N ++ runes_of_ascii "
-// " ++ [128512]%N ++ runes_of_ascii " emoji
-{
-options1
-@lengthOf(asx
-    ),
-@leftPad( ' ' )
-@calculatedFrom(	""abc"" )
-// `tick` ""quote"" 'q'
+}
+    , @calculatedFrom( ""\n""	) @tag( 7	)	@tag( 0123456789) match Header as asx { 10 //	t
+:
+    pack//
+,42 :
 // trailing space 
-falsey , // trailing space 
-char[ 3 ] rootA  , }
-")).
-Eval vm_compute in ("<<<M1034>>>" ++ check (runes_of_ascii "packet
-int
-    { @calculatedFrom( ""a\\""
-    ) repeat
-    // packet A { u8 x, }
-    string int, }")).
-Eval vm_compute in ("<<<M1066>>>" ++ check (runes_of_ascii "packet int
-// a // b
-// @lengthOf(
-{i16 Logon @calculatedFrom(
-    ""a\\"" ) ,  repeat
-calculatedFrom	`// not a comment` , @calculatedFrom(
-    // @lengthOf(
-    ""CRC32"" ) Z9_ charz , @lengthOf(  Z9_) /// triple
-matchKey  `u8 x,` , } MetaData asx { }packet
-Packet {
-    @tag( 65535  ) options1, int @lengthOf(
-metadata
-) `it's`,
-    //x
-    u8x{ char[00 ] Logon ,
-repeat  i32 T
-`// not a comment` , chars { float64
-msg_type@lengthOf(
-body	), f64 Z9_ ,
-// a // b
-// @lengthOf(
-u16 string_
-@lengthOf( int )`doc`	,//x
-repeatCount
-    @calculatedFrom( ""x y""	),} , }, match A/// triple
-as	u { [
-    ""packet"" , ""x y"" ] : f32a ,
-[
-65535 /// triple
-,00 ] :stringy 255 : pack
-    ,
-[ 0 , ""`tick`""
-    ] :
-x
-    ,
-    1 : matchKey
-, } , } packet
-    roots{
-@calculatedFrom( ""\n"" ) char[
-65535
-    // a // b
-    ] Packet , }
-")).
-Eval vm_compute in ("<<<M1098>>>" ++ check (runes_of_ascii "
-root packet
-Foo
-    {match As as// packet A { u8 x, }
-rootA
-{ ""CRC32""  : packetx
-, 4294967296 : Header , [0123456789
-    ,
-    255
-// @lengthOf(
-//x
-, 0
-    , ""\n""
-,
-    ""packet"" ] : BodyLength
-,
-[
-7
-// a // b
 // c
-, 255
-    , 65535  ,00,
-    3 , ""packet""	, // @lengthOf(
-""abc""] :  f32a
-,} ,
-    f32
-calculatedFrom @lengthOf(// trailing space 
-metadata
-) `crlf
-line` ,
-    } //	t
-options
-{ // c
-x_y_z //x
-=7 body	=zchar[1
-] ; }
-packet i8i8// trailing space 
-{string_{ u32 //x
-options1 // c
-@calculatedFrom(
-""1"" )  , }// `tick` ""quote"" 'q'
-,} // `tick` ""quote"" 'q'")).
-Eval vm_compute in ("<<<T1098>>>" ++ terms [mkTok 34 "root" 2 0 false; mkTok 35 "packet" 2 5 false; mkTok 42 "Foo" 3 0 false; mkTok 2 "{" 4 4 false; mkTok 38 "match" 4 5 false; mkTok 42 "As" 4 11 false; mkTok 17 "as" 4 14 false; mkTok 44 "// packet A { u8 x, }" 4 16 true; mkTok 42 "rootA" 5 0 false; mkTok 2 "{" 6 0 false; mkTok 31 """CRC32""" 6 2 false; mkTok 39 ":" 6 11 false; mkTok 42 "packetx" 6 13 false; mkTok 40 "," 7 0 false; mkTok 30 "4294967296" 7 2 false; mkTok 39 ":" 7 13 false; mkTok 42 "Header" 7 15 false; mkTok 40 "," 7 22 false; mkTok 18 "[" 7 24 false; mkTok 30 "0123456789" 7 25 false; mkTok 40 "," 8 4 false; mkTok 30 "255" 9 4 false; mkTok 44 "// @lengthOf(" 10 0 true; mkTok 44 "//x" 11 0 true; mkTok 40 "," 12 0 false; mkTok 30 "0" 12 2 false; mkTok 40 "," 13 4 false; mkTok 31 """\n""" 13 6 false; mkTok 40 "," 14 0 false; mkTok 31 """packet""" 15 4 false; mkTok 13 "]" 15 13 false; mkTok 39 ":" 15 15 false; mkTok 42 "BodyLength" 15 17 false; mkTok 40 "," 16 0 false; mkTok 18 "[" 17 0 false; mkTok 30 "7" 18 0 false; mkTok 44 "// a // b" 19 0 true; mkTok 44 "// c" 20 0 true; mkTok 40 "," 21 0 false; mkTok 30 "255" 21 2 false; mkTok 40 "," 22 4 false; mkTok 30 "65535" 22 6 false; mkTok 40 "," 22 13 false; mkTok 30 "00" 22 14 false; mkTok 40 "," 22 16 false; mkTok 30 "3" 23 4 false; mkTok 40 "," 23 6 false; mkTok 31 """packet""" 23 8 false; mkTok 40 "," 23 17 false; mkTok 44 "// @lengthOf(" 23 19 true; mkTok 31 """abc""" 24 0 false; mkTok 13 "]" 24 5 false; mkTok 39 ":" 24 7 false; mkTok 42 "f32a" 24 10 false; mkTok 40 "," 25 0 false; mkTok 3 "}" 25 1 false; mkTok 40 "," 25 3 false; mkTok 28 "f32" 26 4 false; mkTok 42 "calculatedFrom" 27 0 false; mkTok 7 "@lengthOf(" 27 15 false; mkTok 44 "// trailing space " 27 25 true; mkTok 42 "metadata" 28 0 false; mkTok 6 ")" 29 0 false; mkTok 43 (string_of_bytes [96; 99; 114; 108; 102; 13; 10; 108; 105; 110; 101; 96]%N) 29 2 false; mkTok 40 "," 30 6 false; mkTok 3 "}" 31 4 false; mkTok 44 (string_of_bytes [47; 47; 9; 116]%N) 31 6 true; mkTok 1 "options" 32 0 false; mkTok 2 "{" 33 0 false; mkTok 44 "// c" 33 2 true; mkTok 42 "x_y_z" 34 0 false; mkTok 44 "//x" 34 6 true; mkTok 4 "=" 35 0 false; mkTok 30 "7" 35 1 false; mkTok 42 "body" 35 3 false; mkTok 4 "=" 35 8 false; mkTok 14 "zchar[" 35 9 false; mkTok 30 "1" 35 15 false; mkTok 13 "]" 36 0 false; mkTok 41 ";" 36 2 false; mkTok 3 "}" 36 4 false; mkTok 35 "packet" 37 0 false; mkTok 42 "i8i8" 37 7 false; mkTok 44 "// trailing space " 37 11 true; mkTok 2 "{" 38 0 false; mkTok 42 "string_" 38 1 false; mkTok 2 "{" 38 8 false; mkTok 22 "u32" 38 10 false; mkTok 44 "//x" 38 14 true; mkTok 42 "options1" 39 0 false; mkTok 44 "// c" 39 9 true; mkTok 5 "@calculatedFrom(" 40 0 false; mkTok 31 """1""" 41 0 false; mkTok 6 ")" 41 4 false; mkTok 40 "," 41 7 false; mkTok 3 "}" 41 9 false; mkTok 44 "// `tick` ""quote"" 'q'" 41 10 true; mkTok 40 "," 42 0 false; mkTok 3 "}" 42 1 false; mkTok 44 "// `tick` ""quote"" 'q'" 42 3 true; mkTok 0 "<EOF>" 42 24 false] (mkPacket (mkPtok 34 "root" 2 0 0) (Some (mkPtok 3 "}" 42 1 98)) [(DPacket (mkPacketDef (mkSpan (mkPtok 34 "root" 2 0 0) (mkPtok 3 "}" 31 4 65)) (Some (mkPtok 34 "root" 2 0 0)) (mkPtok 35 "packet" 2 5 1) (mkPtok 42 "Foo" 3 0 2) (mkPtok 2 "{" 4 4 3) [(mkFieldWithAttr (mkSpan (mkPtok 38 "match" 4 5 4) (mkPtok 40 "," 25 3 56)) [] (MatchField (mkSpan (mkPtok 38 "match" 4 5 4) (mkPtok 40 "," 25 3 56)) (mkMatchFieldDecl (mkSpan (mkPtok 38 "match" 4 5 4) (mkPtok 3 "}" 25 1 55)) (mkPtok 38 "match" 4 5 4) (mkPtok 42 "As" 4 11 5) (mkPtok 17 "as" 4 14 6) (mkPtok 42 "rootA" 5 0 8) (mkPtok 2 "{" 6 0 9) [(mkMatchPair (mkSpan (mkPtok 31 """CRC32""" 6 2 10) (mkPtok 40 "," 7 0 13)) (MKString (mkPtok 31 """CRC32""" 6 2 10)) (mkPtok 39 ":" 6 11 11) (mkPtok 42 "packetx" 6 13 12) (Some (mkPtok 40 "," 7 0 13))); (mkMatchPair (mkSpan (mkPtok 30 "4294967296" 7 2 14) (mkPtok 40 "," 7 22 17)) (MKDigits (mkPtok 30 "4294967296" 7 2 14)) (mkPtok 39 ":" 7 13 15) (mkPtok 42 "Header" 7 15 16) (Some (mkPtok 40 "," 7 22 17))); (mkMatchPair (mkSpan (mkPtok 18 "[" 7 24 18) (mkPtok 40 "," 16 0 33)) (MKList (mkKeyList (mkSpan (mkPtok 18 "[" 7 24 18) (mkPtok 13 "]" 15 13 30)) (mkPtok 18 "[" 7 24 18) (mkPtok 30 "0123456789" 7 25 19) [((mkPtok 40 "," 8 4 20), (mkPtok 30 "255" 9 4 21)); ((mkPtok 40 "," 12 0 24), (mkPtok 30 "0" 12 2 25)); ((mkPtok 40 "," 13 4 26), (mkPtok 31 """\n""" 13 6 27)); ((mkPtok 40 "," 14 0 28), (mkPtok 31 """packet""" 15 4 29))] (mkPtok 13 "]" 15 13 30))) (mkPtok 39 ":" 15 15 31) (mkPtok 42 "BodyLength" 15 17 32) (Some (mkPtok 40 "," 16 0 33))); (mkMatchPair (mkSpan (mkPtok 18 "[" 17 0 34) (mkPtok 40 "," 25 0 54)) (MKList (mkKeyList (mkSpan (mkPtok 18 "[" 17 0 34) (mkPtok 13 "]" 24 5 51)) (mkPtok 18 "[" 17 0 34) (mkPtok 30 "7" 18 0 35) [((mkPtok 40 "," 21 0 38), (mkPtok 30 "255" 21 2 39)); ((mkPtok 40 "," 22 4 40), (mkPtok 30 "65535" 22 6 41)); ((mkPtok 40 "," 22 13 42), (mkPtok 30 "00" 22 14 43)); ((mkPtok 40 "," 22 16 44), (mkPtok 30 "3" 23 4 45)); ((mkPtok 40 "," 23 6 46), (mkPtok 31 """packet""" 23 8 47)); ((mkPtok 40 "," 23 17 48), (mkPtok 31 """abc""" 24 0 50))] (mkPtok 13 "]" 24 5 51))) (mkPtok 39 ":" 24 7 52) (mkPtok 42 "f32a" 24 10 53) (Some (mkPtok 40 "," 25 0 54)))] (mkPtok 3 "}" 25 1 55)) (mkPtok 40 "," 25 3 56))); (mkFieldWithAttr (mkSpan (mkPtok 28 "f32" 26 4 57) (mkPtok 40 "," 30 6 64)) [] (LengthField (mkSpan (mkPtok 28 "f32" 26 4 57) (mkPtok 40 "," 30 6 64)) (mkLengthFieldDecl (mkSpan (mkPtok 28 "f32" 26 4 57) (mkPtok 40 "," 30 6 64)) (Some (TyBasic (mkSpan (mkPtok 28 "f32" 26 4 57) (mkPtok 28 "f32" 26 4 57)) (mkBasicType (mkSpan (mkPtok 28 "f32" 26 4 57) (mkPtok 28 "f32" 26 4 57)) (mkPtok 28 "f32" 26 4 57)))) (mkPtok 42 "calculatedFrom" 27 0 58) (mkLengthOf (mkSpan (mkPtok 7 "@lengthOf(" 27 15 59) (mkPtok 6 ")" 29 0 62)) (mkPtok 7 "@lengthOf(" 27 15 59) (mkPtok 42 "metadata" 28 0 61) (mkPtok 6 ")" 29 0 62)) (Some (mkPtok 43 (string_of_bytes [96; 99; 114; 108; 102; 13; 10; 108; 105; 110; 101; 96]%N) 29 2 63)) (mkPtok 40 "," 30 6 64))))] (mkPtok 3 "}" 31 4 65))); (DOption (mkOptionDef (mkSpan (mkPtok 1 "options" 32 0 67) (mkPtok 3 "}" 36 4 80)) (mkPtok 1 "options" 32 0 67) (mkPtok 2 "{" 33 0 68) [(mkOptionDecl (mkSpan (mkPtok 42 "x_y_z" 34 0 70) (mkPtok 30 "7" 35 1 73)) (mkPtok 42 "x_y_z" 34 0 70) (mkPtok 4 "=" 35 0 72) (VDigits (mkSpan (mkPtok 30 "7" 35 1 73) (mkPtok 30 "7" 35 1 73)) (mkPtok 30 "7" 35 1 73)) None); (mkOptionDecl (mkSpan (mkPtok 42 "body" 35 3 74) (mkPtok 41 ";" 36 2 79)) (mkPtok 42 "body" 35 3 74) (mkPtok 4 "=" 35 8 75) (VType (mkSpan (mkPtok 14 "zchar[" 35 9 76) (mkPtok 13 "]" 36 0 78)) (TyFixed (mkSpan (mkPtok 14 "zchar[" 35 9 76) (mkPtok 13 "]" 36 0 78)) (mkFixedString (mkSpan (mkPtok 14 "zchar[" 35 9 76) (mkPtok 13 "]" 36 0 78)) (mkPtok 14 "zchar[" 35 9 76) (mkPtok 30 "1" 35 15 77) (mkPtok 13 "]" 36 0 78)))) (Some (mkPtok 41 ";" 36 2 79)))] (mkPtok 3 "}" 36 4 80))); (DPacket (mkPacketDef (mkSpan (mkPtok 35 "packet" 37 0 81) (mkPtok 3 "}" 42 1 98)) None (mkPtok 35 "packet" 37 0 81) (mkPtok 42 "i8i8" 37 7 82) (mkPtok 2 "{" 38 0 84) [(mkFieldWithAttr (mkSpan (mkPtok 42 "string_" 38 1 85) (mkPtok 40 "," 42 0 97)) [] (InerObjectField (mkSpan (mkPtok 42 "string_" 38 1 85) (mkPtok 40 "," 42 0 97)) None (InerObjectDecl (mkSpan (mkPtok 42 "string_" 38 1 85) (mkPtok 3 "}" 41 9 95)) (mkPtok 42 "string_" 38 1 85) (mkPtok 2 "{" 38 8 86) [(CheckSumField (mkSpan (mkPtok 22 "u32" 38 10 87) (mkPtok 40 "," 41 7 94)) (mkChecksumFieldDecl (mkSpan (mkPtok 22 "u32" 38 10 87) (mkPtok 40 "," 41 7 94)) (Some (TyBasic (mkSpan (mkPtok 22 "u32" 38 10 87) (mkPtok 22 "u32" 38 10 87)) (mkBasicType (mkSpan (mkPtok 22 "u32" 38 10 87) (mkPtok 22 "u32" 38 10 87)) (mkPtok 22 "u32" 38 10 87)))) (mkPtok 42 "options1" 39 0 89) (mkCalculatedFrom (mkSpan (mkPtok 5 "@calculatedFrom(" 40 0 91) (mkPtok 6 ")" 41 4 93)) (mkPtok 5 "@calculatedFrom(" 40 0 91) (mkPtok 31 """1""" 41 0 92) (mkPtok 6 ")" 41 4 93)) None (mkPtok 40 "," 41 7 94)))] (mkPtok 3 "}" 41 9 95)) (mkPtok 40 "," 42 0 97)))] (mkPtok 3 "}" 42 1 98)))])).
-Eval vm_compute in ("<<<M1130>>>" ++ check (runes_of_ascii " // trailing space ")).
-Eval vm_compute in ("<<<M1162>>>" ++ check (runes_of_ascii "
-packet// `tick` ""quote"" 'q'
-BodyLength
-{ @rightPad (	)int8
-// @lengthOf(
-// c
-BodyLength  @calculatedFrom(	""packet"" )
-// c
-/// triple
-`
-`, u8x
-calculatedFrom
-    ,//x
-repeat
-    f32a {
-zchar[ 3 ] BodyLength , match i8i8 // " ++ [128512]%N ++ runes_of_ascii " emoji
-as A{
-    3  : packetx , ""CRC32"" //x
-:
-options1
-}  , } , @leftPad
-( ' ' )@lengthOf( Header ) repeat
-len string_ ,
-@tag( 4294967296 // @lengthOf(
-)@calculatedFrom(""" ++ [233]%N ++ runes_of_ascii "t" ++ [233]%N ++ runes_of_ascii """ )len
-repeatCount
-,  u64 i64_
-`{ , }`	, i16 o , @lengthOf( repeatCount	) @lengthOf(
-Header ) @rightPad(  '\x00'
-    //x
-    ) repeat options1{ // c
-roots @calculatedFrom(
-    ""1""// c
-)
-    `tab	here` ,repeat // @lengthOf(
-options1 zchar , repeat a1{
-    u128 {match Z9_ as x {
-    ""`tick`"" :o, ""`tick`""// packet A { u8 x, }
-:  pack , [ 255 ]
-    : Header ,3 : asx ,
-[ 255 , //	t
-""CRC32""
-]  : charz }, } ,}, char[10 ] stringy ,
-    } ,// " ++ [27880; 37322]%N ++ runes_of_ascii "
-@leftPad( )
-// packet A { u8 x, }
-// a // b
-char[
-007] len`doc` , }")).
-Eval vm_compute in ("<<<M1194>>>" ++ check (runes_of_ascii "MetaData
-// `tick` ""quote"" 'q'
-/// triple
-matchKey// " ++ [27880; 37322]%N ++ runes_of_ascii "
-{  char[ //x
-255
-] Pad`it's`
-, u8
-x_y_z //
-, i64_ packetx// a // b
-`tab	here` // " ++ [128512]%N ++ runes_of_ascii " emoji
-,trueish
-zchar`it's` , }
-
-")).
-Eval vm_compute in ("<<<M1226>>>" ++ check (runes_of_ascii "options{
-    //	t
-    o=
-float64 ; rootA =""a	b"" tag =
-    // a // b
-    true ;
-BodyLength = //	t
-""\" ++ [233]%N ++ runes_of_ascii """
-    ;
-} packet leftPad	{
-    u8x
-    //	t
-    roots
-`{ , }` // " ++ [27880; 37322]%N ++ runes_of_ascii "
-, @calculatedFrom( ""// no comment"" ) i64_
-a1,
-// packet A { u8 x, }
-/// triple
-f64
-    tag
-, }MetaData charz { string msg_type ,  roots x_y_z	, Z9_ chars`tab	here`
-    , packetx
-    u128 `// not a comment` , // c
-pack a1 ,} packet
-falsey {
-uint32 Foo ,
-}
-")).
-Eval vm_compute in ("<<<M1258>>>" ++ check (runes_of_ascii "
-")).
-Eval vm_compute in ("<<<M1290>>>" ++ check (runes_of_ascii "MetaData// trailing space 
-int {// " ++ [27880; 37322]%N ++ runes_of_ascii "
-u128 uint8x , // a // b
-string
-    o ,A metadata `u8 x,`  ,
-char[  10 ]
-rootA
-    , packetx x_y_z `doc` ,  string_ // `tick` ""quote"" 'q'
-trueish`doc` , }")).
-Eval vm_compute in ("<<<M1322>>>" ++ check (runes_of_ascii "packet
-charz  { // @lengthOf(
-} options
-{
-} packet float	{ metadata Logon ,
-} packet
-    body {
-    @tag(
-    42 // packet A { u8 x, }
-) repeat tag i64_, /// triple
-@lengthOf( string_  )	match chars as
-    Z9_
-    { [65535
-// " ++ [27880; 37322]%N ++ runes_of_ascii "
-//x
-] :
-o // `tick` ""quote"" 'q'
-, [//	t
-""{,}"" ,0123456789
-    , ""packet""
-// packet A { u8 x, }
-//
-, ""abc"" ,255 , """ ++ [233]%N ++ runes_of_ascii "t" ++ [233]%N ++ runes_of_ascii """
-    ,
-// packet A { u8 x, }
-//x
-""x y"" , 3 ]: pack
-    , ""abc""
-:
-matchKey
-    , [ 0123456789 , 1 ] : chars
-    // c
-    1 :int ,  """ ++ [233]%N ++ runes_of_ascii "t" ++ [233]%N ++ runes_of_ascii """ : i64_ , }
-, match Pad as trueish { ""a	b"" : pack
-    , }
-,	@calculatedFrom( """ ++ [28040; 24687]%N ++ runes_of_ascii """
-)
-repeat u128 x
-    ,
-    string A
-,
-lengthOf
-{
-BodyLength T  ,int16 A @lengthOf(
-i8i8
-)//x
-, // " ++ [27880; 37322]%N ++ runes_of_ascii "
-} ,options1 chars  `line1
-line2` ,
-}
-")).
-Eval vm_compute in ("<<<T1322>>>" ++ terms [mkTok 35 "packet" 1 0 false; mkTok 42 "charz" 2 0 false; mkTok 2 "{" 2 7 false; mkTok 44 "// @lengthOf(" 2 9 true; mkTok 3 "}" 3 0 false; mkTok 1 "options" 3 2 false; mkTok 2 "{" 4 0 false; mkTok 3 "}" 5 0 false; mkTok 35 "packet" 5 2 false; mkTok 42 "float" 5 9 false; mkTok 2 "{" 5 15 false; mkTok 42 "metadata" 5 17 false; mkTok 42 "Logon" 5 26 false; mkTok 40 "," 5 32 false; mkTok 3 "}" 6 0 false; mkTok 35 "packet" 6 2 false; mkTok 42 "body" 7 4 false; mkTok 2 "{" 7 9 false; mkTok 9 "@tag(" 8 4 false; mkTok 30 "42" 9 4 false; mkTok 44 "// packet A { u8 x, }" 9 7 true; mkTok 6 ")" 10 0 false; mkTok 36 "repeat" 10 2 false; mkTok 42 "tag" 10 9 false; mkTok 42 "i64_" 10 13 false; mkTok 40 "," 10 17 false; mkTok 44 "/// triple" 10 19 true; mkTok 7 "@lengthOf(" 11 0 false; mkTok 42 "string_" 11 11 false; mkTok 6 ")" 11 20 false; mkTok 38 "match" 11 22 false; mkTok 42 "chars" 11 28 false; mkTok 17 "as" 11 34 false; mkTok 42 "Z9_" 12 4 false; mkTok 2 "{" 13 4 false; mkTok 18 "[" 13 6 false; mkTok 30 "65535" 13 7 false; mkTok 44 (string_of_bytes [47; 47; 32; 230; 179; 168; 233; 135; 138]%N) 14 0 true; mkTok 44 "//x" 15 0 true; mkTok 13 "]" 16 0 false; mkTok 39 ":" 16 2 false; mkTok 42 "o" 17 0 false; mkTok 44 "// `tick` ""quote"" 'q'" 17 2 true; mkTok 40 "," 18 0 false; mkTok 18 "[" 18 2 false; mkTok 44 (string_of_bytes [47; 47; 9; 116]%N) 18 3 true; mkTok 31 """{,}""" 19 0 false; mkTok 40 "," 19 6 false; mkTok 30 "0123456789" 19 7 false; mkTok 40 "," 20 4 false; mkTok 31 """packet""" 20 6 false; mkTok 44 "// packet A { u8 x, }" 21 0 true; mkTok 44 "//" 22 0 true; mkTok 40 "," 23 0 false; mkTok 31 """abc""" 23 2 false; mkTok 40 "," 23 8 false; mkTok 30 "255" 23 9 false; mkTok 40 "," 23 13 false; mkTok 31 (string_of_bytes [34; 195; 169; 116; 195; 169; 34]%N) 23 15 false; mkTok 40 "," 24 4 false; mkTok 44 "// packet A { u8 x, }" 25 0 true; mkTok 44 "//x" 26 0 true; mkTok 31 """x y""" 27 0 false; mkTok 40 "," 27 6 false; mkTok 30 "3" 27 8 false; mkTok 13 "]" 27 10 false; mkTok 39 ":" 27 11 false; mkTok 42 "pack" 27 13 false; mkTok 40 "," 28 4 false; mkTok 31 """abc""" 28 6 false; mkTok 39 ":" 29 0 false; mkTok 42 "matchKey" 30 0 false; mkTok 40 "," 31 4 false; mkTok 18 "[" 31 6 false; mkTok 30 "0123456789" 31 8 false; mkTok 40 "," 31 19 false; mkTok 30 "1" 31 21 false; mkTok 13 "]" 31 23 false; mkTok 39 ":" 31 25 false; mkTok 42 "chars" 31 27 false; mkTok 44 "// c" 32 4 true; mkTok 30 "1" 33 4 false; mkTok 39 ":" 33 6 false; mkTok 42 "int" 33 7 false; mkTok 40 "," 33 11 false; mkTok 31 (string_of_bytes [34; 195; 169; 116; 195; 169; 34]%N) 33 14 false; mkTok 39 ":" 33 20 false; mkTok 42 "i64_" 33 22 false; mkTok 40 "," 33 27 false; mkTok 3 "}" 33 29 false; mkTok 40 "," 34 0 false; mkTok 38 "match" 34 2 false; mkTok 42 "Pad" 34 8 false; mkTok 17 "as" 34 12 false; mkTok 42 "trueish" 34 15 false; mkTok 2 "{" 34 23 false; mkTok 31 (string_of_bytes [34; 97; 9; 98; 34]%N) 34 25 false; mkTok 39 ":" 34 31 false; mkTok 42 "pack" 34 33 false; mkTok 40 "," 35 4 false; mkTok 3 "}" 35 6 false; mkTok 40 "," 36 0 false; mkTok 5 "@calculatedFrom(" 36 2 false; mkTok 31 (string_of_bytes [34; 230; 182; 136; 230; 129; 175; 34]%N) 36 19 false; mkTok 6 ")" 37 0 false; mkTok 36 "repeat" 38 0 false; mkTok 42 "u128" 38 7 false; mkTok 42 "x" 38 12 false; mkTok 40 "," 39 4 false; mkTok 15 "string" 40 4 false; mkTok 42 "A" 40 11 false; mkTok 40 "," 41 0 false; mkTok 42 "lengthOf" 42 0 false; mkTok 2 "{" 43 0 false; mkTok 42 "BodyLength" 44 0 false; mkTok 42 "T" 44 11 false; mkTok 40 "," 44 14 false; mkTok 25 "int16" 44 15 false; mkTok 42 "A" 44 21 false; mkTok 7 "@lengthOf(" 44 23 false; mkTok 42 "i8i8" 45 0 false; mkTok 6 ")" 46 0 false; mkTok 44 "//x" 46 1 true; mkTok 40 "," 47 0 false; mkTok 44 (string_of_bytes [47; 47; 32; 230; 179; 168; 233; 135; 138]%N) 47 2 true; mkTok 3 "}" 48 0 false; mkTok 40 "," 48 2 false; mkTok 42 "options1" 48 3 false; mkTok 42 "chars" 48 12 false; mkTok 43 (string_of_bytes [96; 108; 105; 110; 101; 49; 10; 108; 105; 110; 101; 50; 96]%N) 48 19 false; mkTok 40 "," 49 7 false; mkTok 3 "}" 50 0 false; mkTok 0 "<EOF>" 51 0 false] (mkPacket (mkPtok 35 "packet" 1 0 0) (Some (mkPtok 3 "}" 50 0 131)) [(DPacket (mkPacketDef (mkSpan (mkPtok 35 "packet" 1 0 0) (mkPtok 3 "}" 3 0 4)) None (mkPtok 35 "packet" 1 0 0) (mkPtok 42 "charz" 2 0 1) (mkPtok 2 "{" 2 7 2) [] (mkPtok 3 "}" 3 0 4))); (DOption (mkOptionDef (mkSpan (mkPtok 1 "options" 3 2 5) (mkPtok 3 "}" 5 0 7)) (mkPtok 1 "options" 3 2 5) (mkPtok 2 "{" 4 0 6) [] (mkPtok 3 "}" 5 0 7))); (DPacket (mkPacketDef (mkSpan (mkPtok 35 "packet" 5 2 8) (mkPtok 3 "}" 6 0 14)) None (mkPtok 35 "packet" 5 2 8) (mkPtok 42 "float" 5 9 9) (mkPtok 2 "{" 5 15 10) [(mkFieldWithAttr (mkSpan (mkPtok 42 "metadata" 5 17 11) (mkPtok 40 "," 5 32 13)) [] (ObjectField (mkSpan (mkPtok 42 "metadata" 5 17 11) (mkPtok 40 "," 5 32 13)) None (mkPtok 42 "metadata" 5 17 11) (Some (mkPtok 42 "Logon" 5 26 12)) None (mkPtok 40 "," 5 32 13)))] (mkPtok 3 "}" 6 0 14))); (DPacket (mkPacketDef (mkSpan (mkPtok 35 "packet" 6 2 15) (mkPtok 3 "}" 50 0 131)) None (mkPtok 35 "packet" 6 2 15) (mkPtok 42 "body" 7 4 16) (mkPtok 2 "{" 7 9 17) [(mkFieldWithAttr (mkSpan (mkPtok 9 "@tag(" 8 4 18) (mkPtok 40 "," 10 17 25)) [(FATag (mkSpan (mkPtok 9 "@tag(" 8 4 18) (mkPtok 6 ")" 10 0 21)) (mkTagAttr (mkSpan (mkPtok 9 "@tag(" 8 4 18) (mkPtok 6 ")" 10 0 21)) (mkPtok 9 "@tag(" 8 4 18) (mkPtok 30 "42" 9 4 19) (mkPtok 6 ")" 10 0 21)))] (ObjectField (mkSpan (mkPtok 36 "repeat" 10 2 22) (mkPtok 40 "," 10 17 25)) (Some (mkPtok 36 "repeat" 10 2 22)) (mkPtok 42 "tag" 10 9 23) (Some (mkPtok 42 "i64_" 10 13 24)) None (mkPtok 40 "," 10 17 25))); (mkFieldWithAttr (mkSpan (mkPtok 7 "@lengthOf(" 11 0 27) (mkPtok 40 "," 34 0 90)) [(FALengthOf (mkSpan (mkPtok 7 "@lengthOf(" 11 0 27) (mkPtok 6 ")" 11 20 29)) (mkLengthOf (mkSpan (mkPtok 7 "@lengthOf(" 11 0 27) (mkPtok 6 ")" 11 20 29)) (mkPtok 7 "@lengthOf(" 11 0 27) (mkPtok 42 "string_" 11 11 28) (mkPtok 6 ")" 11 20 29)))] (MatchField (mkSpan (mkPtok 38 "match" 11 22 30) (mkPtok 40 "," 34 0 90)) (mkMatchFieldDecl (mkSpan (mkPtok 38 "match" 11 22 30) (mkPtok 3 "}" 33 29 89)) (mkPtok 38 "match" 11 22 30) (mkPtok 42 "chars" 11 28 31) (mkPtok 17 "as" 11 34 32) (mkPtok 42 "Z9_" 12 4 33) (mkPtok 2 "{" 13 4 34) [(mkMatchPair (mkSpan (mkPtok 18 "[" 13 6 35) (mkPtok 40 "," 18 0 43)) (MKList (mkKeyList (mkSpan (mkPtok 18 "[" 13 6 35) (mkPtok 13 "]" 16 0 39)) (mkPtok 18 "[" 13 6 35) (mkPtok 30 "65535" 13 7 36) [] (mkPtok 13 "]" 16 0 39))) (mkPtok 39 ":" 16 2 40) (mkPtok 42 "o" 17 0 41) (Some (mkPtok 40 "," 18 0 43))); (mkMatchPair (mkSpan (mkPtok 18 "[" 18 2 44) (mkPtok 40 "," 28 4 68)) (MKList (mkKeyList (mkSpan (mkPtok 18 "[" 18 2 44) (mkPtok 13 "]" 27 10 65)) (mkPtok 18 "[" 18 2 44) (mkPtok 31 """{,}""" 19 0 46) [((mkPtok 40 "," 19 6 47), (mkPtok 30 "0123456789" 19 7 48)); ((mkPtok 40 "," 20 4 49), (mkPtok 31 """packet""" 20 6 50)); ((mkPtok 40 "," 23 0 53), (mkPtok 31 """abc""" 23 2 54)); ((mkPtok 40 "," 23 8 55), (mkPtok 30 "255" 23 9 56)); ((mkPtok 40 "," 23 13 57), (mkPtok 31 (string_of_bytes [34; 195; 169; 116; 195; 169; 34]%N) 23 15 58)); ((mkPtok 40 "," 24 4 59), (mkPtok 31 """x y""" 27 0 62)); ((mkPtok 40 "," 27 6 63), (mkPtok 30 "3" 27 8 64))] (mkPtok 13 "]" 27 10 65))) (mkPtok 39 ":" 27 11 66) (mkPtok 42 "pack" 27 13 67) (Some (mkPtok 40 "," 28 4 68))); (mkMatchPair (mkSpan (mkPtok 31 """abc""" 28 6 69) (mkPtok 40 "," 31 4 72)) (MKString (mkPtok 31 """abc""" 28 6 69)) (mkPtok 39 ":" 29 0 70) (mkPtok 42 "matchKey" 30 0 71) (Some (mkPtok 40 "," 31 4 72))); (mkMatchPair (mkSpan (mkPtok 18 "[" 31 6 73) (mkPtok 42 "chars" 31 27 79)) (MKList (mkKeyList (mkSpan (mkPtok 18 "[" 31 6 73) (mkPtok 13 "]" 31 23 77)) (mkPtok 18 "[" 31 6 73) (mkPtok 30 "0123456789" 31 8 74) [((mkPtok 40 "," 31 19 75), (mkPtok 30 "1" 31 21 76))] (mkPtok 13 "]" 31 23 77))) (mkPtok 39 ":" 31 25 78) (mkPtok 42 "chars" 31 27 79) None); (mkMatchPair (mkSpan (mkPtok 30 "1" 33 4 81) (mkPtok 40 "," 33 11 84)) (MKDigits (mkPtok 30 "1" 33 4 81)) (mkPtok 39 ":" 33 6 82) (mkPtok 42 "int" 33 7 83) (Some (mkPtok 40 "," 33 11 84))); (mkMatchPair (mkSpan (mkPtok 31 (string_of_bytes [34; 195; 169; 116; 195; 169; 34]%N) 33 14 85) (mkPtok 40 "," 33 27 88)) (MKString (mkPtok 31 (string_of_bytes [34; 195; 169; 116; 195; 169; 34]%N) 33 14 85)) (mkPtok 39 ":" 33 20 86) (mkPtok 42 "i64_" 33 22 87) (Some (mkPtok 40 "," 33 27 88)))] (mkPtok 3 "}" 33 29 89)) (mkPtok 40 "," 34 0 90))); (mkFieldWithAttr (mkSpan (mkPtok 38 "match" 34 2 91) (mkPtok 40 "," 36 0 101)) [] (MatchField (mkSpan (mkPtok 38 "match" 34 2 91) (mkPtok 40 "," 36 0 101)) (mkMatchFieldDecl (mkSpan (mkPtok 38 "match" 34 2 91) (mkPtok 3 "}" 35 6 100)) (mkPtok 38 "match" 34 2 91) (mkPtok 42 "Pad" 34 8 92) (mkPtok 17 "as" 34 12 93) (mkPtok 42 "trueish" 34 15 94) (mkPtok 2 "{" 34 23 95) [(mkMatchPair (mkSpan (mkPtok 31 (string_of_bytes [34; 97; 9; 98; 34]%N) 34 25 96) (mkPtok 40 "," 35 4 99)) (MKString (mkPtok 31 (string_of_bytes [34; 97; 9; 98; 34]%N) 34 25 96)) (mkPtok 39 ":" 34 31 97) (mkPtok 42 "pack" 34 33 98) (Some (mkPtok 40 "," 35 4 99)))] (mkPtok 3 "}" 35 6 100)) (mkPtok 40 "," 36 0 101))); (mkFieldWithAttr (mkSpan (mkPtok 5 "@calculatedFrom(" 36 2 102) (mkPtok 40 "," 39 4 108)) [(FACalculatedFrom (mkSpan (mkPtok 5 "@calculatedFrom(" 36 2 102) (mkPtok 6 ")" 37 0 104)) (mkCalculatedFrom (mkSpan (mkPtok 5 "@calculatedFrom(" 36 2 102) (mkPtok 6 ")" 37 0 104)) (mkPtok 5 "@calculatedFrom(" 36 2 102) (mkPtok 31 (string_of_bytes [34; 230; 182; 136; 230; 129; 175; 34]%N) 36 19 103) (mkPtok 6 ")" 37 0 104)))] (ObjectField (mkSpan (mkPtok 36 "repeat" 38 0 105) (mkPtok 40 "," 39 4 108)) (Some (mkPtok 36 "repeat" 38 0 105)) (mkPtok 42 "u128" 38 7 106) (Some (mkPtok 42 "x" 38 12 107)) None (mkPtok 40 "," 39 4 108))); (mkFieldWithAttr (mkSpan (mkPtok 15 "string" 40 4 109) (mkPtok 40 "," 41 0 111)) [] (MetaField (mkSpan (mkPtok 15 "string" 40 4 109) (mkPtok 40 "," 41 0 111)) None (mkMetaDecl (mkSpan (mkPtok 15 "string" 40 4 109) (mkPtok 40 "," 41 0 111)) (TyDynamic (mkSpan (mkPtok 15 "string" 40 4 109) (mkPtok 15 "string" 40 4 109)) (mkDynamicString (mkSpan (mkPtok 15 "string" 40 4 109) (mkPtok 15 "string" 40 4 109)) (mkPtok 15 "string" 40 4 109))) (mkPtok 42 "A" 40 11 110) None (mkPtok 40 "," 41 0 111)))); (mkFieldWithAttr (mkSpan (mkPtok 42 "lengthOf" 42 0 112) (mkPtok 40 "," 48 2 126)) [] (InerObjectField (mkSpan (mkPtok 42 "lengthOf" 42 0 112) (mkPtok 40 "," 48 2 126)) None (InerObjectDecl (mkSpan (mkPtok 42 "lengthOf" 42 0 112) (mkPtok 3 "}" 48 0 125)) (mkPtok 42 "lengthOf" 42 0 112) (mkPtok 2 "{" 43 0 113) [(ObjectField (mkSpan (mkPtok 42 "BodyLength" 44 0 114) (mkPtok 40 "," 44 14 116)) None (mkPtok 42 "BodyLength" 44 0 114) (Some (mkPtok 42 "T" 44 11 115)) None (mkPtok 40 "," 44 14 116)); (LengthField (mkSpan (mkPtok 25 "int16" 44 15 117) (mkPtok 40 "," 47 0 123)) (mkLengthFieldDecl (mkSpan (mkPtok 25 "int16" 44 15 117) (mkPtok 40 "," 47 0 123)) (Some (TyBasic (mkSpan (mkPtok 25 "int16" 44 15 117) (mkPtok 25 "int16" 44 15 117)) (mkBasicType (mkSpan (mkPtok 25 "int16" 44 15 117) (mkPtok 25 "int16" 44 15 117)) (mkPtok 25 "int16" 44 15 117)))) (mkPtok 42 "A" 44 21 118) (mkLengthOf (mkSpan (mkPtok 7 "@lengthOf(" 44 23 119) (mkPtok 6 ")" 46 0 121)) (mkPtok 7 "@lengthOf(" 44 23 119) (mkPtok 42 "i8i8" 45 0 120) (mkPtok 6 ")" 46 0 121)) None (mkPtok 40 "," 47 0 123)))] (mkPtok 3 "}" 48 0 125)) (mkPtok 40 "," 48 2 126))); (mkFieldWithAttr (mkSpan (mkPtok 42 "options1" 48 3 127) (mkPtok 40 "," 49 7 130)) [] (ObjectField (mkSpan (mkPtok 42 "options1" 48 3 127) (mkPtok 40 "," 49 7 130)) None (mkPtok 42 "options1" 48 3 127) (Some (mkPtok 42 "chars" 48 12 128)) (Some (mkPtok 43 (string_of_bytes [96; 108; 105; 110; 101; 49; 10; 108; 105; 110; 101; 50; 96]%N) 48 19 129)) (mkPtok 40 "," 49 7 130)))] (mkPtok 3 "}" 50 0 131)))])).
-Eval vm_compute in ("<<<M1354>>>" ++ check (runes_of_ascii "
-packet
-T {
-uint64
-rootA
-    `it's`
-    ,
-// a // b
-// packet A { u8 x, }
-@tag( 255
-    )
-f32a
-{
-string
-MetaDataX
-`" ++ [28040; 24687; 31867; 22411]%N ++ runes_of_ascii "`
-, } ,uint8x
-    //x
-    @lengthOf( u8x ),
-match
-x
-    // a // b
-    as As	{4294967296	: trueish , ""{,}"": Packet , 1  :float
-,  007 : repeatCount , //	t
-}, @leftPad (  '0' ) @lengthOf( crc ) int16 // trailing space 
-u128 , calculatedFrom
-asx
-`u8 x,` ,
-}
-")).
-Eval vm_compute in ("<<<M1386>>>" ++ check (runes_of_ascii "//x
-packet	_x { repeat
-    charz { repeat asx,//x
-string metadata ,//x
-uint64	a1 @calculatedFrom(	""it's"") `a\`
-    , }
-,
-    @rightPad//
-() msg_type len
-``,MetaDataX asx // " ++ [128512]%N ++ runes_of_ascii " emoji
-,@rightPad
-(
-    '\x00' )zchar[ 3] int,
-}packet Packet
-    { @leftPad(
-    )
-string_{ repeat
-    calculatedFrom// a // b
-`it's` , }
-    // " ++ [128512]%N ++ runes_of_ascii " emoji
-    , @calculatedFrom(""a	b""
-    ) @tag( 00 )@rightPad(
-' ')
-u64 stringy // " ++ [128512]%N ++ runes_of_ascii " emoji
-@calculatedFrom( ""a	b"" // @lengthOf(
-)
-, @leftPad
-    (
-'\x00' ) options1 `" ++ [233]%N ++ runes_of_ascii "`
-    , @rightPad ( ) repeat char[ 007
-]Foo `line1
-line2`
-,
-} options
-{len
-    = '\x00' ;
-    roots  =
-""{,}""packetx =i64 ;
-    }
-")).
-Eval vm_compute in ("<<<M1418>>>" ++ check (runes_of_ascii "MetaData rootA{ }packet BodyLength{repeat
-    int32 falsey`a\`
-, i64
-rootA @lengthOf(
-falsey
-) , } root packet
-x
-    { u64 A  `" ++ [233]%N ++ runes_of_ascii "` ,} packet // @lengthOf(
-BodyLength{}
-    //x
-    options { A
-    =
-""\n"" ; }
-")).
-Eval vm_compute in ("<<<M1450>>>" ++ check (runes_of_ascii "// packet A { u8 x, }
-packet zchar { uint32 // packet A { u8 x, }
-matchKey , i32 leftPad @calculatedFrom(
-    //	t
-    ""1"" ) `crlf
-line` ,
-_x{  f32a @calculatedFrom(""`tick`""// " ++ [128512]%N ++ runes_of_ascii " emoji
-) ,// packet A { u8 x, }
-char metadata `u8 x,` ,
-    // c
-    char[]
-a1 @lengthOf(float )  `a\`
-, } ,
-@lengthOf(
-A	)/// triple
-zchar[ //
-0123456789
-]Header @lengthOf( o) `" ++ [28040; 24687; 31867; 22411]%N ++ runes_of_ascii "`// c
-,	@tag(00) x `it's` ,
-i8 msg_type @lengthOf(
-len) `
-` , @tag(
-    00
-    ) repeat matchKey// a // b
-{
-    string// " ++ [128512]%N ++ runes_of_ascii " emoji
-u `" ++ [28040; 24687; 31867; 22411]%N ++ runes_of_ascii "` ,u8 u @calculatedFrom( ""a\""b"" ) ,
-i8 len, packetx, }	,
-    } options
-    { Foo = 0
-;
-    }
-")).
-Eval vm_compute in ("<<<M1482>>>" ++ check (runes_of_ascii "
-packet  _x {	repeat
-    // packet A { u8 x, }
-    A{
-    int64 uint8x `tab	here` ,
-}
-    , } packet Pad  { @tag(	65535
-)string _x //x
-@lengthOf( asx)  , @rightPad ( '0'	)u8 MetaDataX , u64 chars,
-    // c
-    }
-
-")).
-Eval vm_compute in ("<<<M1514>>>" ++ check (runes_of_ascii "packet calculatedFrom{i16 trueish
-,
-    @tag( 10	) repeat zchar[ 1 ]	tag
-, repeat crc
-    `it's` ,
-    @lengthOf( roots)@lengthOf( len)
-@calculatedFrom(
-// `tick` ""quote"" 'q'
-/// triple
-"""" ) repeat
-    /// triple
-    zchar[
-255
-] u8x , repeat
-char[]
-Header, match metadata as// " ++ [27880; 37322]%N ++ runes_of_ascii "
-matchKey
-    {0: o ""x y"" :
-    T
-    [ """ ++ [28040; 24687]%N ++ runes_of_ascii """ ]: float, }
-    ,
-zchar[ 3 ] Z9_ @lengthOf(Z9_) // " ++ [27880; 37322]%N ++ runes_of_ascii "
-`two words` ,
-    char[ 255	] x
+asx, [ 0 ]
+    :
+leftPad , ""CRC32"" :	stringy
+, }	, @tag( 0 )
+u128@lengthOf(
+    calculatedFrom) `" ++ [28040; 24687; 31867; 22411]%N ++ runes_of_ascii "`,zchar[ // `tick` ""quote"" 'q'
+42 ] i64_ // a // b
+@lengthOf(	u128 )
     `line1
 line2`
-    ,repeat
-    u16 Packet`// not a comment` ,} MetaData x_y_z{
-char[10 ]
-    f32a ,
-    char[007 ]chars , f32 i8i8	`say ""hi""` , }root
-packet lengthOf
-{ string_
-    crc
-`" ++ [28040; 24687; 31867; 22411]%N ++ runes_of_ascii "` ,
-    }root
-    packet i64_ { @lengthOf( u8x ) match rootA
-as asx // packet A { u8 x, }
-{ [ ""// no comment""  ,
-4294967296 , 10
-, //
-0123456789
-    ] :// c
-trueish ,1 :uint8x , 10  :
-Packet, 3 : x
-    // trailing space 
-    , /// triple
-""it's"" : x_y_z } , repeat zchar[ 0 ]tag , match falsey
-as stringy
-    { ""packet"": // packet A { u8 x, }
-BodyLength
-    ""\" ++ [233]%N ++ runes_of_ascii """ :
-    falsey, 10 : packetx
-, [  255] :Header }
-/// triple
-// trailing space 
+    ,} root packet x_y_z
+    {
+repeat
+    zchar[255
+    ]
+leftPad ,BodyLength
+, @calculatedFrom( ""x y"") int8 /// triple
+o @calculatedFrom( // @lengthOf(
+""\" ++ [233]%N ++ runes_of_ascii """ )
+,} // " ++ [27880; 37322]%N)).
+Eval vm_compute in ("<<<M554>>>" ++ check (runes_of_ascii "
+packet calculatedFrom { } options { leftPad = true	Pad=true pack
+=int64
+    ; calculatedFrom=
+'0' ; stringy
+= false } MetaData As { calculatedFrom u8x,
+} root
+    packet	charz{ }packet
+// `tick` ""quote"" 'q'
+// 50% %s
+calculatedFrom {
+    @calculatedFrom( ""\" ++ [233]%N ++ runes_of_ascii """
+)@leftPad
+    // " ++ [128512]%N ++ runes_of_ascii " emoji
+    ( )
+repeat char[
+3] chars `// not a comment`, // @lengthOf(
+match packetx // " ++ [128512]%N ++ runes_of_ascii " emoji
+as	MetaDataX { ""a	b"" :
+As , [
+    //	t
+    255 , 42
+] :len
+    , } , }
+// " ++ [27880; 37322]%N ++ runes_of_ascii "
+")).
+Eval vm_compute in ("<<<M586>>>" ++ check (runes_of_ascii "root packet packetx
+    {
+    @calculatedFrom(""a\\"" ) repeat
+zchar[1 ]Pad
+    ,repeat trueish
+    , //	t
+@rightPad (
+// `tick` ""quote"" 'q'
+// " ++ [128512]%N ++ runes_of_ascii " emoji
+' ' )// trailing space 
+match u as zchar
+{ 42
+:BodyLength
 ,
-    repeat
-    zchar[
-    3] Pad
-    `" ++ [233]%N ++ runes_of_ascii "`	, @tag( 3) char[ 65535 ] f32a@lengthOf( f32a //x
-) ,@rightPad ( //x
-'\x00') match f32a as
-u128 {
-42 :
-zchar , 007 :crc // @lengthOf(
 [
-1 , 00
-    ]: matchKey , ""1""
-: BodyLength,00 : packetx, },  }")).
-Eval vm_compute in ("<<<M1546>>>" ++ check (runes_of_ascii "MetaData // " ++ [27880; 37322]%N ++ runes_of_ascii "
-MetaDataX
-    { zchar[
-    0
-] len ,} 	 ")).
-Eval vm_compute in ("<<<T1546>>>" ++ terms [mkTok 37 "MetaData" 1 0 false; mkTok 44 (string_of_bytes [47; 47; 32; 230; 179; 168; 233; 135; 138]%N) 1 9 true; mkTok 42 "MetaDataX" 2 0 false; mkTok 2 "{" 3 4 false; mkTok 14 "zchar[" 3 6 false; mkTok 30 "0" 4 4 false; mkTok 13 "]" 5 0 false; mkTok 42 "len" 5 2 false; mkTok 40 "," 5 6 false; mkTok 3 "}" 5 7 false; mkTok 0 "<EOF>" 5 11 false] (mkPacket (mkPtok 37 "MetaData" 1 0 0) (Some (mkPtok 3 "}" 5 7 9)) [(DMeta (mkMetaDef (mkSpan (mkPtok 37 "MetaData" 1 0 0) (mkPtok 3 "}" 5 7 9)) (mkPtok 37 "MetaData" 1 0 0) (mkPtok 42 "MetaDataX" 2 0 2) (mkPtok 2 "{" 3 4 3) [(MIDecl (mkMetaDecl (mkSpan (mkPtok 14 "zchar[" 3 6 4) (mkPtok 40 "," 5 6 8)) (TyFixed (mkSpan (mkPtok 14 "zchar[" 3 6 4) (mkPtok 13 "]" 5 0 6)) (mkFixedString (mkSpan (mkPtok 14 "zchar[" 3 6 4) (mkPtok 13 "]" 5 0 6)) (mkPtok 14 "zchar[" 3 6 4) (mkPtok 30 "0" 4 4 5) (mkPtok 13 "]" 5 0 6))) (mkPtok 42 "len" 5 2 7) None (mkPtok 40 "," 5 6 8)))] (mkPtok 3 "}" 5 7 9)))])).
-Eval vm_compute in ("<<<M1578>>>" ++ check (runes_of_ascii "root
-    packet options1 //x
+0123456789
+,0,
+    ""\n"" ,	""{,}"" , ""x y"",
+    ""CRC32"" ,
+00 ]
+:
+tag// " ++ [27880; 37322]%N ++ runes_of_ascii "
+[ 65535, 65535 , ""{,}"" ,
+""" ++ [28040; 24687]%N ++ runes_of_ascii """
+,//	t
+""CRC32"" ,
+""{,}"" ,
+    ""`tick`"" , ""x y"" ]
+    : x
+    ,""abc"": x , 42	: f32a ""a\""b"" :Logon }, @rightPad  ( '\x00' // `tick` ""quote"" 'q'
+) stringy
+asx , @tag(
+    007 )
+    u64 a1 `crlf
+line` , }
+packet/// triple
+A {@calculatedFrom( ""abc"" )@calculatedFrom(
+    """ ++ [128512]%N ++ runes_of_ascii """
+)repeat
+    char[ 42	]
+Packet
+    //
+    , zchar[ 42
+] i8i8@calculatedFrom(
+    ""{,}"" )  `100% of %d` ,// @lengthOf(
+string int @lengthOf( T
+) , }")).
+Eval vm_compute in ("<<<M618>>>" ++ check (runes_of_ascii "packet body {
+    @lengthOf( Pad
+    )
+@tag( 007)
+    @tag( 00
+    ) crc// 50% %s
+@lengthOf( falsey
+// @lengthOf(
+//	t
+) ,  @leftPad ( ' ' )  repeat	string repeatCount `u8 x,` ,@rightPad ( )@leftPad (' ')
+uint8x
+    u128 ,@calculatedFrom(
+// " ++ [27880; 37322]%N ++ runes_of_ascii "
+// 50% %s
+""\n""
+) packetx
+lengthOf , } packet  body
+{ @calculatedFrom( ""\" ++ [233]%N ++ runes_of_ascii """ )	metadata // `tick` ""quote"" 'q'
+asx
+    `100% of %d` , //
+match
+    chars as uint8x
+{""1""
+: //	t
+options1  ,	7: rootA ,""// no comment"" :float
+    }
+, char[  4294967296 // " ++ [128512]%N ++ runes_of_ascii " emoji
+] o
+,}")).
+Eval vm_compute in ("<<<M650>>>" ++ check (runes_of_ascii "root //x
+packet  u{
+    /// triple
+    chars
+// trailing space 
+//x
+u128
+,
+}
+
+")).
+Eval vm_compute in ("<<<T650>>>" ++ terms [mkTok 34 "root" 1 0 false; mkTok 44 "//x" 1 5 true; mkTok 35 "packet" 2 0 false; mkTok 42 "u" 2 8 false; mkTok 2 "{" 2 9 false; mkTok 44 "/// triple" 3 4 true; mkTok 42 "chars" 4 4 false; mkTok 44 "// trailing space " 5 0 true; mkTok 44 "//x" 6 0 true; mkTok 42 "u128" 7 0 false; mkTok 40 "," 8 0 false; mkTok 3 "}" 9 0 false; mkTok 0 "<EOF>" 11 0 false] (mkPacket (mkPtok 34 "root" 1 0 0) (Some (mkPtok 3 "}" 9 0 11)) [(DPacket (mkPacketDef (mkSpan (mkPtok 34 "root" 1 0 0) (mkPtok 3 "}" 9 0 11)) (Some (mkPtok 34 "root" 1 0 0)) (mkPtok 35 "packet" 2 0 2) (mkPtok 42 "u" 2 8 3) (mkPtok 2 "{" 2 9 4) [(mkFieldWithAttr (mkSpan (mkPtok 42 "chars" 4 4 6) (mkPtok 40 "," 8 0 10)) [] (ObjectField (mkSpan (mkPtok 42 "chars" 4 4 6) (mkPtok 40 "," 8 0 10)) None (mkPtok 42 "chars" 4 4 6) (Some (mkPtok 42 "u128" 7 0 9)) None (mkPtok 40 "," 8 0 10)))] (mkPtok 3 "}" 9 0 11)))])).
+Eval vm_compute in ("<<<M682>>>" ++ check (runes_of_ascii "root packet
+    _x {  zchar[ 10 ] A `tab	here`
+    // `tick` ""quote"" 'q'
+    , }
+")).
+Eval vm_compute in ("<<<M714>>>" ++ check (runes_of_ascii "packet
+float // a // b
+{ repeat string_
 {
-f32 chars , }MetaData charz {
-char[
-/// triple
-//
-0123456789 ] options1 // trailing space 
+f64 trueish,  u8
+    /// triple
+    body `// not a comment` //
+,
+// a // b
+// @lengthOf(
+int64
+    //x
+    packetx@lengthOf(  zchar ), }
+, @calculatedFrom( ""`tick`"")
+repeat  zchar[ 007]u8x// trailing space 
+`line1
+line2` ,
+// " ++ [27880; 37322]%N ++ runes_of_ascii "
+// c
+repeat chars`say ""hi""`
+,// trailing space 
+} MetaData
+asx {//	t
+a1
+    chars
+// trailing space 
+// c
+`it's`
+, i64 // " ++ [128512]%N ++ runes_of_ascii " emoji
+int
 ,
 }")).
-Eval vm_compute in ("<<<M1610>>>" ++ check (runes_of_ascii "// " ++ [128512]%N ++ runes_of_ascii " emoji
-MetaData//x
-Z9_ { char[] Pad `two words` ,} MetaData pack	{ body charz, }
-options {
-} root  packet T
-    {
-/// triple
-//
-@rightPad ( '\x00' ) string
-    // `tick` ""quote"" 'q'
-    roots , uint8 T@calculatedFrom( ""\" ++ [233]%N ++ runes_of_ascii """ )
-`a\` , @tag(
-0123456789 )
-    char[
-//
-/// triple
-00 ] //x
-Foo @lengthOf( _x
-    ) `tab	here`	, u16 Pad
-@calculatedFrom( ""packet""	)
+Eval vm_compute in ("<<<M746>>>" ++ check (runes_of_ascii "root packet
+    pack {}  packet Z9_	{
+u64 BodyLength ,
+    @calculatedFrom( ""// no comment""
+)@lengthOf(	tag  ) packetx `
+` ,// `tick` ""quote"" 'q'
+charz
+, @tag( 255 ) lengthOf { repeat calculatedFrom
+{
+// c
+// 50% %s
+char[]stringy `
+`, }
+,	repeat
+len `" ++ [233]%N ++ runes_of_ascii "` , string falsey `a\`,	repeat string
+x `tab	here`  ,
+    }, char[]roots ,char metadata
+, @leftPad(
+'\x00' ) @lengthOf(As ) Packet//
+@lengthOf(
+BodyLength )`" ++ [28040; 24687; 31867; 22411]%N ++ runes_of_ascii "`
+,	repeat lengthOf{
+// c
+//	t
+repeat
+MetaDataX u128`
+`
+    , repeat string  calculatedFrom , char len ,  float32 _x,}
+,match trueish as pack{ [ """"
 ,
-    float64 body,Header T ,
-trueish@lengthOf( crc  ) //
+""CRC32""
+, 3 , 00 ,
+    1 , 65535,
+""a\""b"" // c
+] : charz	,
+    }, }
+packet tag // a // b
+{ zchar[ 4294967296 ]
+    uint8x ,
+@tag(
+4294967296)
+    char[ // " ++ [128512]%N ++ runes_of_ascii " emoji
+0 ]  Pad `{ , }` ,// a // b
+repeatCount falsey
+    ,repeat uint64 _x , @calculatedFrom( ""// no comment"" ) repeat calculatedFrom ,
+repeat metadata
+    { repeat char trueish
+`{ , }` ,
+}  ,repeat
+charz
+roots
+, @tag( 00 )
+    //	t
+    u16 x `{ , }` ,
+// c
+//x
+@tag( 3 )
+@lengthOf(
+    metadata ) // packet A { u8 x, }
+@tag( 0123456789)
+repeat
+    u64 roots
+, //x
+repeat
+char[] MetaDataX ,
+// `tick` ""quote"" 'q'
+// packet A { u8 x, }
+}
+")).
+Eval vm_compute in ("<<<M778>>>" ++ check (runes_of_ascii "MetaData float {  i64_
+    roots , char[ 007
+    ]
+int, /// triple
+msg_type
+    rootA
+// " ++ [27880; 37322]%N ++ runes_of_ascii "
+/// triple
 ,
-char[ 0123456789] x_y_z
-,//	t
-string x_y_z//	t
-@calculatedFrom(  ""\" ++ [233]%N ++ runes_of_ascii """	)// c
-, char[] // " ++ [27880; 37322]%N ++ runes_of_ascii "
-As ,}
+    char[	255 ]x_y_z
+`crlf
+line` ,
+uint8x	body, }	options { // " ++ [128512]%N ++ runes_of_ascii " emoji
+msg_type =false} packet
+string_	{o Pad ,zchar[0123456789 ] zchar
+    @calculatedFrom( ""CRC32"" ) , uint8  matchKey , }options { //
+T= f32 ;options1 // packet A { u8 x, }
+= """" ; matchKey = """ ++ [233]%N ++ runes_of_ascii "t" ++ [233]%N ++ runes_of_ascii """
+;
+    x// packet A { u8 x, }
+= ""x y"" packetx =
+    // 50% %s
+    ""x y""
+//
+// a // b
+}
+")).
+Eval vm_compute in ("<<<M810>>>" ++ check (runes_of_ascii "root
+packet asx {  packetx u128 `a\`
+//x
+// " ++ [128512]%N ++ runes_of_ascii " emoji
+,repeat
+    //	t
+    i32 x , }	options { pack  =
+    true As = """ ++ [128512]%N ++ runes_of_ascii """
+    ;  }
 // a // b
 ")).
-Eval vm_compute in ("<<<M1642>>>" ++ check (runes_of_ascii "packet i64_{@calculatedFrom(
-""" ++ [28040; 24687]%N ++ runes_of_ascii """
-    )string crc @lengthOf(
-u8x  )
-,
-    } root packet
-    stringy {	@lengthOf(Foo
-)//	t
-asx , repeat Z9_  ,string
-chars ,
-// `tick` ""quote"" 'q'
-// c
-char[007 ] falsey // " ++ [27880; 37322]%N ++ runes_of_ascii "
-, // a // b
-repeat
-    f32 i64_ `doc` , repeat trueish
-{ uint8x {repeat Logon
-,
-    } ,	}
-, } MetaData chars
-    { calculatedFrom A `a\` ,}
+Eval vm_compute in ("<<<M842>>>" ++ check (runes_of_ascii "packet
+Packet { char[]
+    len ,}
 ")).
-Eval vm_compute in ("<<<M1674>>>" ++ check (runes_of_ascii "MetaData trueish	{u8
-Header , char[] body ,} root
-packet rootA
-    {@tag(255 )
-    zchar[ 0123456789 ]
-u8x , } root packet roots
-{ match matchKey as  stringy {	255 : //x
-packetx,""a\""b"" :
-    f32a ,  1
-:  trueish , 7 :u128 ,3 : Z9_
-    , ""CRC32""
-:leftPad	, }
-,repeat f32a string_// packet A { u8 x, }
-`" ++ [28040; 24687; 31867; 22411]%N ++ runes_of_ascii "` , @lengthOf( packetx ) string o
-    // " ++ [128512]%N ++ runes_of_ascii " emoji
-    , }
-")).
-Eval vm_compute in ("<<<M1706>>>" ++ check (runes_of_ascii "packet
-falsey{ char[]
-    // trailing space 
-    f32a, @calculatedFrom(
-""{,}"" )repeat
-    //	t
-    uint32 u8x	,
-o @lengthOf(
-repeatCount
-) , zchar[ 65535 ]
-// trailing space 
-//x
-uint8x @calculatedFrom( ""a\""b"") `two words`,char MetaDataX  @calculatedFrom( ""it's""
-    ), }")).
-Eval vm_compute in ("<<<M1738>>>" ++ check (runes_of_ascii "MetaData BodyLength{
-roots
-    trueish, string string_ ,
-metadata
-BodyLength , i8// packet A { u8 x, }
-i8i8 , char[ 7 //
-] Pad	, }
-")).
-Eval vm_compute in ("<<<M1770>>>" ++ check (runes_of_ascii "
-")).
-Eval vm_compute in ("<<<T1770>>>" ++ terms [mkTok 0 "<EOF>" 2 0 false] (mkPacket (mkPtok 0 "<EOF>" 2 0 0) None [])).
-Eval vm_compute in ("<<<M1802>>>" ++ check (runes_of_ascii "
-MetaData Foo { int32 a1 ,
-i16 options1 `{ , }`
-    , i64_ packetx
-`" ++ [233]%N ++ runes_of_ascii "` ,	int64 Foo `tab	here`
-,
-// " ++ [27880; 37322]%N ++ runes_of_ascii "
-// " ++ [27880; 37322]%N ++ runes_of_ascii "
-repeatCount metadata ,
-    u
-    //
-    MetaDataX
-    ,
-    }
-/// triple
-")).
-Eval vm_compute in ("<<<M1834>>>" ++ check (runes_of_ascii "// c
-root packet
-msg_type {
-@lengthOf( stringy ) o{repeat leftPad ,
-    // packet A { u8 x, }
-    f32a
-    {
-zchar[  10
-] roots @calculatedFrom( """ ++ [233]%N ++ runes_of_ascii "t" ++ [233]%N ++ runes_of_ascii """ // `tick` ""quote"" 'q'
-)	,},
-}
-    // " ++ [27880; 37322]%N ++ runes_of_ascii "
-    ,@tag( 4294967296
-)// `tick` ""quote"" 'q'
-@lengthOf( calculatedFrom ) match
-a1
-as Pad { [  """" , 255 , ""`tick`""
-, ""`tick`"" ,  007 ]
-: f32a , } , repeat
-//	t
-//
-string packetx
-`say ""hi""`
-, @tag( 1 ) u32 leftPad`line1
-line2`
-// " ++ [27880; 37322]%N ++ runes_of_ascii "
-// @lengthOf(
-,
-// trailing space 
-// trailing space 
-@lengthOf(  len )
-repeat char[ 0123456789 ] Packet , } MetaData	calculatedFrom  {	u64
-    Foo
-    ,
-    int metadata `say ""hi""`
-    , pack stringy ,  } root packet
-i8i8
-    {matchKey { repeat T
-{repeat char[]options1
-``
-    , int64 As@lengthOf(
-zchar), // " ++ [128512]%N ++ runes_of_ascii " emoji
-string chars
-    // " ++ [27880; 37322]%N ++ runes_of_ascii "
-    ,	zchar[ 7]
-//
-// c
-u
-@calculatedFrom(
-""\" ++ [233]%N ++ runes_of_ascii """), } ,
-    // @lengthOf(
-    }	,} root
-    packet leftPad{ @lengthOf(
-u128 ) float64 Logon	, } root packet u{ string	Foo
-    , @leftPad (
-'0' )
-@rightPad ( )  uint16 u128
-, @tag(
-255 )	@rightPad
-    ( ) match
-    Z9_ as o { // `tick` ""quote"" 'q'
-0123456789:
-    uint8x
-,
-[ ""packet"", ""`tick`""
-    /// triple
-    , ""`tick`""
-    , // trailing space 
-255 ,""a\""b"" ,  ""x y"" ,00
-, 10 // a // b
-] :
-T , } ,
-@tag( 1
-)repeat
-    char[] f32a , //x
-@leftPad
-    (' ') match
-u as
-uint8x
-    {7 : i8i8, }, repeat zchar[ 00
-]falsey
-`" ++ [233]%N ++ runes_of_ascii "`, }
-")).
-Eval vm_compute in ("<<<M1866>>>" ++ check (runes_of_ascii "/// triple
-root packet f32a {
-// trailing space 
-// packet A { u8 x, }
-@rightPad
-    ( '\x00'
+Eval vm_compute in ("<<<M874>>>" ++ check (runes_of_ascii "
+options { BodyLength
+    =7 ; len=string As =char[ 7 ] ;
+    } options // c
+{	} root packet zchar {
+    @rightPad( ' '
 )
+    char[]zchar @calculatedFrom(
+""a\\""
+), zchar[/// triple
+7
+] i64_ , @lengthOf(  u8x )
+    /// triple
+    @lengthOf( i8i8)
+body @lengthOf( body ) , roots{ match string_ as Z9_{""" ++ [128512]%N ++ runes_of_ascii """	: body  ,10 /// triple
+:matchKey , 0123456789 :packetx
+,[""packet"" ,  ""abc"" , ""CRC32"" ,  0 ,
+1 , 0123456789 ] :Header, 65535
+    //
+    :
+    lengthOf , }	, }
+    ,
+@calculatedFrom( """")match
+float  as calculatedFrom
+    {// 50% %s
+""" ++ [128512]%N ++ runes_of_ascii """ :	Logon [ 3 , 65535	] :options1 , ""a\\""	:
+    Foo } ,Logon//
+,match o as calculatedFrom//
+{
+3 : uint8x }
+, rootA repeatCount ,// c
+options1  { f32
+    // `tick` ""quote"" 'q'
+    crc	,
+    char[]MetaDataX , repeat
+    // packet A { u8 x, }
+    zchar[ 3 ] Header`line1
+line2` , body {
+    repeat Packet ,
+Header
+{char[] float @calculatedFrom( ""\" ++ [233]%N ++ runes_of_ascii """) `" ++ [233]%N ++ runes_of_ascii "`	,
+match zchar as matchKey { [	""CRC32""
+    ]: Foo ,
+    // @lengthOf(
+    """ ++ [233]%N ++ runes_of_ascii "t" ++ [233]%N ++ runes_of_ascii """ :	BodyLength , 0123456789 :crc ,""it's""
+: stringy ,
+    ""a\\"" :
+    asx
+,
+} , u64 leftPad  @calculatedFrom(""`tick`"" ),
+// 50% %s
+// c
+packetx , } ,
+f64 crc , zchar[	65535]zchar
+, } , // a // b
+},
+    @calculatedFrom( // `tick` ""quote"" 'q'
+""// no comment"" ) u64 i8i8
+, }
+    // " ++ [27880; 37322]%N ++ runes_of_ascii "
+    MetaData
+    u128
+    // c
+    {
+} 	 ")).
+Eval vm_compute in ("<<<T874>>>" ++ terms [mkTok 1 "options" 2 0 false; mkTok 2 "{" 2 8 false; mkTok 42 "BodyLength" 2 10 false; mkTok 4 "=" 3 4 false; mkTok 30 "7" 3 5 false; mkTok 41 ";" 3 7 false; mkTok 42 "len" 3 9 false; mkTok 4 "=" 3 12 false; mkTok 15 "string" 3 13 false; mkTok 42 "As" 3 20 false; mkTok 4 "=" 3 23 false; mkTok 12 "char[" 3 24 false; mkTok 30 "7" 3 30 false; mkTok 13 "]" 3 32 false; mkTok 41 ";" 3 34 false; mkTok 3 "}" 4 4 false; mkTok 1 "options" 4 6 false; mkTok 44 "// c" 4 14 true; mkTok 2 "{" 5 0 false; mkTok 3 "}" 5 2 false; mkTok 34 "root" 5 4 false; mkTok 35 "packet" 5 9 false; mkTok 42 "zchar" 5 16 false; mkTok 2 "{" 5 22 false; mkTok 32 "@rightPad" 6 4 false; mkTok 8 "(" 6 13 false; mkTok 33 "' '" 6 15 false; mkTok 6 ")" 7 0 false; mkTok 16 "char[]" 8 4 false; mkTok 42 "zchar" 8 10 false; mkTok 5 "@calculatedFrom(" 8 16 false; mkTok 31 """a\\""" 9 0 false; mkTok 6 ")" 10 0 false; mkTok 40 "," 10 1 false; mkTok 14 "zchar[" 10 3 false; mkTok 44 "/// triple" 10 9 true; mkTok 30 "7" 11 0 false; mkTok 13 "]" 12 0 false; mkTok 42 "i64_" 12 2 false; mkTok 40 "," 12 7 false; mkTok 7 "@lengthOf(" 12 9 false; mkTok 42 "u8x" 12 21 false; mkTok 6 ")" 12 25 false; mkTok 44 "/// triple" 13 4 true; mkTok 7 "@lengthOf(" 14 4 false; mkTok 42 "i8i8" 14 15 false; mkTok 6 ")" 14 19 false; mkTok 42 "body" 15 0 false; mkTok 7 "@lengthOf(" 15 5 false; mkTok 42 "body" 15 16 false; mkTok 6 ")" 15 21 false; mkTok 40 "," 15 23 false; mkTok 42 "roots" 15 25 false; mkTok 2 "{" 15 30 false; mkTok 38 "match" 15 32 false; mkTok 42 "string_" 15 38 false; mkTok 17 "as" 15 46 false; mkTok 42 "Z9_" 15 49 false; mkTok 2 "{" 15 52 false; mkTok 31 (string_of_bytes [34; 240; 159; 152; 128; 34]%N) 15 53 false; mkTok 39 ":" 15 57 false; mkTok 42 "body" 15 59 false; mkTok 40 "," 15 65 false; mkTok 30 "10" 15 66 false; mkTok 44 "/// triple" 15 69 true; mkTok 39 ":" 16 0 false; mkTok 42 "matchKey" 16 1 false; mkTok 40 "," 16 10 false; mkTok 30 "0123456789" 16 12 false; mkTok 39 ":" 16 23 false; mkTok 42 "packetx" 16 24 false; mkTok 40 "," 17 0 false; mkTok 18 "[" 17 1 false; mkTok 31 """packet""" 17 2 false; mkTok 40 "," 17 11 false; mkTok 31 """abc""" 17 14 false; mkTok 40 "," 17 20 false; mkTok 31 """CRC32""" 17 22 false; mkTok 40 "," 17 30 false; mkTok 30 "0" 17 33 false; mkTok 40 "," 17 35 false; mkTok 30 "1" 18 0 false; mkTok 40 "," 18 2 false; mkTok 30 "0123456789" 18 4 false; mkTok 13 "]" 18 15 false; mkTok 39 ":" 18 17 false; mkTok 42 "Header" 18 18 false; mkTok 40 "," 18 24 false; mkTok 30 "65535" 18 26 false; mkTok 44 "//" 19 4 true; mkTok 39 ":" 20 4 false; mkTok 42 "lengthOf" 21 4 false; mkTok 40 "," 21 13 false; mkTok 3 "}" 21 15 false; mkTok 40 "," 21 17 false; mkTok 3 "}" 21 19 false; mkTok 40 "," 22 4 false; mkTok 5 "@calculatedFrom(" 23 0 false; mkTok 31 """""" 23 17 false; mkTok 6 ")" 23 19 false; mkTok 38 "match" 23 20 false; mkTok 42 "float" 24 0 false; mkTok 17 "as" 24 7 false; mkTok 42 "calculatedFrom" 24 10 false; mkTok 2 "{" 25 4 false; mkTok 44 "// 50% %s" 25 5 true; mkTok 31 (string_of_bytes [34; 240; 159; 152; 128; 34]%N) 26 0 false; mkTok 39 ":" 26 4 false; mkTok 42 "Logon" 26 6 false; mkTok 18 "[" 26 12 false; mkTok 30 "3" 26 14 false; mkTok 40 "," 26 16 false; mkTok 30 "65535" 26 18 false; mkTok 13 "]" 26 24 false; mkTok 39 ":" 26 26 false; mkTok 42 "options1" 26 27 false; mkTok 40 "," 26 36 false; mkTok 31 """a\\""" 26 38 false; mkTok 39 ":" 26 44 false; mkTok 42 "Foo" 27 4 false; mkTok 3 "}" 27 8 false; mkTok 40 "," 27 10 false; mkTok 42 "Logon" 27 11 false; mkTok 44 "//" 27 16 true; mkTok 40 "," 28 0 false; mkTok 38 "match" 28 1 false; mkTok 42 "o" 28 7 false; mkTok 17 "as" 28 9 false; mkTok 42 "calculatedFrom" 28 12 false; mkTok 44 "//" 28 26 true; mkTok 2 "{" 29 0 false; mkTok 30 "3" 30 0 false; mkTok 39 ":" 30 2 false; mkTok 42 "uint8x" 30 4 false; mkTok 3 "}" 30 11 false; mkTok 40 "," 31 0 false; mkTok 42 "rootA" 31 2 false; mkTok 42 "repeatCount" 31 8 false; mkTok 40 "," 31 20 false; mkTok 44 "// c" 31 21 true; mkTok 42 "options1" 32 0 false; mkTok 2 "{" 32 10 false; mkTok 28 "f32" 32 12 false; mkTok 44 "// `tick` ""quote"" 'q'" 33 4 true; mkTok 42 "crc" 34 4 false; mkTok 40 "," 34 8 false; mkTok 16 "char[]" 35 4 false; mkTok 42 "MetaDataX" 35 10 false; mkTok 40 "," 35 20 false; mkTok 36 "repeat" 35 22 false; mkTok 44 "// packet A { u8 x, }" 36 4 true; mkTok 14 "zchar[" 37 4 false; mkTok 30 "3" 37 11 false; mkTok 13 "]" 37 13 false; mkTok 42 "Header" 37 15 false; mkTok 43 (string_of_bytes [96; 108; 105; 110; 101; 49; 10; 108; 105; 110; 101; 50; 96]%N) 37 21 false; mkTok 40 "," 38 7 false; mkTok 42 "body" 38 9 false; mkTok 2 "{" 38 14 false; mkTok 36 "repeat" 39 4 false; mkTok 42 "Packet" 39 11 false; mkTok 40 "," 39 18 false; mkTok 42 "Header" 40 0 false; mkTok 2 "{" 41 0 false; mkTok 16 "char[]" 41 1 false; mkTok 42 "float" 41 8 false; mkTok 5 "@calculatedFrom(" 41 14 false; mkTok 31 (string_of_bytes [34; 92; 195; 169; 34]%N) 41 31 false; mkTok 6 ")" 41 35 false; mkTok 43 (string_of_bytes [96; 195; 169; 96]%N) 41 37 false; mkTok 40 "," 41 41 false; mkTok 38 "match" 42 0 false; mkTok 42 "zchar" 42 6 false; mkTok 17 "as" 42 12 false; mkTok 42 "matchKey" 42 15 false; mkTok 2 "{" 42 24 false; mkTok 18 "[" 42 26 false; mkTok 31 """CRC32""" 42 28 false; mkTok 13 "]" 43 4 false; mkTok 39 ":" 43 5 false; mkTok 42 "Foo" 43 7 false; mkTok 40 "," 43 11 false; mkTok 44 "// @lengthOf(" 44 4 true; mkTok 31 (string_of_bytes [34; 195; 169; 116; 195; 169; 34]%N) 45 4 false; mkTok 39 ":" 45 10 false; mkTok 42 "BodyLength" 45 12 false; mkTok 40 "," 45 23 false; mkTok 30 "0123456789" 45 25 false; mkTok 39 ":" 45 36 false; mkTok 42 "crc" 45 37 false; mkTok 40 "," 45 41 false; mkTok 31 """it's""" 45 42 false; mkTok 39 ":" 46 0 false; mkTok 42 "stringy" 46 2 false; mkTok 40 "," 46 10 false; mkTok 31 """a\\""" 47 4 false; mkTok 39 ":" 47 10 false; mkTok 42 "asx" 48 4 false; mkTok 40 "," 49 0 false; mkTok 3 "}" 50 0 false; mkTok 40 "," 50 2 false; mkTok 23 "u64" 50 4 false; mkTok 42 "leftPad" 50 8 false; mkTok 5 "@calculatedFrom(" 50 17 false; mkTok 31 """`tick`""" 50 33 false; mkTok 6 ")" 50 42 false; mkTok 40 "," 50 43 false; mkTok 44 "// 50% %s" 51 0 true; mkTok 44 "// c" 52 0 true; mkTok 42 "packetx" 53 0 false; mkTok 40 "," 53 8 false; mkTok 3 "}" 53 10 false; mkTok 40 "," 53 12 false; mkTok 29 "f64" 54 0 false; mkTok 42 "crc" 54 4 false; mkTok 40 "," 54 8 false; mkTok 14 "zchar[" 54 10 false; mkTok 30 "65535" 54 17 false; mkTok 13 "]" 54 22 false; mkTok 42 "zchar" 54 23 false; mkTok 40 "," 55 0 false; mkTok 3 "}" 55 2 false; mkTok 40 "," 55 4 false; mkTok 44 "// a // b" 55 6 true; mkTok 3 "}" 56 0 false; mkTok 40 "," 56 1 false; mkTok 5 "@calculatedFrom(" 57 4 false; mkTok 44 "// `tick` ""quote"" 'q'" 57 21 true; mkTok 31 """// no comment""" 58 0 false; mkTok 6 ")" 58 16 false; mkTok 23 "u64" 58 18 false; mkTok 42 "i8i8" 58 22 false; mkTok 40 "," 59 0 false; mkTok 3 "}" 59 2 false; mkTok 44 (string_of_bytes [47; 47; 32; 230; 179; 168; 233; 135; 138]%N) 60 4 true; mkTok 37 "MetaData" 61 4 false; mkTok 42 "u128" 62 4 false; mkTok 44 "// c" 63 4 true; mkTok 2 "{" 64 4 false; mkTok 3 "}" 65 0 false; mkTok 0 "<EOF>" 65 4 false] (mkPacket (mkPtok 1 "options" 2 0 0) (Some (mkPtok 3 "}" 65 0 239)) [(DOption (mkOptionDef (mkSpan (mkPtok 1 "options" 2 0 0) (mkPtok 3 "}" 4 4 15)) (mkPtok 1 "options" 2 0 0) (mkPtok 2 "{" 2 8 1) [(mkOptionDecl (mkSpan (mkPtok 42 "BodyLength" 2 10 2) (mkPtok 41 ";" 3 7 5)) (mkPtok 42 "BodyLength" 2 10 2) (mkPtok 4 "=" 3 4 3) (VDigits (mkSpan (mkPtok 30 "7" 3 5 4) (mkPtok 30 "7" 3 5 4)) (mkPtok 30 "7" 3 5 4)) (Some (mkPtok 41 ";" 3 7 5))); (mkOptionDecl (mkSpan (mkPtok 42 "len" 3 9 6) (mkPtok 15 "string" 3 13 8)) (mkPtok 42 "len" 3 9 6) (mkPtok 4 "=" 3 12 7) (VType (mkSpan (mkPtok 15 "string" 3 13 8) (mkPtok 15 "string" 3 13 8)) (TyDynamic (mkSpan (mkPtok 15 "string" 3 13 8) (mkPtok 15 "string" 3 13 8)) (mkDynamicString (mkSpan (mkPtok 15 "string" 3 13 8) (mkPtok 15 "string" 3 13 8)) (mkPtok 15 "string" 3 13 8)))) None); (mkOptionDecl (mkSpan (mkPtok 42 "As" 3 20 9) (mkPtok 41 ";" 3 34 14)) (mkPtok 42 "As" 3 20 9) (mkPtok 4 "=" 3 23 10) (VType (mkSpan (mkPtok 12 "char[" 3 24 11) (mkPtok 13 "]" 3 32 13)) (TyFixed (mkSpan (mkPtok 12 "char[" 3 24 11) (mkPtok 13 "]" 3 32 13)) (mkFixedString (mkSpan (mkPtok 12 "char[" 3 24 11) (mkPtok 13 "]" 3 32 13)) (mkPtok 12 "char[" 3 24 11) (mkPtok 30 "7" 3 30 12) (mkPtok 13 "]" 3 32 13)))) (Some (mkPtok 41 ";" 3 34 14)))] (mkPtok 3 "}" 4 4 15))); (DOption (mkOptionDef (mkSpan (mkPtok 1 "options" 4 6 16) (mkPtok 3 "}" 5 2 19)) (mkPtok 1 "options" 4 6 16) (mkPtok 2 "{" 5 0 18) [] (mkPtok 3 "}" 5 2 19))); (DPacket (mkPacketDef (mkSpan (mkPtok 34 "root" 5 4 20) (mkPtok 3 "}" 59 2 233)) (Some (mkPtok 34 "root" 5 4 20)) (mkPtok 35 "packet" 5 9 21) (mkPtok 42 "zchar" 5 16 22) (mkPtok 2 "{" 5 22 23) [(mkFieldWithAttr (mkSpan (mkPtok 32 "@rightPad" 6 4 24) (mkPtok 40 "," 10 1 33)) [(FAPadding (mkSpan (mkPtok 32 "@rightPad" 6 4 24) (mkPtok 6 ")" 7 0 27)) (mkPaddingAttr (mkSpan (mkPtok 32 "@rightPad" 6 4 24) (mkPtok 6 ")" 7 0 27)) (mkPtok 32 "@rightPad" 6 4 24) (mkPtok 8 "(" 6 13 25) (Some (mkPtok 33 "' '" 6 15 26)) (mkPtok 6 ")" 7 0 27)))] (CheckSumField (mkSpan (mkPtok 16 "char[]" 8 4 28) (mkPtok 40 "," 10 1 33)) (mkChecksumFieldDecl (mkSpan (mkPtok 16 "char[]" 8 4 28) (mkPtok 40 "," 10 1 33)) (Some (TyDynamic (mkSpan (mkPtok 16 "char[]" 8 4 28) (mkPtok 16 "char[]" 8 4 28)) (mkDynamicString (mkSpan (mkPtok 16 "char[]" 8 4 28) (mkPtok 16 "char[]" 8 4 28)) (mkPtok 16 "char[]" 8 4 28)))) (mkPtok 42 "zchar" 8 10 29) (mkCalculatedFrom (mkSpan (mkPtok 5 "@calculatedFrom(" 8 16 30) (mkPtok 6 ")" 10 0 32)) (mkPtok 5 "@calculatedFrom(" 8 16 30) (mkPtok 31 """a\\""" 9 0 31) (mkPtok 6 ")" 10 0 32)) None (mkPtok 40 "," 10 1 33)))); (mkFieldWithAttr (mkSpan (mkPtok 14 "zchar[" 10 3 34) (mkPtok 40 "," 12 7 39)) [] (MetaField (mkSpan (mkPtok 14 "zchar[" 10 3 34) (mkPtok 40 "," 12 7 39)) None (mkMetaDecl (mkSpan (mkPtok 14 "zchar[" 10 3 34) (mkPtok 40 "," 12 7 39)) (TyFixed (mkSpan (mkPtok 14 "zchar[" 10 3 34) (mkPtok 13 "]" 12 0 37)) (mkFixedString (mkSpan (mkPtok 14 "zchar[" 10 3 34) (mkPtok 13 "]" 12 0 37)) (mkPtok 14 "zchar[" 10 3 34) (mkPtok 30 "7" 11 0 36) (mkPtok 13 "]" 12 0 37))) (mkPtok 42 "i64_" 12 2 38) None (mkPtok 40 "," 12 7 39)))); (mkFieldWithAttr (mkSpan (mkPtok 7 "@lengthOf(" 12 9 40) (mkPtok 40 "," 15 23 51)) [(FALengthOf (mkSpan (mkPtok 7 "@lengthOf(" 12 9 40) (mkPtok 6 ")" 12 25 42)) (mkLengthOf (mkSpan (mkPtok 7 "@lengthOf(" 12 9 40) (mkPtok 6 ")" 12 25 42)) (mkPtok 7 "@lengthOf(" 12 9 40) (mkPtok 42 "u8x" 12 21 41) (mkPtok 6 ")" 12 25 42))); (FALengthOf (mkSpan (mkPtok 7 "@lengthOf(" 14 4 44) (mkPtok 6 ")" 14 19 46)) (mkLengthOf (mkSpan (mkPtok 7 "@lengthOf(" 14 4 44) (mkPtok 6 ")" 14 19 46)) (mkPtok 7 "@lengthOf(" 14 4 44) (mkPtok 42 "i8i8" 14 15 45) (mkPtok 6 ")" 14 19 46)))] (LengthField (mkSpan (mkPtok 42 "body" 15 0 47) (mkPtok 40 "," 15 23 51)) (mkLengthFieldDecl (mkSpan (mkPtok 42 "body" 15 0 47) (mkPtok 40 "," 15 23 51)) None (mkPtok 42 "body" 15 0 47) (mkLengthOf (mkSpan (mkPtok 7 "@lengthOf(" 15 5 48) (mkPtok 6 ")" 15 21 50)) (mkPtok 7 "@lengthOf(" 15 5 48) (mkPtok 42 "body" 15 16 49) (mkPtok 6 ")" 15 21 50)) None (mkPtok 40 "," 15 23 51)))); (mkFieldWithAttr (mkSpan (mkPtok 42 "roots" 15 25 52) (mkPtok 40 "," 22 4 96)) [] (InerObjectField (mkSpan (mkPtok 42 "roots" 15 25 52) (mkPtok 40 "," 22 4 96)) None (InerObjectDecl (mkSpan (mkPtok 42 "roots" 15 25 52) (mkPtok 3 "}" 21 19 95)) (mkPtok 42 "roots" 15 25 52) (mkPtok 2 "{" 15 30 53) [(MatchField (mkSpan (mkPtok 38 "match" 15 32 54) (mkPtok 40 "," 21 17 94)) (mkMatchFieldDecl (mkSpan (mkPtok 38 "match" 15 32 54) (mkPtok 3 "}" 21 15 93)) (mkPtok 38 "match" 15 32 54) (mkPtok 42 "string_" 15 38 55) (mkPtok 17 "as" 15 46 56) (mkPtok 42 "Z9_" 15 49 57) (mkPtok 2 "{" 15 52 58) [(mkMatchPair (mkSpan (mkPtok 31 (string_of_bytes [34; 240; 159; 152; 128; 34]%N) 15 53 59) (mkPtok 40 "," 15 65 62)) (MKString (mkPtok 31 (string_of_bytes [34; 240; 159; 152; 128; 34]%N) 15 53 59)) (mkPtok 39 ":" 15 57 60) (mkPtok 42 "body" 15 59 61) (Some (mkPtok 40 "," 15 65 62))); (mkMatchPair (mkSpan (mkPtok 30 "10" 15 66 63) (mkPtok 40 "," 16 10 67)) (MKDigits (mkPtok 30 "10" 15 66 63)) (mkPtok 39 ":" 16 0 65) (mkPtok 42 "matchKey" 16 1 66) (Some (mkPtok 40 "," 16 10 67))); (mkMatchPair (mkSpan (mkPtok 30 "0123456789" 16 12 68) (mkPtok 40 "," 17 0 71)) (MKDigits (mkPtok 30 "0123456789" 16 12 68)) (mkPtok 39 ":" 16 23 69) (mkPtok 42 "packetx" 16 24 70) (Some (mkPtok 40 "," 17 0 71))); (mkMatchPair (mkSpan (mkPtok 18 "[" 17 1 72) (mkPtok 40 "," 18 24 87)) (MKList (mkKeyList (mkSpan (mkPtok 18 "[" 17 1 72) (mkPtok 13 "]" 18 15 84)) (mkPtok 18 "[" 17 1 72) (mkPtok 31 """packet""" 17 2 73) [((mkPtok 40 "," 17 11 74), (mkPtok 31 """abc""" 17 14 75)); ((mkPtok 40 "," 17 20 76), (mkPtok 31 """CRC32""" 17 22 77)); ((mkPtok 40 "," 17 30 78), (mkPtok 30 "0" 17 33 79)); ((mkPtok 40 "," 17 35 80), (mkPtok 30 "1" 18 0 81)); ((mkPtok 40 "," 18 2 82), (mkPtok 30 "0123456789" 18 4 83))] (mkPtok 13 "]" 18 15 84))) (mkPtok 39 ":" 18 17 85) (mkPtok 42 "Header" 18 18 86) (Some (mkPtok 40 "," 18 24 87))); (mkMatchPair (mkSpan (mkPtok 30 "65535" 18 26 88) (mkPtok 40 "," 21 13 92)) (MKDigits (mkPtok 30 "65535" 18 26 88)) (mkPtok 39 ":" 20 4 90) (mkPtok 42 "lengthOf" 21 4 91) (Some (mkPtok 40 "," 21 13 92)))] (mkPtok 3 "}" 21 15 93)) (mkPtok 40 "," 21 17 94))] (mkPtok 3 "}" 21 19 95)) (mkPtok 40 "," 22 4 96))); (mkFieldWithAttr (mkSpan (mkPtok 5 "@calculatedFrom(" 23 0 97) (mkPtok 40 "," 27 10 121)) [(FACalculatedFrom (mkSpan (mkPtok 5 "@calculatedFrom(" 23 0 97) (mkPtok 6 ")" 23 19 99)) (mkCalculatedFrom (mkSpan (mkPtok 5 "@calculatedFrom(" 23 0 97) (mkPtok 6 ")" 23 19 99)) (mkPtok 5 "@calculatedFrom(" 23 0 97) (mkPtok 31 """""" 23 17 98) (mkPtok 6 ")" 23 19 99)))] (MatchField (mkSpan (mkPtok 38 "match" 23 20 100) (mkPtok 40 "," 27 10 121)) (mkMatchFieldDecl (mkSpan (mkPtok 38 "match" 23 20 100) (mkPtok 3 "}" 27 8 120)) (mkPtok 38 "match" 23 20 100) (mkPtok 42 "float" 24 0 101) (mkPtok 17 "as" 24 7 102) (mkPtok 42 "calculatedFrom" 24 10 103) (mkPtok 2 "{" 25 4 104) [(mkMatchPair (mkSpan (mkPtok 31 (string_of_bytes [34; 240; 159; 152; 128; 34]%N) 26 0 106) (mkPtok 42 "Logon" 26 6 108)) (MKString (mkPtok 31 (string_of_bytes [34; 240; 159; 152; 128; 34]%N) 26 0 106)) (mkPtok 39 ":" 26 4 107) (mkPtok 42 "Logon" 26 6 108) None); (mkMatchPair (mkSpan (mkPtok 18 "[" 26 12 109) (mkPtok 40 "," 26 36 116)) (MKList (mkKeyList (mkSpan (mkPtok 18 "[" 26 12 109) (mkPtok 13 "]" 26 24 113)) (mkPtok 18 "[" 26 12 109) (mkPtok 30 "3" 26 14 110) [((mkPtok 40 "," 26 16 111), (mkPtok 30 "65535" 26 18 112))] (mkPtok 13 "]" 26 24 113))) (mkPtok 39 ":" 26 26 114) (mkPtok 42 "options1" 26 27 115) (Some (mkPtok 40 "," 26 36 116))); (mkMatchPair (mkSpan (mkPtok 31 """a\\""" 26 38 117) (mkPtok 42 "Foo" 27 4 119)) (MKString (mkPtok 31 """a\\""" 26 38 117)) (mkPtok 39 ":" 26 44 118) (mkPtok 42 "Foo" 27 4 119) None)] (mkPtok 3 "}" 27 8 120)) (mkPtok 40 "," 27 10 121))); (mkFieldWithAttr (mkSpan (mkPtok 42 "Logon" 27 11 122) (mkPtok 40 "," 28 0 124)) [] (ObjectField (mkSpan (mkPtok 42 "Logon" 27 11 122) (mkPtok 40 "," 28 0 124)) None (mkPtok 42 "Logon" 27 11 122) None None (mkPtok 40 "," 28 0 124))); (mkFieldWithAttr (mkSpan (mkPtok 38 "match" 28 1 125) (mkPtok 40 "," 31 0 135)) [] (MatchField (mkSpan (mkPtok 38 "match" 28 1 125) (mkPtok 40 "," 31 0 135)) (mkMatchFieldDecl (mkSpan (mkPtok 38 "match" 28 1 125) (mkPtok 3 "}" 30 11 134)) (mkPtok 38 "match" 28 1 125) (mkPtok 42 "o" 28 7 126) (mkPtok 17 "as" 28 9 127) (mkPtok 42 "calculatedFrom" 28 12 128) (mkPtok 2 "{" 29 0 130) [(mkMatchPair (mkSpan (mkPtok 30 "3" 30 0 131) (mkPtok 42 "uint8x" 30 4 133)) (MKDigits (mkPtok 30 "3" 30 0 131)) (mkPtok 39 ":" 30 2 132) (mkPtok 42 "uint8x" 30 4 133) None)] (mkPtok 3 "}" 30 11 134)) (mkPtok 40 "," 31 0 135))); (mkFieldWithAttr (mkSpan (mkPtok 42 "rootA" 31 2 136) (mkPtok 40 "," 31 20 138)) [] (ObjectField (mkSpan (mkPtok 42 "rootA" 31 2 136) (mkPtok 40 "," 31 20 138)) None (mkPtok 42 "rootA" 31 2 136) (Some (mkPtok 42 "repeatCount" 31 8 137)) None (mkPtok 40 "," 31 20 138))); (mkFieldWithAttr (mkSpan (mkPtok 42 "options1" 32 0 140) (mkPtok 40 "," 56 1 225)) [] (InerObjectField (mkSpan (mkPtok 42 "options1" 32 0 140) (mkPtok 40 "," 56 1 225)) None (InerObjectDecl (mkSpan (mkPtok 42 "options1" 32 0 140) (mkPtok 3 "}" 56 0 224)) (mkPtok 42 "options1" 32 0 140) (mkPtok 2 "{" 32 10 141) [(MetaField (mkSpan (mkPtok 28 "f32" 32 12 142) (mkPtok 40 "," 34 8 145)) None (mkMetaDecl (mkSpan (mkPtok 28 "f32" 32 12 142) (mkPtok 40 "," 34 8 145)) (TyBasic (mkSpan (mkPtok 28 "f32" 32 12 142) (mkPtok 28 "f32" 32 12 142)) (mkBasicType (mkSpan (mkPtok 28 "f32" 32 12 142) (mkPtok 28 "f32" 32 12 142)) (mkPtok 28 "f32" 32 12 142))) (mkPtok 42 "crc" 34 4 144) None (mkPtok 40 "," 34 8 145))); (MetaField (mkSpan (mkPtok 16 "char[]" 35 4 146) (mkPtok 40 "," 35 20 148)) None (mkMetaDecl (mkSpan (mkPtok 16 "char[]" 35 4 146) (mkPtok 40 "," 35 20 148)) (TyDynamic (mkSpan (mkPtok 16 "char[]" 35 4 146) (mkPtok 16 "char[]" 35 4 146)) (mkDynamicString (mkSpan (mkPtok 16 "char[]" 35 4 146) (mkPtok 16 "char[]" 35 4 146)) (mkPtok 16 "char[]" 35 4 146))) (mkPtok 42 "MetaDataX" 35 10 147) None (mkPtok 40 "," 35 20 148))); (MetaField (mkSpan (mkPtok 36 "repeat" 35 22 149) (mkPtok 40 "," 38 7 156)) (Some (mkPtok 36 "repeat" 35 22 149)) (mkMetaDecl (mkSpan (mkPtok 14 "zchar[" 37 4 151) (mkPtok 40 "," 38 7 156)) (TyFixed (mkSpan (mkPtok 14 "zchar[" 37 4 151) (mkPtok 13 "]" 37 13 153)) (mkFixedString (mkSpan (mkPtok 14 "zchar[" 37 4 151) (mkPtok 13 "]" 37 13 153)) (mkPtok 14 "zchar[" 37 4 151) (mkPtok 30 "3" 37 11 152) (mkPtok 13 "]" 37 13 153))) (mkPtok 42 "Header" 37 15 154) (Some (mkPtok 43 (string_of_bytes [96; 108; 105; 110; 101; 49; 10; 108; 105; 110; 101; 50; 96]%N) 37 21 155)) (mkPtok 40 "," 38 7 156))); (InerObjectField (mkSpan (mkPtok 42 "body" 38 9 157) (mkPtok 40 "," 55 4 222)) None (InerObjectDecl (mkSpan (mkPtok 42 "body" 38 9 157) (mkPtok 3 "}" 55 2 221)) (mkPtok 42 "body" 38 9 157) (mkPtok 2 "{" 38 14 158) [(ObjectField (mkSpan (mkPtok 36 "repeat" 39 4 159) (mkPtok 40 "," 39 18 161)) (Some (mkPtok 36 "repeat" 39 4 159)) (mkPtok 42 "Packet" 39 11 160) None None (mkPtok 40 "," 39 18 161)); (InerObjectField (mkSpan (mkPtok 42 "Header" 40 0 162) (mkPtok 40 "," 53 12 212)) None (InerObjectDecl (mkSpan (mkPtok 42 "Header" 40 0 162) (mkPtok 3 "}" 53 10 211)) (mkPtok 42 "Header" 40 0 162) (mkPtok 2 "{" 41 0 163) [(CheckSumField (mkSpan (mkPtok 16 "char[]" 41 1 164) (mkPtok 40 "," 41 41 170)) (mkChecksumFieldDecl (mkSpan (mkPtok 16 "char[]" 41 1 164) (mkPtok 40 "," 41 41 170)) (Some (TyDynamic (mkSpan (mkPtok 16 "char[]" 41 1 164) (mkPtok 16 "char[]" 41 1 164)) (mkDynamicString (mkSpan (mkPtok 16 "char[]" 41 1 164) (mkPtok 16 "char[]" 41 1 164)) (mkPtok 16 "char[]" 41 1 164)))) (mkPtok 42 "float" 41 8 165) (mkCalculatedFrom (mkSpan (mkPtok 5 "@calculatedFrom(" 41 14 166) (mkPtok 6 ")" 41 35 168)) (mkPtok 5 "@calculatedFrom(" 41 14 166) (mkPtok 31 (string_of_bytes [34; 92; 195; 169; 34]%N) 41 31 167) (mkPtok 6 ")" 41 35 168)) (Some (mkPtok 43 (string_of_bytes [96; 195; 169; 96]%N) 41 37 169)) (mkPtok 40 "," 41 41 170))); (MatchField (mkSpan (mkPtok 38 "match" 42 0 171) (mkPtok 40 "," 50 2 200)) (mkMatchFieldDecl (mkSpan (mkPtok 38 "match" 42 0 171) (mkPtok 3 "}" 50 0 199)) (mkPtok 38 "match" 42 0 171) (mkPtok 42 "zchar" 42 6 172) (mkPtok 17 "as" 42 12 173) (mkPtok 42 "matchKey" 42 15 174) (mkPtok 2 "{" 42 24 175) [(mkMatchPair (mkSpan (mkPtok 18 "[" 42 26 176) (mkPtok 40 "," 43 11 181)) (MKList (mkKeyList (mkSpan (mkPtok 18 "[" 42 26 176) (mkPtok 13 "]" 43 4 178)) (mkPtok 18 "[" 42 26 176) (mkPtok 31 """CRC32""" 42 28 177) [] (mkPtok 13 "]" 43 4 178))) (mkPtok 39 ":" 43 5 179) (mkPtok 42 "Foo" 43 7 180) (Some (mkPtok 40 "," 43 11 181))); (mkMatchPair (mkSpan (mkPtok 31 (string_of_bytes [34; 195; 169; 116; 195; 169; 34]%N) 45 4 183) (mkPtok 40 "," 45 23 186)) (MKString (mkPtok 31 (string_of_bytes [34; 195; 169; 116; 195; 169; 34]%N) 45 4 183)) (mkPtok 39 ":" 45 10 184) (mkPtok 42 "BodyLength" 45 12 185) (Some (mkPtok 40 "," 45 23 186))); (mkMatchPair (mkSpan (mkPtok 30 "0123456789" 45 25 187) (mkPtok 40 "," 45 41 190)) (MKDigits (mkPtok 30 "0123456789" 45 25 187)) (mkPtok 39 ":" 45 36 188) (mkPtok 42 "crc" 45 37 189) (Some (mkPtok 40 "," 45 41 190))); (mkMatchPair (mkSpan (mkPtok 31 """it's""" 45 42 191) (mkPtok 40 "," 46 10 194)) (MKString (mkPtok 31 """it's""" 45 42 191)) (mkPtok 39 ":" 46 0 192) (mkPtok 42 "stringy" 46 2 193) (Some (mkPtok 40 "," 46 10 194))); (mkMatchPair (mkSpan (mkPtok 31 """a\\""" 47 4 195) (mkPtok 40 "," 49 0 198)) (MKString (mkPtok 31 """a\\""" 47 4 195)) (mkPtok 39 ":" 47 10 196) (mkPtok 42 "asx" 48 4 197) (Some (mkPtok 40 "," 49 0 198)))] (mkPtok 3 "}" 50 0 199)) (mkPtok 40 "," 50 2 200)); (CheckSumField (mkSpan (mkPtok 23 "u64" 50 4 201) (mkPtok 40 "," 50 43 206)) (mkChecksumFieldDecl (mkSpan (mkPtok 23 "u64" 50 4 201) (mkPtok 40 "," 50 43 206)) (Some (TyBasic (mkSpan (mkPtok 23 "u64" 50 4 201) (mkPtok 23 "u64" 50 4 201)) (mkBasicType (mkSpan (mkPtok 23 "u64" 50 4 201) (mkPtok 23 "u64" 50 4 201)) (mkPtok 23 "u64" 50 4 201)))) (mkPtok 42 "leftPad" 50 8 202) (mkCalculatedFrom (mkSpan (mkPtok 5 "@calculatedFrom(" 50 17 203) (mkPtok 6 ")" 50 42 205)) (mkPtok 5 "@calculatedFrom(" 50 17 203) (mkPtok 31 """`tick`""" 50 33 204) (mkPtok 6 ")" 50 42 205)) None (mkPtok 40 "," 50 43 206))); (ObjectField (mkSpan (mkPtok 42 "packetx" 53 0 209) (mkPtok 40 "," 53 8 210)) None (mkPtok 42 "packetx" 53 0 209) None None (mkPtok 40 "," 53 8 210))] (mkPtok 3 "}" 53 10 211)) (mkPtok 40 "," 53 12 212)); (MetaField (mkSpan (mkPtok 29 "f64" 54 0 213) (mkPtok 40 "," 54 8 215)) None (mkMetaDecl (mkSpan (mkPtok 29 "f64" 54 0 213) (mkPtok 40 "," 54 8 215)) (TyBasic (mkSpan (mkPtok 29 "f64" 54 0 213) (mkPtok 29 "f64" 54 0 213)) (mkBasicType (mkSpan (mkPtok 29 "f64" 54 0 213) (mkPtok 29 "f64" 54 0 213)) (mkPtok 29 "f64" 54 0 213))) (mkPtok 42 "crc" 54 4 214) None (mkPtok 40 "," 54 8 215))); (MetaField (mkSpan (mkPtok 14 "zchar[" 54 10 216) (mkPtok 40 "," 55 0 220)) None (mkMetaDecl (mkSpan (mkPtok 14 "zchar[" 54 10 216) (mkPtok 40 "," 55 0 220)) (TyFixed (mkSpan (mkPtok 14 "zchar[" 54 10 216) (mkPtok 13 "]" 54 22 218)) (mkFixedString (mkSpan (mkPtok 14 "zchar[" 54 10 216) (mkPtok 13 "]" 54 22 218)) (mkPtok 14 "zchar[" 54 10 216) (mkPtok 30 "65535" 54 17 217) (mkPtok 13 "]" 54 22 218))) (mkPtok 42 "zchar" 54 23 219) None (mkPtok 40 "," 55 0 220)))] (mkPtok 3 "}" 55 2 221)) (mkPtok 40 "," 55 4 222))] (mkPtok 3 "}" 56 0 224)) (mkPtok 40 "," 56 1 225))); (mkFieldWithAttr (mkSpan (mkPtok 5 "@calculatedFrom(" 57 4 226) (mkPtok 40 "," 59 0 232)) [(FACalculatedFrom (mkSpan (mkPtok 5 "@calculatedFrom(" 57 4 226) (mkPtok 6 ")" 58 16 229)) (mkCalculatedFrom (mkSpan (mkPtok 5 "@calculatedFrom(" 57 4 226) (mkPtok 6 ")" 58 16 229)) (mkPtok 5 "@calculatedFrom(" 57 4 226) (mkPtok 31 """// no comment""" 58 0 228) (mkPtok 6 ")" 58 16 229)))] (MetaField (mkSpan (mkPtok 23 "u64" 58 18 230) (mkPtok 40 "," 59 0 232)) None (mkMetaDecl (mkSpan (mkPtok 23 "u64" 58 18 230) (mkPtok 40 "," 59 0 232)) (TyBasic (mkSpan (mkPtok 23 "u64" 58 18 230) (mkPtok 23 "u64" 58 18 230)) (mkBasicType (mkSpan (mkPtok 23 "u64" 58 18 230) (mkPtok 23 "u64" 58 18 230)) (mkPtok 23 "u64" 58 18 230))) (mkPtok 42 "i8i8" 58 22 231) None (mkPtok 40 "," 59 0 232))))] (mkPtok 3 "}" 59 2 233))); (DMeta (mkMetaDef (mkSpan (mkPtok 37 "MetaData" 61 4 235) (mkPtok 3 "}" 65 0 239)) (mkPtok 37 "MetaData" 61 4 235) (mkPtok 42 "u128" 62 4 236) (mkPtok 2 "{" 64 4 238) [] (mkPtok 3 "}" 65 0 239)))])).
+Eval vm_compute in ("<<<M906>>>" ++ check (runes_of_ascii "  MetaData
+    //	t
+    u8x
+    //	t
+    {u8x packetx `say ""hi""`, // trailing space 
+char[]
+options1
+`100% of %d`, char[ 00 ]	i64_ `" ++ [28040; 24687; 31867; 22411]%N ++ runes_of_ascii "` ,}")).
+Eval vm_compute in ("<<<M938>>>" ++ check (runes_of_ascii "packet  chars{ char[255
+] Header , @leftPad ( '0' ) repeat i64_ { zchar @lengthOf( Foo) ,} , charz // packet A { u8 x, }
+{ // packet A { u8 x, }
+float64 packetx ,  o { char[	255 ] tag @calculatedFrom( ""CRC32"" ) `// not a comment`	,
+    MetaDataX
+    @calculatedFrom(
+"""" )
+    , } ,
+    calculatedFrom{ zchar[ 3 ]
+i8i8	@calculatedFrom( ""{,}"" ) , repeat
+    packetx As ,
+    repeat	leftPad {
+    repeat u16 // @lengthOf(
+packetx
+// packet A { u8 x, }
+// " ++ [27880; 37322]%N ++ runes_of_ascii "
+`" ++ [28040; 24687; 31867; 22411]%N ++ runes_of_ascii "`
+    ,repeat zchar[ 0123456789// @lengthOf(
+] i64_ , }
+    /// triple
+    , }, // " ++ [128512]%N ++ runes_of_ascii " emoji
+int16 As @calculatedFrom( """ ++ [128512]%N ++ runes_of_ascii """
+    ), } , @calculatedFrom( """ ++ [233]%N ++ runes_of_ascii "t" ++ [233]%N ++ runes_of_ascii """ ) repeat zchar[ 7
 //x
-//
-f32
+//x
+] options1 `{ , }`  , } MetaData
+//	t
 // @lengthOf(
+crc { roots u `line1
+line2` ,
+uint16
+    // trailing space 
+    int ,
+    /// triple
+    } root packet  Packet {  T{ char[
+007
+    // " ++ [128512]%N ++ runes_of_ascii " emoji
+    ]
+A
+    , repeat
+leftPad tag,}, @leftPad // @lengthOf(
+()
+@tag( // a // b
+42 )@lengthOf( u128) repeat metadata,  repeat zchar[007]
+crc
+`u8 x,`,
+@calculatedFrom( ""{,}"" )
+match
+o as falsey  {// a // b
+[ 0 ,
+1 , // @lengthOf(
+""\n"" // packet A { u8 x, }
+, 10
+    ,
+42, 7 , ""1"" ] : MetaDataX  ,
+0// trailing space 
+:
+    metadata ,""{,}"" : Logon, ""1"" : float 0123456789
+: a1
+,007 : _x }
+    , // " ++ [27880; 37322]%N ++ runes_of_ascii "
+repeat
+    As //
+, } packet string_
+{}
+")).
+Eval vm_compute in ("<<<M970>>>" ++ check (runes_of_ascii "  packet len//	t
+{ repeat o { //
+zchar[ 0]  lengthOf `u8 x,` ,
+leftPad
+    { lengthOf x`doc`
+    ,	zchar[ 65535
+] u @lengthOf(asx
+),repeat
+u8 u`tab	here` , }
+,
+    //
+    },
+} root packet
+packetx // packet A { u8 x, }
+{
+// " ++ [27880; 37322]%N ++ runes_of_ascii "
+// @lengthOf(
+}
+root packet Logon
+{ zchar[00 ] leftPad	@lengthOf( repeatCount	) , crc packetx
+    // a // b
+    `
+`
+    , x
+    @lengthOf( pack /// triple
+) `tab	here` /// triple
+, lengthOf Header, }
+")).
+Eval vm_compute in ("<<<M1002>>>" ++ check (@nil rune)).
+Eval vm_compute in ("<<<M1034>>>" ++ check (runes_of_ascii "packet x {
+    @tag(	1 )// " ++ [27880; 37322]%N ++ runes_of_ascii "
+match crc as options1 {
+    ""x y"" : // trailing space 
+Packet ,
+// 50% %s
+// `tick` ""quote"" 'q'
+[ """"] : a1,
+// 50% %s
+// a // b
+7
+    : Packet
+    ,
+} ,
+@leftPad ( ' ' )zchar[ 7
+] asx ,
+@rightPad
+// " ++ [128512]%N ++ runes_of_ascii " emoji
+// trailing space 
+('\x00')
+    @rightPad ( ' ' )
+//	t
+//x
+repeat// `tick` ""quote"" 'q'
+leftPad
+{ tag { repeat uint64 charz	,} , }, @tag( 4294967296) len body `it's`
+    // " ++ [27880; 37322]%N ++ runes_of_ascii "
+    , char[
+    3
+] trueish
+@calculatedFrom( ""CRC32""
+)
+    ,}  packet A { match Pad as Z9_ { ""packet"" : f32a , ""{,}""
+: f32a // a // b
+7 :
+    _x
+,00 :  repeatCount ,
+    // c
+    4294967296
+: asx
+, ""CRC32"" : u128
+},
+// trailing space 
+// " ++ [27880; 37322]%N ++ runes_of_ascii "
+u16 float  ``
+, @tag( 1 )
+    // c
+    @tag(65535
+) @rightPad ( )repeat
+uint64
+// c
 /// triple
-len@lengthOf(  u128) `a\` , } root
+Header ,
+    u64 repeatCount
+    , match //	t
+asx as float
+{ // a // b
+[
+    3	]
+    :
+MetaDataX ,
+}
+, match repeatCount
+as
+calculatedFrom
+{	""" ++ [233]%N ++ runes_of_ascii "t" ++ [233]%N ++ runes_of_ascii """	: calculatedFrom [""" ++ [28040; 24687]%N ++ runes_of_ascii """] : falsey ,
+}
+    ,
+}")).
+Eval vm_compute in ("<<<M1066>>>" ++ check (runes_of_ascii " //")).
+Eval vm_compute in ("<<<M1098>>>" ++ check (runes_of_ascii "options{ As
+=// `tick` ""quote"" 'q'
+false leftPad = true }
+")).
+Eval vm_compute in ("<<<T1098>>>" ++ terms [mkTok 1 "options" 1 0 false; mkTok 2 "{" 1 7 false; mkTok 42 "As" 1 9 false; mkTok 4 "=" 2 0 false; mkTok 44 "// `tick` ""quote"" 'q'" 2 1 true; mkTok 11 "false" 3 0 false; mkTok 42 "leftPad" 3 6 false; mkTok 4 "=" 3 14 false; mkTok 10 "true" 3 16 false; mkTok 3 "}" 3 21 false; mkTok 0 "<EOF>" 4 0 false] (mkPacket (mkPtok 1 "options" 1 0 0) (Some (mkPtok 3 "}" 3 21 9)) [(DOption (mkOptionDef (mkSpan (mkPtok 1 "options" 1 0 0) (mkPtok 3 "}" 3 21 9)) (mkPtok 1 "options" 1 0 0) (mkPtok 2 "{" 1 7 1) [(mkOptionDecl (mkSpan (mkPtok 42 "As" 1 9 2) (mkPtok 11 "false" 3 0 5)) (mkPtok 42 "As" 1 9 2) (mkPtok 4 "=" 2 0 3) (VFalse (mkSpan (mkPtok 11 "false" 3 0 5) (mkPtok 11 "false" 3 0 5)) (mkPtok 11 "false" 3 0 5)) None); (mkOptionDecl (mkSpan (mkPtok 42 "leftPad" 3 6 6) (mkPtok 10 "true" 3 16 8)) (mkPtok 42 "leftPad" 3 6 6) (mkPtok 4 "=" 3 14 7) (VTrue (mkSpan (mkPtok 10 "true" 3 16 8) (mkPtok 10 "true" 3 16 8)) (mkPtok 10 "true" 3 16 8)) None)] (mkPtok 3 "}" 3 21 9)))])).
+Eval vm_compute in ("<<<M1130>>>" ++ check (runes_of_ascii "packet pack{zchar[ //
+255] f32a @calculatedFrom(""a\\"" ) ,}
+")).
+Eval vm_compute in ("<<<M1162>>>" ++ check (runes_of_ascii "//
+options
+    {	} options{ // 50% %s
+stringy = 0123456789 string_= ""\n""  int =
+false
+;
+/// triple
+// a // b
+}
+")).
+Eval vm_compute in ("<<<M1194>>>" ++ check (runes_of_ascii "// `tick` ""quote"" 'q'
+packet
+    x {
+    @calculatedFrom(
+""\n"") repeat calculatedFrom _x
+    // a // b
+    `{ , }`, char[]	u128
+    ,
+stringy @calculatedFrom(
+"""" ) , @lengthOf(x_y_z  )
+    @tag( 42)
+    @rightPad ( '0'
+    ) char[]
+    trueish , }
+")).
+Eval vm_compute in ("<<<M1226>>>" ++ check (runes_of_ascii "
+root packet Pad{
+@calculatedFrom( ""`tick`""  ) repeat i8i8 u8x  ,	}	MetaData lengthOf { uint8 tag `it's` , tag	f32a`" ++ [28040; 24687; 31867; 22411]%N ++ runes_of_ascii "`// " ++ [27880; 37322]%N ++ runes_of_ascii "
+, metadata calculatedFrom
+,  u16 T // " ++ [128512]%N ++ runes_of_ascii " emoji
+`tab	here` , len	stringy
+    `100% of %d`
+,	}MetaData roots
+    { } // @lengthOf(
+root
+packet // a // b
+x_y_z {
+    repeat options1 As, @calculatedFrom( ""a\""b"" )
+    match float as calculatedFrom
+{1:float , 0123456789 :Packet , ""{,}""// " ++ [27880; 37322]%N ++ runes_of_ascii "
+:leftPad ,[
+4294967296
+,	""CRC32"" ] :
+// `tick` ""quote"" 'q'
+// @lengthOf(
+Foo// 50% %s
+0123456789
+    : roots ,
+    [""a\""b"" ,	4294967296, 0123456789 , 10 ] : u128 ,  }// " ++ [128512]%N ++ runes_of_ascii " emoji
+,
+    /// triple
+    }")).
+Eval vm_compute in ("<<<M1258>>>" ++ check (runes_of_ascii "MetaData trueish {	char[ 42 ]
+    tag `line1
+line2`
+, // " ++ [27880; 37322]%N ++ runes_of_ascii "
+} // trailing space 
+MetaData Pad{ f64 pack  ,
+    As matchKey,u32 // 50% %s
+As , int64
+    repeatCount , Foo o
+    , string // trailing space 
+charz, }packet Header
+{}
+")).
+Eval vm_compute in ("<<<M1290>>>" ++ check (runes_of_ascii "root
+    packet
+o { uint8 charz `" ++ [233]%N ++ runes_of_ascii "`
+,	char[ 65535
+] Header @calculatedFrom( ""a\\"" ) ,repeat
+uint32
+pack,
+    chars{u32 metadata @calculatedFrom(
+// @lengthOf(
+// c
+""x y""
+    // packet A { u8 x, }
+    ) `" ++ [233]%N ++ runes_of_ascii "` //	t
+,	x_y_z
+,string_ @calculatedFrom(
+    ""a	b"" ) ,
+    //	t
+    float	@lengthOf(	leftPad ), } ,}MetaData body
+    { string Pad `
+` ,	}
+root packet o
+    {@calculatedFrom( ""{,}""
+    ) @calculatedFrom(
+    // 50% %s
+    ""1"")
+_x
+    //
+    { zchar[
+    1]crc ,char[]//x
+u128
+    @lengthOf( matchKey)
+,o @lengthOf(matchKey  )`{ , }` ,
+}, }
+
+")).
+Eval vm_compute in ("<<<M1322>>>" ++ check (runes_of_ascii "packet
+uint8x {
+u32// 50% %s
+body	,	repeat string // packet A { u8 x, }
+tag  ,	@calculatedFrom( ""CRC32"") string_  int// " ++ [27880; 37322]%N ++ runes_of_ascii "
+,i8 u128 , @lengthOf( // packet A { u8 x, }
+_x//x
+) uint16 trueish
+    `say ""hi""` ,@tag(
+10 )@lengthOf( int	) @rightPad (
+    '\x00'  ) x_y_z
+body
+, As @calculatedFrom(""// no comment"" ) ,
+// c
+//	t
+repeat uint8 Z9_// c
+, } packet
+trueish {
+    char
+    u @calculatedFrom(
+""{,}"" ) ,@tag(7
+) // " ++ [27880; 37322]%N ++ runes_of_ascii "
+i8
+    a1  ,crc @lengthOf( // " ++ [128512]%N ++ runes_of_ascii " emoji
+chars ) `say ""hi""` , zchar[ 42 ]
+metadata ``
+    , float64  repeatCount
+`` , @lengthOf( /// triple
+chars
+    // " ++ [128512]%N ++ runes_of_ascii " emoji
+    ) repeat  Logon
+// 50% %s
+// " ++ [128512]%N ++ runes_of_ascii " emoji
+{ string len@lengthOf(
+    crc)
+    ,u128	@lengthOf( x) , } ,
+Packet { i8 uint8x
+    ,repeatCount
+Packet `" ++ [233]%N ++ runes_of_ascii "`,i64 lengthOf ,  MetaDataX
+{ zchar[ 10]
+    // " ++ [128512]%N ++ runes_of_ascii " emoji
+    a1
+    @lengthOf( metadata),
+} ,
+    /// triple
+    } ,
+    }
+")).
+Eval vm_compute in ("<<<T1322>>>" ++ terms [mkTok 35 "packet" 1 0 false; mkTok 42 "uint8x" 2 0 false; mkTok 2 "{" 2 7 false; mkTok 22 "u32" 3 0 false; mkTok 44 "// 50% %s" 3 3 true; mkTok 42 "body" 4 0 false; mkTok 40 "," 4 5 false; mkTok 36 "repeat" 4 7 false; mkTok 15 "string" 4 14 false; mkTok 44 "// packet A { u8 x, }" 4 21 true; mkTok 42 "tag" 5 0 false; mkTok 40 "," 5 5 false; mkTok 5 "@calculatedFrom(" 5 7 false; mkTok 31 """CRC32""" 5 24 false; mkTok 6 ")" 5 31 false; mkTok 42 "string_" 5 33 false; mkTok 42 "int" 5 42 false; mkTok 44 (string_of_bytes [47; 47; 32; 230; 179; 168; 233; 135; 138]%N) 5 45 true; mkTok 40 "," 6 0 false; mkTok 24 "i8" 6 1 false; mkTok 42 "u128" 6 4 false; mkTok 40 "," 6 9 false; mkTok 7 "@lengthOf(" 6 11 false; mkTok 44 "// packet A { u8 x, }" 6 22 true; mkTok 42 "_x" 7 0 false; mkTok 44 "//x" 7 2 true; mkTok 6 ")" 8 0 false; mkTok 21 "uint16" 8 2 false; mkTok 42 "trueish" 8 9 false; mkTok 43 "`say ""hi""`" 9 4 false; mkTok 40 "," 9 15 false; mkTok 9 "@tag(" 9 16 false; mkTok 30 "10" 10 0 false; mkTok 6 ")" 10 3 false; mkTok 7 "@lengthOf(" 10 4 false; mkTok 42 "int" 10 15 false; mkTok 6 ")" 10 19 false; mkTok 32 "@rightPad" 10 21 false; mkTok 8 "(" 10 31 false; mkTok 33 "'\x00'" 11 4 false; mkTok 6 ")" 11 12 false; mkTok 42 "x_y_z" 11 14 false; mkTok 42 "body" 12 0 false; mkTok 40 "," 13 0 false; mkTok 42 "As" 13 2 false; mkTok 5 "@calculatedFrom(" 13 5 false; mkTok 31 """// no comment""" 13 21 false; mkTok 6 ")" 13 37 false; mkTok 40 "," 13 39 false; mkTok 44 "// c" 14 0 true; mkTok 44 (string_of_bytes [47; 47; 9; 116]%N) 15 0 true; mkTok 36 "repeat" 16 0 false; mkTok 20 "uint8" 16 7 false; mkTok 42 "Z9_" 16 13 false; mkTok 44 "// c" 16 16 true; mkTok 40 "," 17 0 false; mkTok 3 "}" 17 2 false; mkTok 35 "packet" 17 4 false; mkTok 42 "trueish" 18 0 false; mkTok 2 "{" 18 8 false; mkTok 19 "char" 19 4 false; mkTok 42 "u" 20 4 false; mkTok 5 "@calculatedFrom(" 20 6 false; mkTok 31 """{,}""" 21 0 false; mkTok 6 ")" 21 6 false; mkTok 40 "," 21 8 false; mkTok 9 "@tag(" 21 9 false; mkTok 30 "7" 21 14 false; mkTok 6 ")" 22 0 false; mkTok 44 (string_of_bytes [47; 47; 32; 230; 179; 168; 233; 135; 138]%N) 22 2 true; mkTok 24 "i8" 23 0 false; mkTok 42 "a1" 24 4 false; mkTok 40 "," 24 8 false; mkTok 42 "crc" 24 9 false; mkTok 7 "@lengthOf(" 24 13 false; mkTok 44 (string_of_bytes [47; 47; 32; 240; 159; 152; 128; 32; 101; 109; 111; 106; 105]%N) 24 24 true; mkTok 42 "chars" 25 0 false; mkTok 6 ")" 25 6 false; mkTok 43 "`say ""hi""`" 25 8 false; mkTok 40 "," 25 19 false; mkTok 14 "zchar[" 25 21 false; mkTok 30 "42" 25 28 false; mkTok 13 "]" 25 31 false; mkTok 42 "metadata" 26 0 false; mkTok 43 "``" 26 9 false; mkTok 40 "," 27 4 false; mkTok 29 "float64" 27 6 false; mkTok 42 "repeatCount" 27 15 false; mkTok 43 "``" 28 0 false; mkTok 40 "," 28 3 false; mkTok 7 "@lengthOf(" 28 5 false; mkTok 44 "/// triple" 28 16 true; mkTok 42 "chars" 29 0 false; mkTok 44 (string_of_bytes [47; 47; 32; 240; 159; 152; 128; 32; 101; 109; 111; 106; 105]%N) 30 4 true; mkTok 6 ")" 31 4 false; mkTok 36 "repeat" 31 6 false; mkTok 42 "Logon" 31 14 false; mkTok 44 "// 50% %s" 32 0 true; mkTok 44 (string_of_bytes [47; 47; 32; 240; 159; 152; 128; 32; 101; 109; 111; 106; 105]%N) 33 0 true; mkTok 2 "{" 34 0 false; mkTok 15 "string" 34 2 false; mkTok 42 "len" 34 9 false; mkTok 7 "@lengthOf(" 34 12 false; mkTok 42 "crc" 35 4 false; mkTok 6 ")" 35 7 false; mkTok 40 "," 36 4 false; mkTok 42 "u128" 36 5 false; mkTok 7 "@lengthOf(" 36 10 false; mkTok 42 "x" 36 21 false; mkTok 6 ")" 36 22 false; mkTok 40 "," 36 24 false; mkTok 3 "}" 36 26 false; mkTok 40 "," 36 28 false; mkTok 42 "Packet" 37 0 false; mkTok 2 "{" 37 7 false; mkTok 24 "i8" 37 9 false; mkTok 42 "uint8x" 37 12 false; mkTok 40 "," 38 4 false; mkTok 42 "repeatCount" 38 5 false; mkTok 42 "Packet" 39 0 false; mkTok 43 (string_of_bytes [96; 195; 169; 96]%N) 39 7 false; mkTok 40 "," 39 10 false; mkTok 27 "i64" 39 11 false; mkTok 42 "lengthOf" 39 15 false; mkTok 40 "," 39 24 false; mkTok 42 "MetaDataX" 39 27 false; mkTok 2 "{" 40 0 false; mkTok 14 "zchar[" 40 2 false; mkTok 30 "10" 40 9 false; mkTok 13 "]" 40 11 false; mkTok 44 (string_of_bytes [47; 47; 32; 240; 159; 152; 128; 32; 101; 109; 111; 106; 105]%N) 41 4 true; mkTok 42 "a1" 42 4 false; mkTok 7 "@lengthOf(" 43 4 false; mkTok 42 "metadata" 43 15 false; mkTok 6 ")" 43 23 false; mkTok 40 "," 43 24 false; mkTok 3 "}" 44 0 false; mkTok 40 "," 44 2 false; mkTok 44 "/// triple" 45 4 true; mkTok 3 "}" 46 4 false; mkTok 40 "," 46 6 false; mkTok 3 "}" 47 4 false; mkTok 0 "<EOF>" 48 0 false] (mkPacket (mkPtok 35 "packet" 1 0 0) (Some (mkPtok 3 "}" 47 4 141)) [(DPacket (mkPacketDef (mkSpan (mkPtok 35 "packet" 1 0 0) (mkPtok 3 "}" 17 2 56)) None (mkPtok 35 "packet" 1 0 0) (mkPtok 42 "uint8x" 2 0 1) (mkPtok 2 "{" 2 7 2) [(mkFieldWithAttr (mkSpan (mkPtok 22 "u32" 3 0 3) (mkPtok 40 "," 4 5 6)) [] (MetaField (mkSpan (mkPtok 22 "u32" 3 0 3) (mkPtok 40 "," 4 5 6)) None (mkMetaDecl (mkSpan (mkPtok 22 "u32" 3 0 3) (mkPtok 40 "," 4 5 6)) (TyBasic (mkSpan (mkPtok 22 "u32" 3 0 3) (mkPtok 22 "u32" 3 0 3)) (mkBasicType (mkSpan (mkPtok 22 "u32" 3 0 3) (mkPtok 22 "u32" 3 0 3)) (mkPtok 22 "u32" 3 0 3))) (mkPtok 42 "body" 4 0 5) None (mkPtok 40 "," 4 5 6)))); (mkFieldWithAttr (mkSpan (mkPtok 36 "repeat" 4 7 7) (mkPtok 40 "," 5 5 11)) [] (MetaField (mkSpan (mkPtok 36 "repeat" 4 7 7) (mkPtok 40 "," 5 5 11)) (Some (mkPtok 36 "repeat" 4 7 7)) (mkMetaDecl (mkSpan (mkPtok 15 "string" 4 14 8) (mkPtok 40 "," 5 5 11)) (TyDynamic (mkSpan (mkPtok 15 "string" 4 14 8) (mkPtok 15 "string" 4 14 8)) (mkDynamicString (mkSpan (mkPtok 15 "string" 4 14 8) (mkPtok 15 "string" 4 14 8)) (mkPtok 15 "string" 4 14 8))) (mkPtok 42 "tag" 5 0 10) None (mkPtok 40 "," 5 5 11)))); (mkFieldWithAttr (mkSpan (mkPtok 5 "@calculatedFrom(" 5 7 12) (mkPtok 40 "," 6 0 18)) [(FACalculatedFrom (mkSpan (mkPtok 5 "@calculatedFrom(" 5 7 12) (mkPtok 6 ")" 5 31 14)) (mkCalculatedFrom (mkSpan (mkPtok 5 "@calculatedFrom(" 5 7 12) (mkPtok 6 ")" 5 31 14)) (mkPtok 5 "@calculatedFrom(" 5 7 12) (mkPtok 31 """CRC32""" 5 24 13) (mkPtok 6 ")" 5 31 14)))] (ObjectField (mkSpan (mkPtok 42 "string_" 5 33 15) (mkPtok 40 "," 6 0 18)) None (mkPtok 42 "string_" 5 33 15) (Some (mkPtok 42 "int" 5 42 16)) None (mkPtok 40 "," 6 0 18))); (mkFieldWithAttr (mkSpan (mkPtok 24 "i8" 6 1 19) (mkPtok 40 "," 6 9 21)) [] (MetaField (mkSpan (mkPtok 24 "i8" 6 1 19) (mkPtok 40 "," 6 9 21)) None (mkMetaDecl (mkSpan (mkPtok 24 "i8" 6 1 19) (mkPtok 40 "," 6 9 21)) (TyBasic (mkSpan (mkPtok 24 "i8" 6 1 19) (mkPtok 24 "i8" 6 1 19)) (mkBasicType (mkSpan (mkPtok 24 "i8" 6 1 19) (mkPtok 24 "i8" 6 1 19)) (mkPtok 24 "i8" 6 1 19))) (mkPtok 42 "u128" 6 4 20) None (mkPtok 40 "," 6 9 21)))); (mkFieldWithAttr (mkSpan (mkPtok 7 "@lengthOf(" 6 11 22) (mkPtok 40 "," 9 15 30)) [(FALengthOf (mkSpan (mkPtok 7 "@lengthOf(" 6 11 22) (mkPtok 6 ")" 8 0 26)) (mkLengthOf (mkSpan (mkPtok 7 "@lengthOf(" 6 11 22) (mkPtok 6 ")" 8 0 26)) (mkPtok 7 "@lengthOf(" 6 11 22) (mkPtok 42 "_x" 7 0 24) (mkPtok 6 ")" 8 0 26)))] (MetaField (mkSpan (mkPtok 21 "uint16" 8 2 27) (mkPtok 40 "," 9 15 30)) None (mkMetaDecl (mkSpan (mkPtok 21 "uint16" 8 2 27) (mkPtok 40 "," 9 15 30)) (TyBasic (mkSpan (mkPtok 21 "uint16" 8 2 27) (mkPtok 21 "uint16" 8 2 27)) (mkBasicType (mkSpan (mkPtok 21 "uint16" 8 2 27) (mkPtok 21 "uint16" 8 2 27)) (mkPtok 21 "uint16" 8 2 27))) (mkPtok 42 "trueish" 8 9 28) (Some (mkPtok 43 "`say ""hi""`" 9 4 29)) (mkPtok 40 "," 9 15 30)))); (mkFieldWithAttr (mkSpan (mkPtok 9 "@tag(" 9 16 31) (mkPtok 40 "," 13 0 43)) [(FATag (mkSpan (mkPtok 9 "@tag(" 9 16 31) (mkPtok 6 ")" 10 3 33)) (mkTagAttr (mkSpan (mkPtok 9 "@tag(" 9 16 31) (mkPtok 6 ")" 10 3 33)) (mkPtok 9 "@tag(" 9 16 31) (mkPtok 30 "10" 10 0 32) (mkPtok 6 ")" 10 3 33))); (FALengthOf (mkSpan (mkPtok 7 "@lengthOf(" 10 4 34) (mkPtok 6 ")" 10 19 36)) (mkLengthOf (mkSpan (mkPtok 7 "@lengthOf(" 10 4 34) (mkPtok 6 ")" 10 19 36)) (mkPtok 7 "@lengthOf(" 10 4 34) (mkPtok 42 "int" 10 15 35) (mkPtok 6 ")" 10 19 36))); (FAPadding (mkSpan (mkPtok 32 "@rightPad" 10 21 37) (mkPtok 6 ")" 11 12 40)) (mkPaddingAttr (mkSpan (mkPtok 32 "@rightPad" 10 21 37) (mkPtok 6 ")" 11 12 40)) (mkPtok 32 "@rightPad" 10 21 37) (mkPtok 8 "(" 10 31 38) (Some (mkPtok 33 "'\x00'" 11 4 39)) (mkPtok 6 ")" 11 12 40)))] (ObjectField (mkSpan (mkPtok 42 "x_y_z" 11 14 41) (mkPtok 40 "," 13 0 43)) None (mkPtok 42 "x_y_z" 11 14 41) (Some (mkPtok 42 "body" 12 0 42)) None (mkPtok 40 "," 13 0 43))); (mkFieldWithAttr (mkSpan (mkPtok 42 "As" 13 2 44) (mkPtok 40 "," 13 39 48)) [] (CheckSumField (mkSpan (mkPtok 42 "As" 13 2 44) (mkPtok 40 "," 13 39 48)) (mkChecksumFieldDecl (mkSpan (mkPtok 42 "As" 13 2 44) (mkPtok 40 "," 13 39 48)) None (mkPtok 42 "As" 13 2 44) (mkCalculatedFrom (mkSpan (mkPtok 5 "@calculatedFrom(" 13 5 45) (mkPtok 6 ")" 13 37 47)) (mkPtok 5 "@calculatedFrom(" 13 5 45) (mkPtok 31 """// no comment""" 13 21 46) (mkPtok 6 ")" 13 37 47)) None (mkPtok 40 "," 13 39 48)))); (mkFieldWithAttr (mkSpan (mkPtok 36 "repeat" 16 0 51) (mkPtok 40 "," 17 0 55)) [] (MetaField (mkSpan (mkPtok 36 "repeat" 16 0 51) (mkPtok 40 "," 17 0 55)) (Some (mkPtok 36 "repeat" 16 0 51)) (mkMetaDecl (mkSpan (mkPtok 20 "uint8" 16 7 52) (mkPtok 40 "," 17 0 55)) (TyBasic (mkSpan (mkPtok 20 "uint8" 16 7 52) (mkPtok 20 "uint8" 16 7 52)) (mkBasicType (mkSpan (mkPtok 20 "uint8" 16 7 52) (mkPtok 20 "uint8" 16 7 52)) (mkPtok 20 "uint8" 16 7 52))) (mkPtok 42 "Z9_" 16 13 53) None (mkPtok 40 "," 17 0 55))))] (mkPtok 3 "}" 17 2 56))); (DPacket (mkPacketDef (mkSpan (mkPtok 35 "packet" 17 4 57) (mkPtok 3 "}" 47 4 141)) None (mkPtok 35 "packet" 17 4 57) (mkPtok 42 "trueish" 18 0 58) (mkPtok 2 "{" 18 8 59) [(mkFieldWithAttr (mkSpan (mkPtok 19 "char" 19 4 60) (mkPtok 40 "," 21 8 65)) [] (CheckSumField (mkSpan (mkPtok 19 "char" 19 4 60) (mkPtok 40 "," 21 8 65)) (mkChecksumFieldDecl (mkSpan (mkPtok 19 "char" 19 4 60) (mkPtok 40 "," 21 8 65)) (Some (TyBasic (mkSpan (mkPtok 19 "char" 19 4 60) (mkPtok 19 "char" 19 4 60)) (mkBasicType (mkSpan (mkPtok 19 "char" 19 4 60) (mkPtok 19 "char" 19 4 60)) (mkPtok 19 "char" 19 4 60)))) (mkPtok 42 "u" 20 4 61) (mkCalculatedFrom (mkSpan (mkPtok 5 "@calculatedFrom(" 20 6 62) (mkPtok 6 ")" 21 6 64)) (mkPtok 5 "@calculatedFrom(" 20 6 62) (mkPtok 31 """{,}""" 21 0 63) (mkPtok 6 ")" 21 6 64)) None (mkPtok 40 "," 21 8 65)))); (mkFieldWithAttr (mkSpan (mkPtok 9 "@tag(" 21 9 66) (mkPtok 40 "," 24 8 72)) [(FATag (mkSpan (mkPtok 9 "@tag(" 21 9 66) (mkPtok 6 ")" 22 0 68)) (mkTagAttr (mkSpan (mkPtok 9 "@tag(" 21 9 66) (mkPtok 6 ")" 22 0 68)) (mkPtok 9 "@tag(" 21 9 66) (mkPtok 30 "7" 21 14 67) (mkPtok 6 ")" 22 0 68)))] (MetaField (mkSpan (mkPtok 24 "i8" 23 0 70) (mkPtok 40 "," 24 8 72)) None (mkMetaDecl (mkSpan (mkPtok 24 "i8" 23 0 70) (mkPtok 40 "," 24 8 72)) (TyBasic (mkSpan (mkPtok 24 "i8" 23 0 70) (mkPtok 24 "i8" 23 0 70)) (mkBasicType (mkSpan (mkPtok 24 "i8" 23 0 70) (mkPtok 24 "i8" 23 0 70)) (mkPtok 24 "i8" 23 0 70))) (mkPtok 42 "a1" 24 4 71) None (mkPtok 40 "," 24 8 72)))); (mkFieldWithAttr (mkSpan (mkPtok 42 "crc" 24 9 73) (mkPtok 40 "," 25 19 79)) [] (LengthField (mkSpan (mkPtok 42 "crc" 24 9 73) (mkPtok 40 "," 25 19 79)) (mkLengthFieldDecl (mkSpan (mkPtok 42 "crc" 24 9 73) (mkPtok 40 "," 25 19 79)) None (mkPtok 42 "crc" 24 9 73) (mkLengthOf (mkSpan (mkPtok 7 "@lengthOf(" 24 13 74) (mkPtok 6 ")" 25 6 77)) (mkPtok 7 "@lengthOf(" 24 13 74) (mkPtok 42 "chars" 25 0 76) (mkPtok 6 ")" 25 6 77)) (Some (mkPtok 43 "`say ""hi""`" 25 8 78)) (mkPtok 40 "," 25 19 79)))); (mkFieldWithAttr (mkSpan (mkPtok 14 "zchar[" 25 21 80) (mkPtok 40 "," 27 4 85)) [] (MetaField (mkSpan (mkPtok 14 "zchar[" 25 21 80) (mkPtok 40 "," 27 4 85)) None (mkMetaDecl (mkSpan (mkPtok 14 "zchar[" 25 21 80) (mkPtok 40 "," 27 4 85)) (TyFixed (mkSpan (mkPtok 14 "zchar[" 25 21 80) (mkPtok 13 "]" 25 31 82)) (mkFixedString (mkSpan (mkPtok 14 "zchar[" 25 21 80) (mkPtok 13 "]" 25 31 82)) (mkPtok 14 "zchar[" 25 21 80) (mkPtok 30 "42" 25 28 81) (mkPtok 13 "]" 25 31 82))) (mkPtok 42 "metadata" 26 0 83) (Some (mkPtok 43 "``" 26 9 84)) (mkPtok 40 "," 27 4 85)))); (mkFieldWithAttr (mkSpan (mkPtok 29 "float64" 27 6 86) (mkPtok 40 "," 28 3 89)) [] (MetaField (mkSpan (mkPtok 29 "float64" 27 6 86) (mkPtok 40 "," 28 3 89)) None (mkMetaDecl (mkSpan (mkPtok 29 "float64" 27 6 86) (mkPtok 40 "," 28 3 89)) (TyBasic (mkSpan (mkPtok 29 "float64" 27 6 86) (mkPtok 29 "float64" 27 6 86)) (mkBasicType (mkSpan (mkPtok 29 "float64" 27 6 86) (mkPtok 29 "float64" 27 6 86)) (mkPtok 29 "float64" 27 6 86))) (mkPtok 42 "repeatCount" 27 15 87) (Some (mkPtok 43 "``" 28 0 88)) (mkPtok 40 "," 28 3 89)))); (mkFieldWithAttr (mkSpan (mkPtok 7 "@lengthOf(" 28 5 90) (mkPtok 40 "," 36 28 112)) [(FALengthOf (mkSpan (mkPtok 7 "@lengthOf(" 28 5 90) (mkPtok 6 ")" 31 4 94)) (mkLengthOf (mkSpan (mkPtok 7 "@lengthOf(" 28 5 90) (mkPtok 6 ")" 31 4 94)) (mkPtok 7 "@lengthOf(" 28 5 90) (mkPtok 42 "chars" 29 0 92) (mkPtok 6 ")" 31 4 94)))] (InerObjectField (mkSpan (mkPtok 36 "repeat" 31 6 95) (mkPtok 40 "," 36 28 112)) (Some (mkPtok 36 "repeat" 31 6 95)) (InerObjectDecl (mkSpan (mkPtok 42 "Logon" 31 14 96) (mkPtok 3 "}" 36 26 111)) (mkPtok 42 "Logon" 31 14 96) (mkPtok 2 "{" 34 0 99) [(LengthField (mkSpan (mkPtok 15 "string" 34 2 100) (mkPtok 40 "," 36 4 105)) (mkLengthFieldDecl (mkSpan (mkPtok 15 "string" 34 2 100) (mkPtok 40 "," 36 4 105)) (Some (TyDynamic (mkSpan (mkPtok 15 "string" 34 2 100) (mkPtok 15 "string" 34 2 100)) (mkDynamicString (mkSpan (mkPtok 15 "string" 34 2 100) (mkPtok 15 "string" 34 2 100)) (mkPtok 15 "string" 34 2 100)))) (mkPtok 42 "len" 34 9 101) (mkLengthOf (mkSpan (mkPtok 7 "@lengthOf(" 34 12 102) (mkPtok 6 ")" 35 7 104)) (mkPtok 7 "@lengthOf(" 34 12 102) (mkPtok 42 "crc" 35 4 103) (mkPtok 6 ")" 35 7 104)) None (mkPtok 40 "," 36 4 105))); (LengthField (mkSpan (mkPtok 42 "u128" 36 5 106) (mkPtok 40 "," 36 24 110)) (mkLengthFieldDecl (mkSpan (mkPtok 42 "u128" 36 5 106) (mkPtok 40 "," 36 24 110)) None (mkPtok 42 "u128" 36 5 106) (mkLengthOf (mkSpan (mkPtok 7 "@lengthOf(" 36 10 107) (mkPtok 6 ")" 36 22 109)) (mkPtok 7 "@lengthOf(" 36 10 107) (mkPtok 42 "x" 36 21 108) (mkPtok 6 ")" 36 22 109)) None (mkPtok 40 "," 36 24 110)))] (mkPtok 3 "}" 36 26 111)) (mkPtok 40 "," 36 28 112))); (mkFieldWithAttr (mkSpan (mkPtok 42 "Packet" 37 0 113) (mkPtok 40 "," 46 6 140)) [] (InerObjectField (mkSpan (mkPtok 42 "Packet" 37 0 113) (mkPtok 40 "," 46 6 140)) None (InerObjectDecl (mkSpan (mkPtok 42 "Packet" 37 0 113) (mkPtok 3 "}" 46 4 139)) (mkPtok 42 "Packet" 37 0 113) (mkPtok 2 "{" 37 7 114) [(MetaField (mkSpan (mkPtok 24 "i8" 37 9 115) (mkPtok 40 "," 38 4 117)) None (mkMetaDecl (mkSpan (mkPtok 24 "i8" 37 9 115) (mkPtok 40 "," 38 4 117)) (TyBasic (mkSpan (mkPtok 24 "i8" 37 9 115) (mkPtok 24 "i8" 37 9 115)) (mkBasicType (mkSpan (mkPtok 24 "i8" 37 9 115) (mkPtok 24 "i8" 37 9 115)) (mkPtok 24 "i8" 37 9 115))) (mkPtok 42 "uint8x" 37 12 116) None (mkPtok 40 "," 38 4 117))); (ObjectField (mkSpan (mkPtok 42 "repeatCount" 38 5 118) (mkPtok 40 "," 39 10 121)) None (mkPtok 42 "repeatCount" 38 5 118) (Some (mkPtok 42 "Packet" 39 0 119)) (Some (mkPtok 43 (string_of_bytes [96; 195; 169; 96]%N) 39 7 120)) (mkPtok 40 "," 39 10 121)); (MetaField (mkSpan (mkPtok 27 "i64" 39 11 122) (mkPtok 40 "," 39 24 124)) None (mkMetaDecl (mkSpan (mkPtok 27 "i64" 39 11 122) (mkPtok 40 "," 39 24 124)) (TyBasic (mkSpan (mkPtok 27 "i64" 39 11 122) (mkPtok 27 "i64" 39 11 122)) (mkBasicType (mkSpan (mkPtok 27 "i64" 39 11 122) (mkPtok 27 "i64" 39 11 122)) (mkPtok 27 "i64" 39 11 122))) (mkPtok 42 "lengthOf" 39 15 123) None (mkPtok 40 "," 39 24 124))); (InerObjectField (mkSpan (mkPtok 42 "MetaDataX" 39 27 125) (mkPtok 40 "," 44 2 137)) None (InerObjectDecl (mkSpan (mkPtok 42 "MetaDataX" 39 27 125) (mkPtok 3 "}" 44 0 136)) (mkPtok 42 "MetaDataX" 39 27 125) (mkPtok 2 "{" 40 0 126) [(LengthField (mkSpan (mkPtok 14 "zchar[" 40 2 127) (mkPtok 40 "," 43 24 135)) (mkLengthFieldDecl (mkSpan (mkPtok 14 "zchar[" 40 2 127) (mkPtok 40 "," 43 24 135)) (Some (TyFixed (mkSpan (mkPtok 14 "zchar[" 40 2 127) (mkPtok 13 "]" 40 11 129)) (mkFixedString (mkSpan (mkPtok 14 "zchar[" 40 2 127) (mkPtok 13 "]" 40 11 129)) (mkPtok 14 "zchar[" 40 2 127) (mkPtok 30 "10" 40 9 128) (mkPtok 13 "]" 40 11 129)))) (mkPtok 42 "a1" 42 4 131) (mkLengthOf (mkSpan (mkPtok 7 "@lengthOf(" 43 4 132) (mkPtok 6 ")" 43 23 134)) (mkPtok 7 "@lengthOf(" 43 4 132) (mkPtok 42 "metadata" 43 15 133) (mkPtok 6 ")" 43 23 134)) None (mkPtok 40 "," 43 24 135)))] (mkPtok 3 "}" 44 0 136)) (mkPtok 40 "," 44 2 137))] (mkPtok 3 "}" 46 4 139)) (mkPtok 40 "," 46 6 140)))] (mkPtok 3 "}" 47 4 141)))])).
+Eval vm_compute in ("<<<M1354>>>" ++ check (runes_of_ascii "MetaData trueish { T
+    Pad //
+,
+    char[]
+    _x , } // trailing space ")).
+Eval vm_compute in ("<<<M1386>>>" ++ check (runes_of_ascii "root packet metadata{ }
+")).
+Eval vm_compute in ("<<<M1418>>>" ++ check (runes_of_ascii "MetaData // trailing space 
+Header{
+x_y_z// packet A { u8 x, }
+metadata	`two words`
+, }MetaData A { zchar[ 255 ] packetx , msg_type
+charz`it's` ,pack BodyLength
+,
+} MetaData repeatCount {u64 x `u8 x,`,  char[	7
+    ] u ,
+    crc
+asx , char[
+10 ] x_y_z , }")).
+Eval vm_compute in ("<<<M1450>>>" ++ check (runes_of_ascii "packet
+    //x
+    i8i8{	}
+")).
+Eval vm_compute in ("<<<M1482>>>" ++ check (runes_of_ascii "MetaData Logon// " ++ [128512]%N ++ runes_of_ascii " emoji
+{pack body
+//
+//
+`say ""hi""`
+,}/// triple
+packet MetaDataX { }")).
+Eval vm_compute in ("<<<M1514>>>" ++ check (runes_of_ascii "// " ++ [128512]%N ++ runes_of_ascii " emoji
+options	{
+u =zchar[ 0123456789 ] ;string_ =
+false
+}
+")).
+Eval vm_compute in ("<<<M1546>>>" ++ check (runes_of_ascii "// a // b
+packet	metadata { char[]
+repeatCount @calculatedFrom( ""CRC32"" )
+    // " ++ [27880; 37322]%N ++ runes_of_ascii "
+    ,}
+root
+packet
+    // a // b
+    Logon {// trailing space 
+@tag(
+3)
+leftPad
+    @calculatedFrom( ""`tick`""	)
+, repeat leftPad //
+len`{ , }` ,repeat
+// c
+// trailing space 
+string tag `
+` , @lengthOf( // a // b
+Packet ) roots {i32 len `" ++ [28040; 24687; 31867; 22411]%N ++ runes_of_ascii "`
+,}	, repeat calculatedFrom
+asx ,
+repeat packetx `" ++ [28040; 24687; 31867; 22411]%N ++ runes_of_ascii "` , @rightPad
+( '\x00' ) uint8x
+o,
+}")).
+Eval vm_compute in ("<<<T1546>>>" ++ terms [mkTok 44 "// a // b" 1 0 true; mkTok 35 "packet" 2 0 false; mkTok 42 "metadata" 2 7 false; mkTok 2 "{" 2 16 false; mkTok 16 "char[]" 2 18 false; mkTok 42 "repeatCount" 3 0 false; mkTok 5 "@calculatedFrom(" 3 12 false; mkTok 31 """CRC32""" 3 29 false; mkTok 6 ")" 3 37 false; mkTok 44 (string_of_bytes [47; 47; 32; 230; 179; 168; 233; 135; 138]%N) 4 4 true; mkTok 40 "," 5 4 false; mkTok 3 "}" 5 5 false; mkTok 34 "root" 6 0 false; mkTok 35 "packet" 7 0 false; mkTok 44 "// a // b" 8 4 true; mkTok 42 "Logon" 9 4 false; mkTok 2 "{" 9 10 false; mkTok 44 "// trailing space " 9 11 true; mkTok 9 "@tag(" 10 0 false; mkTok 30 "3" 11 0 false; mkTok 6 ")" 11 1 false; mkTok 42 "leftPad" 12 0 false; mkTok 5 "@calculatedFrom(" 13 4 false; mkTok 31 """`tick`""" 13 21 false; mkTok 6 ")" 13 30 false; mkTok 40 "," 14 0 false; mkTok 36 "repeat" 14 2 false; mkTok 42 "leftPad" 14 9 false; mkTok 44 "//" 14 17 true; mkTok 42 "len" 15 0 false; mkTok 43 "`{ , }`" 15 3 false; mkTok 40 "," 15 11 false; mkTok 36 "repeat" 15 12 false; mkTok 44 "// c" 16 0 true; mkTok 44 "// trailing space " 17 0 true; mkTok 15 "string" 18 0 false; mkTok 42 "tag" 18 7 false; mkTok 43 (string_of_bytes [96; 10; 96]%N) 18 11 false; mkTok 40 "," 19 2 false; mkTok 7 "@lengthOf(" 19 4 false; mkTok 44 "// a // b" 19 15 true; mkTok 42 "Packet" 20 0 false; mkTok 6 ")" 20 7 false; mkTok 42 "roots" 20 9 false; mkTok 2 "{" 20 15 false; mkTok 26 "i32" 20 16 false; mkTok 42 "len" 20 20 false; mkTok 43 (string_of_bytes [96; 230; 182; 136; 230; 129; 175; 231; 177; 187; 229; 158; 139; 96]%N) 20 24 false; mkTok 40 "," 21 0 false; mkTok 3 "}" 21 1 false; mkTok 40 "," 21 3 false; mkTok 36 "repeat" 21 5 false; mkTok 42 "calculatedFrom" 21 12 false; mkTok 42 "asx" 22 0 false; mkTok 40 "," 22 4 false; mkTok 36 "repeat" 23 0 false; mkTok 42 "packetx" 23 7 false; mkTok 43 (string_of_bytes [96; 230; 182; 136; 230; 129; 175; 231; 177; 187; 229; 158; 139; 96]%N) 23 15 false; mkTok 40 "," 23 22 false; mkTok 32 "@rightPad" 23 24 false; mkTok 8 "(" 24 0 false; mkTok 33 "'\x00'" 24 2 false; mkTok 6 ")" 24 9 false; mkTok 42 "uint8x" 24 11 false; mkTok 42 "o" 25 0 false; mkTok 40 "," 25 1 false; mkTok 3 "}" 26 0 false; mkTok 0 "<EOF>" 26 1 false] (mkPacket (mkPtok 35 "packet" 2 0 1) (Some (mkPtok 3 "}" 26 0 66)) [(DPacket (mkPacketDef (mkSpan (mkPtok 35 "packet" 2 0 1) (mkPtok 3 "}" 5 5 11)) None (mkPtok 35 "packet" 2 0 1) (mkPtok 42 "metadata" 2 7 2) (mkPtok 2 "{" 2 16 3) [(mkFieldWithAttr (mkSpan (mkPtok 16 "char[]" 2 18 4) (mkPtok 40 "," 5 4 10)) [] (CheckSumField (mkSpan (mkPtok 16 "char[]" 2 18 4) (mkPtok 40 "," 5 4 10)) (mkChecksumFieldDecl (mkSpan (mkPtok 16 "char[]" 2 18 4) (mkPtok 40 "," 5 4 10)) (Some (TyDynamic (mkSpan (mkPtok 16 "char[]" 2 18 4) (mkPtok 16 "char[]" 2 18 4)) (mkDynamicString (mkSpan (mkPtok 16 "char[]" 2 18 4) (mkPtok 16 "char[]" 2 18 4)) (mkPtok 16 "char[]" 2 18 4)))) (mkPtok 42 "repeatCount" 3 0 5) (mkCalculatedFrom (mkSpan (mkPtok 5 "@calculatedFrom(" 3 12 6) (mkPtok 6 ")" 3 37 8)) (mkPtok 5 "@calculatedFrom(" 3 12 6) (mkPtok 31 """CRC32""" 3 29 7) (mkPtok 6 ")" 3 37 8)) None (mkPtok 40 "," 5 4 10))))] (mkPtok 3 "}" 5 5 11))); (DPacket (mkPacketDef (mkSpan (mkPtok 34 "root" 6 0 12) (mkPtok 3 "}" 26 0 66)) (Some (mkPtok 34 "root" 6 0 12)) (mkPtok 35 "packet" 7 0 13) (mkPtok 42 "Logon" 9 4 15) (mkPtok 2 "{" 9 10 16) [(mkFieldWithAttr (mkSpan (mkPtok 9 "@tag(" 10 0 18) (mkPtok 40 "," 14 0 25)) [(FATag (mkSpan (mkPtok 9 "@tag(" 10 0 18) (mkPtok 6 ")" 11 1 20)) (mkTagAttr (mkSpan (mkPtok 9 "@tag(" 10 0 18) (mkPtok 6 ")" 11 1 20)) (mkPtok 9 "@tag(" 10 0 18) (mkPtok 30 "3" 11 0 19) (mkPtok 6 ")" 11 1 20)))] (CheckSumField (mkSpan (mkPtok 42 "leftPad" 12 0 21) (mkPtok 40 "," 14 0 25)) (mkChecksumFieldDecl (mkSpan (mkPtok 42 "leftPad" 12 0 21) (mkPtok 40 "," 14 0 25)) None (mkPtok 42 "leftPad" 12 0 21) (mkCalculatedFrom (mkSpan (mkPtok 5 "@calculatedFrom(" 13 4 22) (mkPtok 6 ")" 13 30 24)) (mkPtok 5 "@calculatedFrom(" 13 4 22) (mkPtok 31 """`tick`""" 13 21 23) (mkPtok 6 ")" 13 30 24)) None (mkPtok 40 "," 14 0 25)))); (mkFieldWithAttr (mkSpan (mkPtok 36 "repeat" 14 2 26) (mkPtok 40 "," 15 11 31)) [] (ObjectField (mkSpan (mkPtok 36 "repeat" 14 2 26) (mkPtok 40 "," 15 11 31)) (Some (mkPtok 36 "repeat" 14 2 26)) (mkPtok 42 "leftPad" 14 9 27) (Some (mkPtok 42 "len" 15 0 29)) (Some (mkPtok 43 "`{ , }`" 15 3 30)) (mkPtok 40 "," 15 11 31))); (mkFieldWithAttr (mkSpan (mkPtok 36 "repeat" 15 12 32) (mkPtok 40 "," 19 2 38)) [] (MetaField (mkSpan (mkPtok 36 "repeat" 15 12 32) (mkPtok 40 "," 19 2 38)) (Some (mkPtok 36 "repeat" 15 12 32)) (mkMetaDecl (mkSpan (mkPtok 15 "string" 18 0 35) (mkPtok 40 "," 19 2 38)) (TyDynamic (mkSpan (mkPtok 15 "string" 18 0 35) (mkPtok 15 "string" 18 0 35)) (mkDynamicString (mkSpan (mkPtok 15 "string" 18 0 35) (mkPtok 15 "string" 18 0 35)) (mkPtok 15 "string" 18 0 35))) (mkPtok 42 "tag" 18 7 36) (Some (mkPtok 43 (string_of_bytes [96; 10; 96]%N) 18 11 37)) (mkPtok 40 "," 19 2 38)))); (mkFieldWithAttr (mkSpan (mkPtok 7 "@lengthOf(" 19 4 39) (mkPtok 40 "," 21 3 50)) [(FALengthOf (mkSpan (mkPtok 7 "@lengthOf(" 19 4 39) (mkPtok 6 ")" 20 7 42)) (mkLengthOf (mkSpan (mkPtok 7 "@lengthOf(" 19 4 39) (mkPtok 6 ")" 20 7 42)) (mkPtok 7 "@lengthOf(" 19 4 39) (mkPtok 42 "Packet" 20 0 41) (mkPtok 6 ")" 20 7 42)))] (InerObjectField (mkSpan (mkPtok 42 "roots" 20 9 43) (mkPtok 40 "," 21 3 50)) None (InerObjectDecl (mkSpan (mkPtok 42 "roots" 20 9 43) (mkPtok 3 "}" 21 1 49)) (mkPtok 42 "roots" 20 9 43) (mkPtok 2 "{" 20 15 44) [(MetaField (mkSpan (mkPtok 26 "i32" 20 16 45) (mkPtok 40 "," 21 0 48)) None (mkMetaDecl (mkSpan (mkPtok 26 "i32" 20 16 45) (mkPtok 40 "," 21 0 48)) (TyBasic (mkSpan (mkPtok 26 "i32" 20 16 45) (mkPtok 26 "i32" 20 16 45)) (mkBasicType (mkSpan (mkPtok 26 "i32" 20 16 45) (mkPtok 26 "i32" 20 16 45)) (mkPtok 26 "i32" 20 16 45))) (mkPtok 42 "len" 20 20 46) (Some (mkPtok 43 (string_of_bytes [96; 230; 182; 136; 230; 129; 175; 231; 177; 187; 229; 158; 139; 96]%N) 20 24 47)) (mkPtok 40 "," 21 0 48)))] (mkPtok 3 "}" 21 1 49)) (mkPtok 40 "," 21 3 50))); (mkFieldWithAttr (mkSpan (mkPtok 36 "repeat" 21 5 51) (mkPtok 40 "," 22 4 54)) [] (ObjectField (mkSpan (mkPtok 36 "repeat" 21 5 51) (mkPtok 40 "," 22 4 54)) (Some (mkPtok 36 "repeat" 21 5 51)) (mkPtok 42 "calculatedFrom" 21 12 52) (Some (mkPtok 42 "asx" 22 0 53)) None (mkPtok 40 "," 22 4 54))); (mkFieldWithAttr (mkSpan (mkPtok 36 "repeat" 23 0 55) (mkPtok 40 "," 23 22 58)) [] (ObjectField (mkSpan (mkPtok 36 "repeat" 23 0 55) (mkPtok 40 "," 23 22 58)) (Some (mkPtok 36 "repeat" 23 0 55)) (mkPtok 42 "packetx" 23 7 56) None (Some (mkPtok 43 (string_of_bytes [96; 230; 182; 136; 230; 129; 175; 231; 177; 187; 229; 158; 139; 96]%N) 23 15 57)) (mkPtok 40 "," 23 22 58))); (mkFieldWithAttr (mkSpan (mkPtok 32 "@rightPad" 23 24 59) (mkPtok 40 "," 25 1 65)) [(FAPadding (mkSpan (mkPtok 32 "@rightPad" 23 24 59) (mkPtok 6 ")" 24 9 62)) (mkPaddingAttr (mkSpan (mkPtok 32 "@rightPad" 23 24 59) (mkPtok 6 ")" 24 9 62)) (mkPtok 32 "@rightPad" 23 24 59) (mkPtok 8 "(" 24 0 60) (Some (mkPtok 33 "'\x00'" 24 2 61)) (mkPtok 6 ")" 24 9 62)))] (ObjectField (mkSpan (mkPtok 42 "uint8x" 24 11 63) (mkPtok 40 "," 25 1 65)) None (mkPtok 42 "uint8x" 24 11 63) (Some (mkPtok 42 "o" 25 0 64)) None (mkPtok 40 "," 25 1 65)))] (mkPtok 3 "}" 26 0 66)))])).
+Eval vm_compute in ("<<<M1578>>>" ++ check (runes_of_ascii "MetaData _x
+    { }packet Header
+{ @rightPad ()  float @calculatedFrom(""1"" )`doc`
+    ,
+Foo
+    { roots
+, } // `tick` ""quote"" 'q'
+, pack Pad	, }")).
+Eval vm_compute in ("<<<M1610>>>" ++ check (runes_of_ascii "root  packet lengthOf { }packet Z9_ { char[
+10 ]	Pad ,	} root packet
+charz { } root packet metadata
+{ @leftPad // `tick` ""quote"" 'q'
+( )char[
+    // a // b
+    00]
+asx `two words`
+    // @lengthOf(
+    ,}")).
+Eval vm_compute in ("<<<M1642>>>" ++ check (runes_of_ascii "MetaData Pad{
+Header A , T BodyLength
+, u32 Header
+    // @lengthOf(
+    `u8 x,`	,
+BodyLength
+uint8x`
+` ,
+i8i8 trueish `u8 x,`
+    // a // b
+    , string
+//
+// " ++ [128512]%N ++ runes_of_ascii " emoji
+o
+    , } root
+    /// triple
+    packet lengthOf//	t
+{ }
+")).
+Eval vm_compute in ("<<<M1674>>>" ++ check (runes_of_ascii "
+packet metadata { char zchar @lengthOf(body ) `// not a comment`	, char[]
+    zchar , // packet A { u8 x, }
+@calculatedFrom( """ ++ [233]%N ++ runes_of_ascii "t" ++ [233]%N ++ runes_of_ascii """	)@tag( 65535 ) string u @lengthOf(
+    // `tick` ""quote"" 'q'
+    i64_ )
+,
+    }
+")).
+Eval vm_compute in ("<<<M1706>>>" ++ check (runes_of_ascii "
+packet packetx// " ++ [27880; 37322]%N ++ runes_of_ascii "
+{
+    repeat
+chars// " ++ [128512]%N ++ runes_of_ascii " emoji
+Logon ,@calculatedFrom( ""packet"")
+float64 crc, repeat Pad zchar `tab	here`
+,@tag(	0123456789 ) roots {tag
+x
+    `tab	here`
+, } ,
+@leftPad ('\x00' ) char[
+007] u128@calculatedFrom( ""`tick`"" ) , @lengthOf( Packet )@rightPad (	) @lengthOf( body
+)
+    i8
+    stringy @calculatedFrom(""CRC32"" ),@calculatedFrom( ""it's""
+) i8 chars , i32 calculatedFrom	@lengthOf( // `tick` ""quote"" 'q'
+x ) `" ++ [28040; 24687; 31867; 22411]%N ++ runes_of_ascii "`,a1 // c
+{ repeat string_ u
+`100% of %d`
+, match
+    matchKey as
+    leftPad { 0
+    :int
+    ,
+255
+// c
+// `tick` ""quote"" 'q'
+:
+    roots
+// packet A { u8 x, }
+//x
+[ ""a\""b""] : // 50% %s
+Logon
+,[ ""it's"",
+    65535 ]
+    :u128 , }// 50% %s
+,
+} ,}
+")).
+Eval vm_compute in ("<<<M1738>>>" ++ check (runes_of_ascii "root
+    /// triple
+    packet rootA{ @tag(
+    10 ) zchar[ 007
+    // `tick` ""quote"" 'q'
+    ] int `line1
+line2` , }
+// " ++ [128512]%N ++ runes_of_ascii " emoji
+//x
+packet asx{
+    repeat
 // " ++ [128512]%N ++ runes_of_ascii " emoji
 //
-packet	int
-// `tick` ""quote"" 'q'
+Z9_ `" ++ [233]%N ++ runes_of_ascii "`,
+}")).
+Eval vm_compute in ("<<<M1770>>>" ++ check (runes_of_ascii "packet charz{ charz { repeat // packet A { u8 x, }
+o
+, }
+    // c
+    , uint8x
+// " ++ [128512]%N ++ runes_of_ascii " emoji
+// " ++ [128512]%N ++ runes_of_ascii " emoji
+repeatCount , repeat string msg_type `tab	here` ,
+    i8 /// triple
+calculatedFrom, }")).
+Eval vm_compute in ("<<<T1770>>>" ++ terms [mkTok 35 "packet" 1 0 false; mkTok 42 "charz" 1 7 false; mkTok 2 "{" 1 12 false; mkTok 42 "charz" 1 14 false; mkTok 2 "{" 1 20 false; mkTok 36 "repeat" 1 22 false; mkTok 44 "// packet A { u8 x, }" 1 29 true; mkTok 42 "o" 2 0 false; mkTok 40 "," 3 0 false; mkTok 3 "}" 3 2 false; mkTok 44 "// c" 4 4 true; mkTok 40 "," 5 4 false; mkTok 42 "uint8x" 5 6 false; mkTok 44 (string_of_bytes [47; 47; 32; 240; 159; 152; 128; 32; 101; 109; 111; 106; 105]%N) 6 0 true; mkTok 44 (string_of_bytes [47; 47; 32; 240; 159; 152; 128; 32; 101; 109; 111; 106; 105]%N) 7 0 true; mkTok 42 "repeatCount" 8 0 false; mkTok 40 "," 8 12 false; mkTok 36 "repeat" 8 14 false; mkTok 15 "string" 8 21 false; mkTok 42 "msg_type" 8 28 false; mkTok 43 (string_of_bytes [96; 116; 97; 98; 9; 104; 101; 114; 101; 96]%N) 8 37 false; mkTok 40 "," 8 48 false; mkTok 24 "i8" 9 4 false; mkTok 44 "/// triple" 9 7 true; mkTok 42 "calculatedFrom" 10 0 false; mkTok 40 "," 10 14 false; mkTok 3 "}" 10 16 false; mkTok 0 "<EOF>" 10 17 false] (mkPacket (mkPtok 35 "packet" 1 0 0) (Some (mkPtok 3 "}" 10 16 26)) [(DPacket (mkPacketDef (mkSpan (mkPtok 35 "packet" 1 0 0) (mkPtok 3 "}" 10 16 26)) None (mkPtok 35 "packet" 1 0 0) (mkPtok 42 "charz" 1 7 1) (mkPtok 2 "{" 1 12 2) [(mkFieldWithAttr (mkSpan (mkPtok 42 "charz" 1 14 3) (mkPtok 40 "," 5 4 11)) [] (InerObjectField (mkSpan (mkPtok 42 "charz" 1 14 3) (mkPtok 40 "," 5 4 11)) None (InerObjectDecl (mkSpan (mkPtok 42 "charz" 1 14 3) (mkPtok 3 "}" 3 2 9)) (mkPtok 42 "charz" 1 14 3) (mkPtok 2 "{" 1 20 4) [(ObjectField (mkSpan (mkPtok 36 "repeat" 1 22 5) (mkPtok 40 "," 3 0 8)) (Some (mkPtok 36 "repeat" 1 22 5)) (mkPtok 42 "o" 2 0 7) None None (mkPtok 40 "," 3 0 8))] (mkPtok 3 "}" 3 2 9)) (mkPtok 40 "," 5 4 11))); (mkFieldWithAttr (mkSpan (mkPtok 42 "uint8x" 5 6 12) (mkPtok 40 "," 8 12 16)) [] (ObjectField (mkSpan (mkPtok 42 "uint8x" 5 6 12) (mkPtok 40 "," 8 12 16)) None (mkPtok 42 "uint8x" 5 6 12) (Some (mkPtok 42 "repeatCount" 8 0 15)) None (mkPtok 40 "," 8 12 16))); (mkFieldWithAttr (mkSpan (mkPtok 36 "repeat" 8 14 17) (mkPtok 40 "," 8 48 21)) [] (MetaField (mkSpan (mkPtok 36 "repeat" 8 14 17) (mkPtok 40 "," 8 48 21)) (Some (mkPtok 36 "repeat" 8 14 17)) (mkMetaDecl (mkSpan (mkPtok 15 "string" 8 21 18) (mkPtok 40 "," 8 48 21)) (TyDynamic (mkSpan (mkPtok 15 "string" 8 21 18) (mkPtok 15 "string" 8 21 18)) (mkDynamicString (mkSpan (mkPtok 15 "string" 8 21 18) (mkPtok 15 "string" 8 21 18)) (mkPtok 15 "string" 8 21 18))) (mkPtok 42 "msg_type" 8 28 19) (Some (mkPtok 43 (string_of_bytes [96; 116; 97; 98; 9; 104; 101; 114; 101; 96]%N) 8 37 20)) (mkPtok 40 "," 8 48 21)))); (mkFieldWithAttr (mkSpan (mkPtok 24 "i8" 9 4 22) (mkPtok 40 "," 10 14 25)) [] (MetaField (mkSpan (mkPtok 24 "i8" 9 4 22) (mkPtok 40 "," 10 14 25)) None (mkMetaDecl (mkSpan (mkPtok 24 "i8" 9 4 22) (mkPtok 40 "," 10 14 25)) (TyBasic (mkSpan (mkPtok 24 "i8" 9 4 22) (mkPtok 24 "i8" 9 4 22)) (mkBasicType (mkSpan (mkPtok 24 "i8" 9 4 22) (mkPtok 24 "i8" 9 4 22)) (mkPtok 24 "i8" 9 4 22))) (mkPtok 42 "calculatedFrom" 10 0 24) None (mkPtok 40 "," 10 14 25))))] (mkPtok 3 "}" 10 16 26)))])).
+Eval vm_compute in ("<<<M1802>>>" ++ check (runes_of_ascii "packet// 50% %s
+options1 { @lengthOf(
+_x
+// " ++ [128512]%N ++ runes_of_ascii " emoji
 //	t
-{ @leftPad
-( '\x00' ) @calculatedFrom(""\n"" ) u16 i64_	,i8 Z9_ , char[ 3 ] calculatedFrom @lengthOf(
-int),	}
+) repeat
+i64_`
+`	, options1 Foo ,@lengthOf( f32a ) // a // b
+zchar[65535]
+_x , MetaDataX
+    repeatCount
+`crlf
+line` , match tag
+    as
+metadata {
+[ ""packet""
+] :	string_ , } , int8 Logon
+    //x
+    `u8 x,` ,
+@lengthOf( charz
+    )
+@rightPad
+(
+'0' // c
+)@tag( 42	)zchar[ /// triple
+4294967296  ] zchar @lengthOf( i64_ ), repeat
+    //x
+    f32a { Pad ,
+}
+    ,@leftPad () repeat x
+Foo ,	repeat
+    u128 trueish , }// `tick` ""quote"" 'q'
+packet Foo {@calculatedFrom( ""a\""b"")	repeat calculatedFrom  {string_ u128 , } ,
+    } packet asx{ @calculatedFrom( ""`tick`"" ) repeat
+i64_ string_  , @calculatedFrom(	""\" ++ [233]%N ++ runes_of_ascii """ )char[
+    //	t
+    1 ]
+    // " ++ [27880; 37322]%N ++ runes_of_ascii "
+    chars@calculatedFrom( """ ++ [28040; 24687]%N ++ runes_of_ascii """ )
+`line1
+line2` , char // @lengthOf(
+matchKey // c
+@lengthOf(
+metadata)
+, // c
+@lengthOf(
+    u128 // 50% %s
+)
+    int16 A,	f32a{
+match i64_ as
+msg_type {
+7 :
+    x
+255
+:
+body , ""abc"" : chars
+    ,} , },
+    } // trailing space ")).
+Eval vm_compute in ("<<<M1834>>>" ++ check (runes_of_ascii "packet MetaDataX {uint64 BodyLength , }
+    packet
+zchar { uint32 options1
+/// triple
+//
+, }")).
+Eval vm_compute in ("<<<M1866>>>" ++ check (runes_of_ascii "
+root packet roots{  repeat i32 falsey , }
+// 50% %s
 ")).
 Eval vm_compute in ("<<<M1898>>>" ++ check (runes_of_ascii "
-packet msg_type { repeat rootA
-,
-@lengthOf(// packet A { u8 x, }
-uint8x )	match u128
-as roots {
-    ""x y""
-    /// triple
-    : // " ++ [27880; 37322]%N ++ runes_of_ascii "
-o
-,[ ""a	b""
-    , 007 ] : //x
-trueish ,
-4294967296
-/// triple
-// a // b
-: Z9_,[42]
-: Pad , 1 :asx , } // " ++ [27880; 37322]%N ++ runes_of_ascii "
-, @tag(
-7 ) @tag( 42
-)
-    @tag( 0
-) u32 x_y_z
-,
-Z9_@lengthOf(
-    x_y_z
-), @lengthOf(
-    Pad ) // @lengthOf(
-uint16 //
-a1 , @calculatedFrom(
-    ""packet"")//x
-string_
-{ uint32
-Logon
-    @calculatedFrom(// c
-""\n"" ) ,  u128 ,x_y_z @lengthOf(
-// packet A { u8 x, }
-// packet A { u8 x, }
-calculatedFrom
-    ) ,} , repeatCount@lengthOf( falsey )
-    `doc`
-    ,
-    string
-o `tab	here`, match
-packetx as MetaDataX	{
-""" ++ [28040; 24687]%N ++ runes_of_ascii """
-:
-// packet A { u8 x, }
-// a // b
-crc	,
-[	7 ,  42 , 00
-,4294967296 ,""it's""
-, 007,""\n"" , ""1"" ] :
-f32a 255: options1
-    [""`tick`"" ]  : x,  65535 // @lengthOf(
-:
-    //	t
-    uint8x ,
-    0123456789
-:stringy ,
-    // trailing space 
-    },
-    } /// triple")).
-Eval vm_compute in ("<<<M1930>>>" ++ check (runes_of_ascii "// " ++ [27880; 37322]%N ++ runes_of_ascii "
-packet x_y_z
-    {
-BodyLength , stringy // trailing space 
-@calculatedFrom( ""1"")
-    , //x
-@tag( 0123456789
-)
-// `tick` ""quote"" 'q'
-// " ++ [27880; 37322]%N ++ runes_of_ascii "
-uint16
-asx
-    // c
-    @lengthOf(
-// " ++ [128512]%N ++ runes_of_ascii " emoji
-// packet A { u8 x, }
-rootA ) ,	tag {zchar[ 007 //x
-]
-crc  @calculatedFrom( ""// no comment"" ) // trailing space 
-`// not a comment` , i32 int
-,match lengthOf as Foo //
-{ [
-// `tick` ""quote"" 'q'
-// c
-""\" ++ [233]%N ++ runes_of_ascii """  , 42 , 4294967296
-/// triple
-// `tick` ""quote"" 'q'
-,  7 ,
-42, ""1""	, """ ++ [28040; 24687]%N ++ runes_of_ascii """,""x y"" ] :metadata , } , // trailing space 
-roots ,
-}
-    ,
-@leftPad// packet A { u8 x, }
-( '\x00' )  repeat
-    char[]
-calculatedFrom, zchar[
-    007  ] body @calculatedFrom(""`tick`"" ) `u8 x,` ,
-repeatCount , @lengthOf( uint8x ) zchar[ 4294967296 ]  i8i8 , @tag(	0) @calculatedFrom( ""CRC32"")
-match trueish as chars/// triple
-{
-    65535 : u128  }
-    ,
-// c
-//x
-}
-    root packet u8x { match charz
-as chars
-    {
-4294967296 :
-    Header[
-""\" ++ [233]%N ++ runes_of_ascii """ , ""a	b""
-,10 ,
-7 ,
-""it's"" ] : Pad// c
-00 : uint8x[	4294967296,
-007 ] : int
-} , } packet Foo {// `tick` ""quote"" 'q'
-zchar As ``
-    ,
-}packet chars{
-    @lengthOf(
-charz ) Packet // " ++ [128512]%N ++ runes_of_ascii " emoji
-`a\` , }")).
+")).
+Eval vm_compute in ("<<<M1930>>>" ++ check (runes_of_ascii "MetaData Header// a // b
+{ // @lengthOf(
+tag
+msg_type ,char[]	packetx
+    , u8x // " ++ [27880; 37322]%N ++ runes_of_ascii "
+_x , // " ++ [128512]%N ++ runes_of_ascii " emoji
+}packet repeatCount { }")).
 Eval vm_compute in ("<<<M1962>>>" ++ check (runes_of_ascii "
-")).
-Eval vm_compute in ("<<<M1994>>>" ++ check (runes_of_ascii "// packet A { u8 x, }
- // `tick` ""quote"" 'q'")).
-Eval vm_compute in ("<<<T1994>>>" ++ terms [mkTok 44 "// packet A { u8 x, }" 1 0 true; mkTok 44 "// `tick` ""quote"" 'q'" 2 1 true; mkTok 0 "<EOF>" 2 22 false] (mkPacket (mkPtok 0 "<EOF>" 2 22 2) None [])).
-Eval vm_compute in ("<<<M2026>>>" ++ check (runes_of_ascii "options{ i64_ string = ; trueish =
-    '\x00'
-    leftPad = ""a\\"" /// triple
-; crc
-    = 255; uint8x
-=
-""abc""
-    ;}")).
-Eval vm_compute in ("<<<M2058>>>" ++ check (runes_of_ascii "options{ i64_ = string ; trueish =
-    '\x00'")).
-Eval vm_compute in ("<<<M2090>>>" ++ check (runes_of_ascii "options{ i64_ = string ; trueish =
-    '\x00'
-    leftPad = ""a\\"" /// triple
-; crc
-    = 255; ; uint8x
-=
-""abc""
-    ;}")).
-Eval vm_compute in ("<<<M2122>>>" ++ check (runes_of_ascii "options{ i64_ ")).
-Eval vm_compute in ("<<<M2154>>>" ++ check (runes_of_ascii "  packet
-asx")).
-Eval vm_compute in ("<<<M2186>>>" ++ check (runes_of_ascii "  packet
-asx
-{
-/// triple
-// @lengthOf(
-u32 stringy
-`" ++ [28040; 24687; 31867; 22411]%N ++ runes_of_ascii "` ,} MetaData
-    A A {string  _x, zchar Header `a\`
-// @lengthOf(
-// packet A { u8 x, }
-, char[] MetaDataX
-,zchar[ 1 ]
-    matchKey
-    , char[] //
-u,	char[0123456789 ]
-    matchKey
-    `{ , }`, }
-")).
-Eval vm_compute in ("<<<M2218>>>" ++ check (runes_of_ascii "  packet
-asx
-{
-/// triple
-// @lengthOf(
-u32 stringy
-`" ++ [28040; 24687; 31867; 22411]%N ++ runes_of_ascii "` ,} MetaData
-    A {string  _x, zchar @tag( `a\`
-// @lengthOf(
-// packet A { u8 x, }
-, char[] MetaDataX
-,zchar[ 1 ]
-    matchKey
-    , char[] //
-u,	char[0123456789 ]
-    matchKey
-    `{ , }`, }
-")).
-Eval vm_compute in ("<<<M2250>>>" ++ check (runes_of_ascii "  packet
-asx
-{
-/// triple
-// @lengthOf(
-u32 stringy
-`" ++ [28040; 24687; 31867; 22411]%N ++ runes_of_ascii "` ,} MetaData
-    A {string  _x, zchar Header `a\`
-// @lengthOf(
-// packet A { u8 x, }
-, char[] MetaDataX
-,zchar[  ]
-    matchKey
-    , char[] //
-u,	char[0123456789 ]
-    matchKey
-    `{ , }`, }
-")).
-Eval vm_compute in ("<<<M2282>>>" ++ check (runes_of_ascii "  packet
-asx
-{
-/// triple
-// @lengthOf(
-u32 stringy
-`" ++ [28040; 24687; 31867; 22411]%N ++ runes_of_ascii "` ,} MetaData
-    A {string  _x, zchar Header `a\`
-// @lengthOf(
-// packet A { u8 x, }
-, char[] MetaDataX
-,zchar[ 1 ]
-    matchKey
-    , char[] //
-u char[	,0123456789 ]
-    matchKey
-    `{ , }`, }
-")).
-Eval vm_compute in ("<<<M2314>>>" ++ check (runes_of_ascii "  packet
-asx
-{
-/// triple
-// @lengthOf(
-u32 stringy
-`" ++ [28040; 24687; 31867; 22411]%N ++ runes_of_ascii "` ,} MetaData
-    A {string  _x, zchar Header `a\`
-// @lengthOf(
-// packet A { u8 x, }
-, char[] MetaDataX
-,zchar[ 1 ]
-    matchKey
-    , char[] //
-u,	char[0123456789 ]
-    matchKey
-    `{ , }`")).
-Eval vm_compute in ("<<<M2346>>>" ++ check (runes_of_ascii "root
-    
-Packet
-{ // trailing space 
-matchKey `tab	here` ,}")).
-Eval vm_compute in ("<<<M2378>>>" ++ check (runes_of_ascii "root
-    packet
-Packet
-{ // trailing space 
-matchKey `tab	here` ,zchar[")).
-Eval vm_compute in ("<<<M2410>>>" ++ check (runes_of_ascii "options f32 falsey // a // b
-=
-    '0' } options { repeatCount =
-true ; string_// a // b
-=
+MetaData
+tag {
+    trueish packetx`two words`, int metadata ,
+// 50% %s
 // c
+options1 chars ,
+    i32
+    T
+, _x int ,
+} packet BodyLength {
+a1 `two words` ,  } packet
+    x
+{ char[ 1]
+T // c
+@lengthOf( leftPad
+    )
+,@calculatedFrom(""a\\""
+)	u64 zchar
 // " ++ [27880; 37322]%N ++ runes_of_ascii "
-int64
-// trailing space 
-/// triple
-; } // @lengthOf(")).
-Eval vm_compute in ("<<<M2442>>>" ++ check (runes_of_ascii "options{ falsey // a // b
-=
-    '0' } options {  =
-true ; string_// a // b
-=
-// c
-// " ++ [27880; 37322]%N ++ runes_of_ascii "
-int64
-// trailing space 
-/// triple
-; } // @lengthOf(")).
-Eval vm_compute in ("<<<M2474>>>" ++ check (runes_of_ascii "options{ falsey // a // b
-=
-    '0' } options { repeatCount =
-true ; string_// a // b
-=
-// c
-// " ++ [27880; 37322]%N ++ runes_of_ascii "
+// `tick` ""quote"" 'q'
+@calculatedFrom(
+    ""a	b"" ) ,}
+//	t
+")).
+Eval vm_compute in ("<<<M1994>>>" ++ check (runes_of_ascii "options	{
+tag
+= string u8x =""abc"" tag
+    = i8
+;  } root packet options1 {int16	string_
+    @calculatedFrom( ""CRC32"")`it's` ,
+    }
+    packet roots{	}
+packet
+    u8x {
+    @calculatedFrom( """ ++ [233]%N ++ runes_of_ascii "t" ++ [233]%N ++ runes_of_ascii """  )// " ++ [27880; 37322]%N ++ runes_of_ascii "
+float32  Pad `
+` ,	}")).
+Eval vm_compute in ("<<<T1994>>>" ++ terms [mkTok 1 "options" 1 0 false; mkTok 2 "{" 1 8 false; mkTok 42 "tag" 2 0 false; mkTok 4 "=" 3 0 false; mkTok 15 "string" 3 2 false; mkTok 42 "u8x" 3 9 false; mkTok 4 "=" 3 13 false; mkTok 31 """abc""" 3 14 false; mkTok 42 "tag" 3 20 false; mkTok 4 "=" 4 4 false; mkTok 24 "i8" 4 6 false; mkTok 41 ";" 5 0 false; mkTok 3 "}" 5 3 false; mkTok 34 "root" 5 5 false; mkTok 35 "packet" 5 10 false; mkTok 42 "options1" 5 17 false; mkTok 2 "{" 5 26 false; mkTok 25 "int16" 5 27 false; mkTok 42 "string_" 5 33 false; mkTok 5 "@calculatedFrom(" 6 4 false; mkTok 31 """CRC32""" 6 21 false; mkTok 6 ")" 6 28 false; mkTok 43 "`it's`" 6 29 false; mkTok 40 "," 6 36 false; mkTok 3 "}" 7 4 false; mkTok 35 "packet" 8 4 false; mkTok 42 "roots" 8 11 false; mkTok 2 "{" 8 16 false; mkTok 3 "}" 8 18 false; mkTok 35 "packet" 9 0 false; mkTok 42 "u8x" 10 4 false; mkTok 2 "{" 10 8 false; mkTok 5 "@calculatedFrom(" 11 4 false; mkTok 31 (string_of_bytes [34; 195; 169; 116; 195; 169; 34]%N) 11 21 false; mkTok 6 ")" 11 28 false; mkTok 44 (string_of_bytes [47; 47; 32; 230; 179; 168; 233; 135; 138]%N) 11 29 true; mkTok 28 "float32" 12 0 false; mkTok 42 "Pad" 12 9 false; mkTok 43 (string_of_bytes [96; 10; 96]%N) 12 13 false; mkTok 40 "," 13 2 false; mkTok 3 "}" 13 4 false; mkTok 0 "<EOF>" 13 5 false] (mkPacket (mkPtok 1 "options" 1 0 0) (Some (mkPtok 3 "}" 13 4 40)) [(DOption (mkOptionDef (mkSpan (mkPtok 1 "options" 1 0 0) (mkPtok 3 "}" 5 3 12)) (mkPtok 1 "options" 1 0 0) (mkPtok 2 "{" 1 8 1) [(mkOptionDecl (mkSpan (mkPtok 42 "tag" 2 0 2) (mkPtok 15 "string" 3 2 4)) (mkPtok 42 "tag" 2 0 2) (mkPtok 4 "=" 3 0 3) (VType (mkSpan (mkPtok 15 "string" 3 2 4) (mkPtok 15 "string" 3 2 4)) (TyDynamic (mkSpan (mkPtok 15 "string" 3 2 4) (mkPtok 15 "string" 3 2 4)) (mkDynamicString (mkSpan (mkPtok 15 "string" 3 2 4) (mkPtok 15 "string" 3 2 4)) (mkPtok 15 "string" 3 2 4)))) None); (mkOptionDecl (mkSpan (mkPtok 42 "u8x" 3 9 5) (mkPtok 31 """abc""" 3 14 7)) (mkPtok 42 "u8x" 3 9 5) (mkPtok 4 "=" 3 13 6) (VString (mkSpan (mkPtok 31 """abc""" 3 14 7) (mkPtok 31 """abc""" 3 14 7)) (mkPtok 31 """abc""" 3 14 7)) None); (mkOptionDecl (mkSpan (mkPtok 42 "tag" 3 20 8) (mkPtok 41 ";" 5 0 11)) (mkPtok 42 "tag" 3 20 8) (mkPtok 4 "=" 4 4 9) (VType (mkSpan (mkPtok 24 "i8" 4 6 10) (mkPtok 24 "i8" 4 6 10)) (TyBasic (mkSpan (mkPtok 24 "i8" 4 6 10) (mkPtok 24 "i8" 4 6 10)) (mkBasicType (mkSpan (mkPtok 24 "i8" 4 6 10) (mkPtok 24 "i8" 4 6 10)) (mkPtok 24 "i8" 4 6 10)))) (Some (mkPtok 41 ";" 5 0 11)))] (mkPtok 3 "}" 5 3 12))); (DPacket (mkPacketDef (mkSpan (mkPtok 34 "root" 5 5 13) (mkPtok 3 "}" 7 4 24)) (Some (mkPtok 34 "root" 5 5 13)) (mkPtok 35 "packet" 5 10 14) (mkPtok 42 "options1" 5 17 15) (mkPtok 2 "{" 5 26 16) [(mkFieldWithAttr (mkSpan (mkPtok 25 "int16" 5 27 17) (mkPtok 40 "," 6 36 23)) [] (CheckSumField (mkSpan (mkPtok 25 "int16" 5 27 17) (mkPtok 40 "," 6 36 23)) (mkChecksumFieldDecl (mkSpan (mkPtok 25 "int16" 5 27 17) (mkPtok 40 "," 6 36 23)) (Some (TyBasic (mkSpan (mkPtok 25 "int16" 5 27 17) (mkPtok 25 "int16" 5 27 17)) (mkBasicType (mkSpan (mkPtok 25 "int16" 5 27 17) (mkPtok 25 "int16" 5 27 17)) (mkPtok 25 "int16" 5 27 17)))) (mkPtok 42 "string_" 5 33 18) (mkCalculatedFrom (mkSpan (mkPtok 5 "@calculatedFrom(" 6 4 19) (mkPtok 6 ")" 6 28 21)) (mkPtok 5 "@calculatedFrom(" 6 4 19) (mkPtok 31 """CRC32""" 6 21 20) (mkPtok 6 ")" 6 28 21)) (Some (mkPtok 43 "`it's`" 6 29 22)) (mkPtok 40 "," 6 36 23))))] (mkPtok 3 "}" 7 4 24))); (DPacket (mkPacketDef (mkSpan (mkPtok 35 "packet" 8 4 25) (mkPtok 3 "}" 8 18 28)) None (mkPtok 35 "packet" 8 4 25) (mkPtok 42 "roots" 8 11 26) (mkPtok 2 "{" 8 16 27) [] (mkPtok 3 "}" 8 18 28))); (DPacket (mkPacketDef (mkSpan (mkPtok 35 "packet" 9 0 29) (mkPtok 3 "}" 13 4 40)) None (mkPtok 35 "packet" 9 0 29) (mkPtok 42 "u8x" 10 4 30) (mkPtok 2 "{" 10 8 31) [(mkFieldWithAttr (mkSpan (mkPtok 5 "@calculatedFrom(" 11 4 32) (mkPtok 40 "," 13 2 39)) [(FACalculatedFrom (mkSpan (mkPtok 5 "@calculatedFrom(" 11 4 32) (mkPtok 6 ")" 11 28 34)) (mkCalculatedFrom (mkSpan (mkPtok 5 "@calculatedFrom(" 11 4 32) (mkPtok 6 ")" 11 28 34)) (mkPtok 5 "@calculatedFrom(" 11 4 32) (mkPtok 31 (string_of_bytes [34; 195; 169; 116; 195; 169; 34]%N) 11 21 33) (mkPtok 6 ")" 11 28 34)))] (MetaField (mkSpan (mkPtok 28 "float32" 12 0 36) (mkPtok 40 "," 13 2 39)) None (mkMetaDecl (mkSpan (mkPtok 28 "float32" 12 0 36) (mkPtok 40 "," 13 2 39)) (TyBasic (mkSpan (mkPtok 28 "float32" 12 0 36) (mkPtok 28 "float32" 12 0 36)) (mkBasicType (mkSpan (mkPtok 28 "float32" 12 0 36) (mkPtok 28 "float32" 12 0 36)) (mkPtok 28 "float32" 12 0 36))) (mkPtok 42 "Pad" 12 9 37) (Some (mkPtok 43 (string_of_bytes [96; 10; 96]%N) 12 13 38)) (mkPtok 40 "," 13 2 39))))] (mkPtok 3 "}" 13 4 40)))])).
+Eval vm_compute in ("<<<M2026>>>" ++ check (runes_of_ascii "MetaData repeatCount { packetx float64,
+} root packet  metadata {
+char _x @lengthOf( trueish ), @leftPad
+( ' '// " ++ [27880; 37322]%N ++ runes_of_ascii "
+)/// triple
+char[] len`doc` , // packet A { u8 x, }
+repeatCount , }
+")).
+Eval vm_compute in ("<<<M2058>>>" ++ check (runes_of_ascii "MetaData repeatCount { float64 packetx,
+} root packet")).
+Eval vm_compute in ("<<<M2090>>>" ++ check (runes_of_ascii "MetaData repeatCount { float64 packetx,
+} root packet  metadata {
+char _x @lengthOf( trueish ), , @leftPad
+( ' '// " ++ [27880; 37322]%N ++ runes_of_ascii "
+)/// triple
+char[] len`doc` , // packet A { u8 x, }
+repeatCount , }
+")).
+Eval vm_compute in ("<<<M2122>>>" ++ check (runes_of_ascii "MetaData repeatCount { float64 packetx,
+} root packet  metadata {
+char _x @lengthOf( trueish ), @leftPad
+( ' '// " ++ [27880; 37322]%N ++ runes_of_ascii "
+)/// triple
+char[] int32`doc` , // packet A { u8 x, }
+repeatCount , }
+")).
+Eval vm_compute in ("<<<M2154>>>" ++ check (runes_of_ascii "MetaData repeatCount { float64 packetx,
+} root packet  metadata {
+char _x @lengthOf( trueish ), @leftPad
+( ' '// " ++ [27880; 37322]%N ++ runes_of_ascii "
+)/// triple
+char[] len`doc` , /?/ packet A { u8 x, }
+repeatCount , }
+")).
+Eval vm_compute in ("<<<M2186>>>" ++ check (runes_of_ascii "options{
+leftPad
+    = =65535
 ;
-// trailing space 
-/// triple
-int64 } // @lengthOf(")).
-Eval vm_compute in ("<<<M2506>>>" ++ check (runes_of_ascii "options{ " ++ [21517; 23383]%N ++ runes_of_ascii " // a // b
-=
-    '0' } options { repeatCount =
-true ; string_// a // b
-=
-// c
-// " ++ [27880; 37322]%N ++ runes_of_ascii "
-int64
-// trailing space 
-/// triple
-; } // @lengthOf(")).
-Eval vm_compute in ("<<<M2538>>>" ++ check (runes_of_ascii "options{}root packet
-metadata 
-@lengthOf(x ) float32
-body ``, }
-    MetaData
-Z9_
-    {
-    string string_ , Logon x
-,
-uint32
-    // packet A { u8 x, }
-    Z9_,asx
-_x
-    `tab	here` , }
+a1 = true ; packetx=  '\x00' ; packetx
+=  """ ++ [28040; 24687]%N ++ runes_of_ascii """MetaDataX= // " ++ [27880; 37322]%N ++ runes_of_ascii "
+false }root // c
+packet // packet A { u8 x, }
+Pad { repeat
+u8 Header
+// packet A { u8 x, }
+//	t
+`{ , }`
+// a // b
+//x
+, }
 ")).
-Eval vm_compute in ("<<<M2570>>>" ++ check (runes_of_ascii "options{}root packet
-metadata {
-@lengthOf(x ) float32
-body ,`` }
-    MetaData
-Z9_
-    {
-    string string_ , Logon x
-,
-uint32
-    // packet A { u8 x, }
-    Z9_,asx
-_x
-    `tab	here` , }
+Eval vm_compute in ("<<<M2218>>>" ++ check (runes_of_ascii "options{
+leftPad
+    =65535
+;
+a1 = true uint32 packetx=  '\x00' ; packetx
+=  """ ++ [28040; 24687]%N ++ runes_of_ascii """MetaDataX= // " ++ [27880; 37322]%N ++ runes_of_ascii "
+false }root // c
+packet // packet A { u8 x, }
+Pad { repeat
+u8 Header
+// packet A { u8 x, }
+//	t
+`{ , }`
+// a // b
+//x
+, }
 ")).
-Eval vm_compute in ("<<<M2602>>>" ++ check (runes_of_ascii "options{}root packet
-metadata {
-@lengthOf(x ) float32
-body ``, }
-    MetaData
-Z9_
-    {")).
-Eval vm_compute in ("<<<M2634>>>" ++ check (runes_of_ascii "options{}root packet
-metadata {
-@lengthOf(x ) float32
-body ``, }
-    MetaData
-Z9_
-    {
-    string string_ , Logon x
-,
-uint32
-    // packet A { u8 x, }
-    Z9_ Z9_,asx
-_x
-    `tab	here` , }
+Eval vm_compute in ("<<<M2250>>>" ++ check (runes_of_ascii "options{
+leftPad
+    =65535
+;
+a1 = true ; packetx=  '\x00' ; packetx
+=  MetaDataX= // " ++ [27880; 37322]%N ++ runes_of_ascii "
+false }root // c
+packet // packet A { u8 x, }
+Pad { repeat
+u8 Header
+// packet A { u8 x, }
+//	t
+`{ , }`
+// a // b
+//x
+, }
 ")).
-Eval vm_compute in ("<<<M2666>>>" ++ check (runes_of_ascii "options{}root packet
-metadata {
-@lengthOf(x ) float32
-body ``, }
-    MetaData
-Z9_
-    {
-    string string_ , Logon x
-,
-uint32
-    // packet A { u8 x, }
-    Z9_,asx
-_x
-    `tab	here` ,")).
-Eval vm_compute in ("<<<M2698>>>" ++ check (runes_of_ascii "options")).
-Eval vm_compute in ("<<<M2730>>>" ++ check (runes_of_ascii "options {
-    falsey=
-""a\\"" ; }| ")).
-Eval vm_compute in ("<<<M2762>>>" ++ check (runes_of_ascii "MetaData f32a
-{
-    //	t
-    root}
-    packet tag  {
+Eval vm_compute in ("<<<M2282>>>" ++ check (runes_of_ascii "options{
+leftPad
+    =65535
+;
+a1 = true ; packetx=  '\x00' ; packetx
+=  """ ++ [28040; 24687]%N ++ runes_of_ascii """MetaDataX= // " ++ [27880; 37322]%N ++ runes_of_ascii "
+false }root // c
+Pad // packet A { u8 x, }
+packet { repeat
+u8 Header
+// packet A { u8 x, }
+//	t
+`{ , }`
+// a // b
+//x
+, }
+")).
+Eval vm_compute in ("<<<M2314>>>" ++ check (runes_of_ascii "options{
+leftPad
+    =65535
+;
+a1 = true ; packetx=  '\x00' ; packetx
+=  """ ++ [28040; 24687]%N ++ runes_of_ascii """MetaDataX= // " ++ [27880; 37322]%N ++ runes_of_ascii "
+false }root // c
+packet // packet A { u8 x, }
+Pad { repeat
+u8 Header")).
+Eval vm_compute in ("<<<M2346>>>" ++ check (runes_of_ascii "
+ float
+{	@calculatedFrom( """ ++ [233]%N ++ runes_of_ascii "t" ++ [233]%N ++ runes_of_ascii """ )
+@rightPad ( '\x00' )
+    @calculatedFrom( ""x y"" ) string chars  ,
+    // a // b
+    char[0 ]
+    u	@lengthOf( i8i8 ) `{ , }` ,repeat char[] o //x
+`// not a comment`, } // c")).
+Eval vm_compute in ("<<<M2378>>>" ++ check (runes_of_ascii "
+packet float
+{	@calculatedFrom( """ ++ [233]%N ++ runes_of_ascii "t" ++ [233]%N ++ runes_of_ascii """ )
+( @rightPad '\x00' )
+    @calculatedFrom( ""x y"" ) string chars  ,
+    // a // b
+    char[0 ]
+    u	@lengthOf( i8i8 ) `{ , }` ,repeat char[] o //x
+`// not a comment`, } // c")).
+Eval vm_compute in ("<<<M2410>>>" ++ check (runes_of_ascii "
+packet float
+{	@calculatedFrom( """ ++ [233]%N ++ runes_of_ascii "t" ++ [233]%N ++ runes_of_ascii """ )
+@rightPad ( '\x00' )
+    @calculatedFrom( ""x y""")).
+Eval vm_compute in ("<<<M2442>>>" ++ check (runes_of_ascii "
+packet float
+{	@calculatedFrom( """ ++ [233]%N ++ runes_of_ascii "t" ++ [233]%N ++ runes_of_ascii """ )
+@rightPad ( '\x00' )
+    @calculatedFrom( ""x y"" ) string chars  ,
+    // a // b
+    char[0 ]
+    u u	@lengthOf( i8i8 ) `{ , }` ,repeat char[] o //x
+`// not a comment`, } // c")).
+Eval vm_compute in ("<<<M2474>>>" ++ check (runes_of_ascii "
+packet float
+{	@calculatedFrom( """ ++ [233]%N ++ runes_of_ascii "t" ++ [233]%N ++ runes_of_ascii """ )
+@rightPad ( '\x00' )
+    @calculatedFrom( ""x y"" ) string chars  ,
+    // a // b
+    char[0 ]
+    u	@lengthOf( i8i8 ) `{ , }` ,uint16 char[] o //x
+`// not a comment`, } // c")).
+Eval vm_compute in ("<<<M2506>>>" ++ check (runes_of_ascii "
+packet float
+{	@calculatedFrom( """ ++ [233]%N ++ runes_of_ascii "t" ++ [233]%N ++ runes_of_ascii """ )
+@rig@taghtPad ( '\x00' )
+    @calculatedFrom( ""x y"" ) string chars  ,
+    // a // b
+    char[0 ]
+    u	@lengthOf( i8i8 ) `{ , }` ,repeat char[] o //x
+`// not a comment`, } // c")).
+Eval vm_compute in ("<<<M2538>>>" ++ check (runes_of_ascii "root packet u128{ {
+    repeat
+    zchar[ 65535 ] u `" ++ [28040; 24687; 31867; 22411]%N ++ runes_of_ascii "` ,// `tick` ""quote"" 'q'
+} packet i64_ {repeatCount
+    `
+` ,	} // " ++ [128512]%N ++ runes_of_ascii " emoji")).
+Eval vm_compute in ("<<<M2570>>>" ++ check (runes_of_ascii "root packet u128{
+    repeat
+    zchar[ 65535 ] u ; ,// `tick` ""quote"" 'q'
+} packet i64_ {repeatCount
+    `
+` ,	} // " ++ [128512]%N ++ runes_of_ascii " emoji")).
+Eval vm_compute in ("<<<M2602>>>" ++ check (runes_of_ascii "root packet u128{
+    repeat
+    zchar[ 65535 ] u `" ++ [28040; 24687; 31867; 22411]%N ++ runes_of_ascii "` ,// `tick` ""quote"" 'q'
+} packet i64_ {repeatCount
+     ,	} // " ++ [128512]%N ++ runes_of_ascii " emoji")).
+Eval vm_compute in ("<<<M2634>>>" ++ check (runes_of_ascii "root packet u128{
+    repeat" ++ [233]%N ++ runes_of_ascii "
+    zchar[ 65535 ] u `" ++ [28040; 24687; 31867; 22411]%N ++ runes_of_ascii "` ,// `tick` ""quote"" 'q'
+} packet i64_ {repeatCount
+    `
+` ,	} // " ++ [128512]%N ++ runes_of_ascii " emoji")).
+Eval vm_compute in ("<<<M2666>>>" ++ check (runes_of_ascii "
+MetaData
+roots { int8
+    BodyLength match//	t
 }
 ")).
-Eval vm_compute in ("<<<M2794>>>" ++ check (runes_of_ascii "'1'MetaData f32a
-{
-    //	t
-    }root
-    packet tag  {
-}
-")).
+Eval vm_compute in ("<<<M2698>>>" ++ check (@nil rune)).
+Eval vm_compute in ("<<<M2730>>>" ++ check (runes_of_ascii "options {Packet = ""CRC32""i8i8 = false false; leftPad =
+    '\x00'
+    // `tick` ""quote"" 'q'
+    ; o=255  ;
+    // packet A { u8 x, }
+    }")).
+Eval vm_compute in ("<<<M2762>>>" ++ check (runes_of_ascii "options {Packet = ""CRC32""i8i8 = false; leftPad =
+    '\x00'
+    // `tick` ""quote"" 'q'
+    ; int16=255  ;
+    // packet A { u8 x, }
+    }")).
+Eval vm_compute in ("<<<M2794>>>" ++ check (runes_of_ascii "options {Packet = ""CRC32""i8i8 = false; leftPad =
+    '\x00'
+    // `tick` ""quote"" 'q'
+    ; o''=255  ;
+    // packet A { u8 x, }
+    }")).
 Eval vm_compute in ("<<<M2826>>>" ++ check (runes_of_ascii "
-options
-    {msg_type 
-    float32  }root
-packet Z9_{ char /// triple
-crc @lengthOf(
-options1 ) //
-,} MetaData a1{}
-")).
+packet metadata { @rightPad ( (
+    // packet A { u8 x, }
+    ' ' ) repeat u32	A
+,matchKey ,
+    @lengthOf( string_ ) @lengthOf( body )
+    // a // b
+    @lengthOf(float  )	repeat
+int32 u8x
+    // c
+    `tab	here`
+, } // a // b")).
 Eval vm_compute in ("<<<M2858>>>" ++ check (runes_of_ascii "
-options
-    {msg_type =
-    float32  }root
-packet Z9_ char { /// triple
-crc @lengthOf(
-options1 ) //
-,} MetaData a1{}
-")).
+packet metadata { @rightPad (
+    // packet A { u8 x, }
+    ' ' ) repeat u32	A
+'0'matchKey ,
+    @lengthOf( string_ ) @lengthOf( body )
+    // a // b
+    @lengthOf(float  )	repeat
+int32 u8x
+    // c
+    `tab	here`
+, } // a // b")).
 Eval vm_compute in ("<<<M2890>>>" ++ check (runes_of_ascii "
-options
-    {msg_type =
-    float32  }root
-packet Z9_{ char /// triple
-crc @lengthOf(
-options1 )")).
+packet metadata { @rightPad (
+    // packet A { u8 x, }
+    ' ' ) repeat u32	A
+,matchKey ,
+    @lengthOf( string_ ) @lengthOf(  )
+    // a // b
+    @lengthOf(float  )	repeat
+int32 u8x
+    // c
+    `tab	here`
+, } // a // b")).
 Eval vm_compute in ("<<<M2922>>>" ++ check (runes_of_ascii "
-/ options
-    {msg_type =
-    float32  }root
-packet Z9_{ char /// triple
-crc @lengthOf(
-options1 ) //
-,} MetaData a1{}
+packet metadata { @rightPad (
+    // packet A { u8 x, }
+    ' ' ) repeat u32	A
+,matchKey ,
+    @lengthOf( string_ ) @lengthOf( body )
+    // a // b
+    @lengthOf(float  )	repeat
+u8x int32
+    // c
+    `tab	here`
+, } // a // b")).
+Eval vm_compute in ("<<<M2954>>>" ++ check (runes_of_ascii "
+packet metadata { @rightPad (
+    // packet A { u8 x, }
+    ' ' ) repeat u32	A
+,matchKey ,
+    @lengthOf( string_ ) @lengthOf( body )
+    // a // b
+    @len'1'gthOf(float  )	repeat
+int32 u8x
+    // c
+    `tab	here`
+, } // a // b")).
+Eval vm_compute in ("<<<M2986>>>" ++ check (runes_of_ascii "packet x{
+string
+ , //	t
+}
 ")).
-Eval vm_compute in ("<<<M2954>>>" ++ check (runes_of_ascii "packet crc{ // " ++ [128512]%N ++ runes_of_ascii " emoji
-string repeat i8i8
-`a\`, }
+Eval vm_compute in ("<<<M3018>>>" ++ check (runes_of_ascii "pa`cket x{
+string
+zchar , //	t
+}
 ")).
-Eval vm_compute in ("<<<M2986>>>" ++ check (runes_of_ascii "packet crc{ // " ++ [128512]%N ++ runes_of_ascii " emoji
-repeat string i8i8
-`a\``, }
-")).
-Eval vm_compute in ("<<<M3018>>>" ++ check (runes_of_ascii "packet BodyLength { MetaData zchar{ zchar[// @lengthOf(
-42 ]
-    pack , string_
-A , char[]crc , _x trueish ,
-// " ++ [27880; 37322]%N ++ runes_of_ascii "
-// " ++ [128512]%N ++ runes_of_ascii " emoji
-zchar[
-    3 ]	T // trailing space 
-, } packet body
+Eval vm_compute in ("<<<M3050>>>" ++ check (runes_of_ascii "
+MetaData Logon
+{ // c
+}root true
+    Pad {
+    } options
 {
-    }
-")).
-Eval vm_compute in ("<<<M3050>>>" ++ check (runes_of_ascii "packet BodyLength {} MetaData zchar{ zchar[// @lengthOf(
-42 pack
-    ] , string_
-A , char[]crc , _x trueish ,
-// " ++ [27880; 37322]%N ++ runes_of_ascii "
-// " ++ [128512]%N ++ runes_of_ascii " emoji
-zchar[
-    3 ]	T // trailing space 
-, } packet body
+u
+    =
+    ""CRC32""
+    // " ++ [128512]%N ++ runes_of_ascii " emoji
+    i64_ = u16;
+T =65535 x = ' '
+    ; u128
+= true ; }")).
+Eval vm_compute in ("<<<M3082>>>" ++ check (runes_of_ascii "
+MetaData Logon
+{ // c
+}root packet
+    Pad {
+    } options
 {
-    }
-")).
-Eval vm_compute in ("<<<M3082>>>" ++ check (runes_of_ascii "packet BodyLength {} MetaData zchar{ zchar[// @lengthOf(
-42 ]
-    pack , string_
-A ,")).
-Eval vm_compute in ("<<<M3114>>>" ++ check (runes_of_ascii "packet BodyLength {} MetaData zchar{ zchar[// @lengthOf(
-42 ]
-    pack , string_
-A , char[]crc , _x trueish ,
-// " ++ [27880; 37322]%N ++ runes_of_ascii "
-// " ++ [128512]%N ++ runes_of_ascii " emoji
-zchar[
-    3 3 ]	T // trailing space 
-, } packet body
+u
+    
+    ""CRC32""
+    // " ++ [128512]%N ++ runes_of_ascii " emoji
+    i64_ = u16;
+T =65535 x = ' '
+    ; u128
+= true ; }")).
+Eval vm_compute in ("<<<M3114>>>" ++ check (runes_of_ascii "
+MetaData Logon
+{ // c
+}root packet
+    Pad {
+    } options
 {
-    }
-")).
-Eval vm_compute in ("<<<M3146>>>" ++ check (runes_of_ascii "packet BodyLength {} MetaData zchar{ zchar[// @lengthOf(
-42 ]
-    pack , string_
-A , char[]crc , _x trueish ,
-// " ++ [27880; 37322]%N ++ runes_of_ascii "
-// " ++ [128512]%N ++ runes_of_ascii " emoji
-zchar[
-    3 ]	T // trailing space 
-, } packet int8
+u
+    =
+    ""CRC32""
+    // " ++ [128512]%N ++ runes_of_ascii " emoji
+    i64_ = u16;
+= T 65535 x = ' '
+    ; u128
+= true ; }")).
+Eval vm_compute in ("<<<M3146>>>" ++ check (runes_of_ascii "
+MetaData Logon
+{ // c
+}root packet
+    Pad {
+    } options
 {
-    }
-")).
-Eval vm_compute in ("<<<M3178>>>" ++ check (runes_of_ascii "packet BodyLength {} MetaData " ++ [21517; 23383]%N ++ runes_of_ascii "{ zchar[// @lengthOf(
-42 ]
-    pack , string_
-A , char[]crc , _x trueish ,
-// " ++ [27880; 37322]%N ++ runes_of_ascii "
-// " ++ [128512]%N ++ runes_of_ascii " emoji
-zchar[
-    3 ]	T // trailing space 
-, } packet body
+u
+    =
+    ""CRC32""
+    // " ++ [128512]%N ++ runes_of_ascii " emoji
+    i64_ = u16;
+T =65535 x = ' '")).
+Eval vm_compute in ("<<<M3178>>>" ++ check (runes_of_ascii "
+| MetaData Logon
+{ // c
+}root packet
+    Pad {
+    } options
 {
-    }
+u
+    =
+    ""CRC32""
+    // " ++ [128512]%N ++ runes_of_ascii " emoji
+    i64_ = u16;
+T =65535 x = ' '
+    ; u128
+= true ; }")).
+Eval vm_compute in ("<<<M3210>>>" ++ check (runes_of_ascii "MetaData body{packet
+}	Packet { x_y_z @calculatedFrom(  ""a\\"")// `tick` ""quote"" 'q'
+, }
 ")).
-Eval vm_compute in ("<<<M3210>>>" ++ check (runes_of_ascii "packet
-string_ {@lengthOf( int ) match match packetx as f32a {
-    1 :	calculatedFrom , }  ,
-    } packet len
-    //	t
-    { @calculatedFrom( """ ++ [233]%N ++ runes_of_ascii "t" ++ [233]%N ++ runes_of_ascii """ ) body Header , char[] lengthOf  `two words` ,chars{repeat string_ matchKey ,
-    } ,
-    }
+Eval vm_compute in ("<<<M3242>>>" ++ check (runes_of_ascii "MetaData body{}
+packet	Packet { x_y_z @calculatedFrom(")).
+Eval vm_compute in ("<<<M3274>>>" ++ check (runes_of_ascii "MetaData ~body{}
+packet	Packet { x_y_z @calculatedFrom(  ""a\\"")// `tick` ""quote"" 'q'
+, }
 ")).
-Eval vm_compute in ("<<<M3242>>>" ++ check (runes_of_ascii "packet
-string_ {@lengthOf( int ) match packetx as f32a {
-    1 ,	calculatedFrom , }  ,
-    } packet len
-    //	t
-    { @calculatedFrom( """ ++ [233]%N ++ runes_of_ascii "t" ++ [233]%N ++ runes_of_ascii """ ) body Header , char[] lengthOf  `two words` ,chars{repeat string_ matchKey ,
-    } ,
-    }
+Eval vm_compute in ("<<<M3306>>>" ++ check (runes_of_ascii "packet f32a {} root len packet {repeat u // " ++ [128512]%N ++ runes_of_ascii " emoji
+`{ , }` , }
 ")).
-Eval vm_compute in ("<<<M3274>>>" ++ check (runes_of_ascii "packet
-string_ {@lengthOf( int ) match packetx as f32a {
-    1 :	calculatedFrom , }  ,
-    } packet 
-    //	t
-    { @calculatedFrom( """ ++ [233]%N ++ runes_of_ascii "t" ++ [233]%N ++ runes_of_ascii """ ) body Header , char[] lengthOf  `two words` ,chars{repeat string_ matchKey ,
-    } ,
-    }
-")).
-Eval vm_compute in ("<<<M3306>>>" ++ check (runes_of_ascii "packet
-string_ {@lengthOf( int ) match packetx as f32a {
-    1 :	calculatedFrom , }  ,
-    } packet len
-    //	t
-    { @calculatedFrom( """ ++ [233]%N ++ runes_of_ascii "t" ++ [233]%N ++ runes_of_ascii """ ) body , Header char[] lengthOf  `two words` ,chars{repeat string_ matchKey ,
-    } ,
-    }
-")).
-Eval vm_compute in ("<<<M3338>>>" ++ check (runes_of_ascii "packet
-string_ {@lengthOf( int ) match packetx as f32a {
-    1 :	calculatedFrom , }  ,
-    } packet len
-    //	t
-    { @calculatedFrom( """ ++ [233]%N ++ runes_of_ascii "t" ++ [233]%N ++ runes_of_ascii """ ) body Header , char[] lengthOf  `two words` ,")).
-Eval vm_compute in ("<<<M3370>>>" ++ check (runes_of_ascii "packet
-string_ {@lengthOf( int ) match packetx as f32a {
-    1 :	calculatedFrom , }  ,
-    } packet len
-    //	t
-    { @calculatedFrom( """ ++ [233]%N ++ runes_of_ascii "t" ++ [233]%N ++ runes_of_ascii """ ) body Header , char[] lengthOf  `two words` ,chars{repeat string_ matchKey ,
-    } , ,
-    }
-")).
-Eval vm_compute in ("<<<M3402>>>" ++ check (runes_of_ascii "/// triple
-root
-packet // packet A { u8 x, }
-chars { @lengthOf(charz )
-stringy,  @tag(  0 ) // a // b
-asx
-    As
-,
-// trailing space 
-// trailing space 
-x_y_z {
-repeat i16 charz , } , ,	int16  crc ,}
-")).
-Eval vm_compute in ("<<<M3434>>>" ++ check (runes_of_ascii "/// triple
-
-packet // packet A { u8 x, }
-chars { @lengthOf(charz )
-stringy,  @tag(  0 ) // a // b
-asx
-    As
-,
-// trailing space 
-// trailing space 
-x_y_z {
-repeat i16 charz , } ,	int16  crc ,}
-")).
-Eval vm_compute in ("<<<M3466>>>" ++ check (runes_of_ascii "/// triple
-root
-packet // packet A { u8 x, }
-chars { @lengthOf(charz )
-stringy,  @tag(  0 )")).
+Eval vm_compute in ("<<<M3338>>>" ++ check (runes_of_ascii "packet f32a {} root packet len {repeat u // " ++ [128512]%N ++ runes_of_ascii " emoji
+`{ , }`")).
+Eval vm_compute in ("<<<M3370>>>" ++ check (runes_of_ascii "options{ _x=""\" ++ [233]%N ++ runes_of_ascii """;
+    Logon = 10	; Foo= 7;
+i64_= char[]} options {
+matchKey = ""// no comment"" // a // b
+falsey = string
+; trueish =
+    4294967296
+options1=
+    ""it's"" string_	= true true } options {
+    /// triple
+    }")).
+Eval vm_compute in ("<<<M3402>>>" ++ check (runes_of_ascii "options{ _x=""\" ++ [233]%N ++ runes_of_ascii """;
+    Logon = 10	; Foo= 7;
+i64_= char[]} options {
+matchKey = ""// no comment"" // a // b
+falsey = string
+; trueish =
+    4294967296
+options1=
+    ""it's"" string_	= ) } options {
+    /// triple
+    }")).
+Eval vm_compute in ("<<<M3434>>>" ++ check (runes_of_ascii "options{ _x=""\" ++ [233]%N ++ runes_of_ascii """;
+    Logon = 10	; Foo= 7;
+i64_= char[]} options {
+matchKey = ""// no comment"" // a // b
+falsey = string
+; trueish =
+    4294967296
+options1=
+     string_	= true } options {
+    /// triple
+    }")).
+Eval vm_compute in ("<<<M3466>>>" ++ check (runes_of_ascii "options{ _x=""\" ++ [233]%N ++ runes_of_ascii """;
+    Logon = 10	; Foo= 7;
+i64_= char[]} options {
+matchKey = ""// no comment"" // a // b
+falsey = string
+; trueish =
+    4294967296
+options1=
+    ""it's"" string_	= } true options {
+    /// triple
+    }")).
 Eval vm_compute in ("<<<M3498>>>" ++ check (runes_of_ascii "zchar [")).
 Eval vm_compute in ("<<<M3530>>>" ++ check (runes_of_ascii "MetaData")).
 Eval vm_compute in ("<<<M3562>>>" ++ check (runes_of_ascii "@@")).
@@ -2047,10 +1652,10 @@ Eval vm_compute in ("<<<M3658>>>" ++ check (runes_of_ascii "packet A { x @calcul
 Eval vm_compute in ("<<<M3690>>>" ++ check (runes_of_ascii "packet A { @leftPad u8 x, }")).
 Eval vm_compute in ("<<<M3722>>>" ++ check (runes_of_ascii "MetaData M M { }")).
 Eval vm_compute in ("<<<M3754>>>" ++ check (runes_of_ascii "")).
-Eval vm_compute in ("<<<M3786>>>" ++ check (runes_of_ascii "@calculatedFrom( u32 MetaData @leftPad MetaData match , `a\` )")).
-Eval vm_compute in ("<<<M3818>>>" ++ check (runes_of_ascii "@rightPad")).
-Eval vm_compute in ("<<<M3850>>>" ++ check (runes_of_ascii "MetaData match ) char i16 repeat @tag( ] int64")).
-Eval vm_compute in ("<<<M3882>>>" ++ check (runes_of_ascii "uint8 ,")).
-Eval vm_compute in ("<<<M3914>>>" ++ check (runes_of_ascii "[ float32 false int32 `a\` ( } match ( string {")).
-Eval vm_compute in ("<<<M3946>>>" ++ check (runes_of_ascii "@leftPad : false packet match")).
-Eval vm_compute in ("<<<M3978>>>" ++ check (runes_of_ascii "options ; as false u64 as u32 i64 : int8 u8 root uint16")).
+Eval vm_compute in ("<<<M3786>>>" ++ check (runes_of_ascii "u64 ; char[] uint8 10")).
+Eval vm_compute in ("<<<M3818>>>" ++ check (runes_of_ascii "@leftPad ( as u64 string uint16")).
+Eval vm_compute in ("<<<M3850>>>" ++ check (runes_of_ascii "{ ] ""\" ++ [233]%N ++ runes_of_ascii """ int16 MetaData char")).
+Eval vm_compute in ("<<<M3882>>>" ++ check (runes_of_ascii "u64 ( ; float32 false MetaData u64 trueish")).
+Eval vm_compute in ("<<<M3914>>>" ++ check (runes_of_ascii "int16 u64 uint16 repeat")).
+Eval vm_compute in ("<<<M3946>>>" ++ check (runes_of_ascii "@tag(")).
+Eval vm_compute in ("<<<M3978>>>" ++ check (runes_of_ascii "match : f32 char[ zchar[ 65535")).
